@@ -350,7 +350,7 @@ theorem c15b_dict_encode (vs : List (Option Str)) (h : vs.length < 4294967296) (
   cases (Spec.distinct vs []).idxOf? s <;> simp
 
 /-- N -/
-example : (dictOf [some [80], none, some [67], some [80]]).decode = [some [80], none, some [67], some [80]] ∧
+theorem c15b_dict_nonvacuity : (dictOf [some [80], none, some [67], some [80]]).decode = [some [80], none, some [67], some [80]] ∧
     (dictOf [some [80], none, some [67], some [80]]).codes = [0, 0, 1, 0] := by decide
 
 /-! ### bit vector -/
@@ -653,6 +653,3739 @@ theorem c15b_bitvec_count_ones (bs : List Bool) :
   rw [countOnes_wf _ (fromBools_wf bs), onesBelow_fromBools]
   have hl : (BVec.fromBools bs).len = bs.length := rfl
   rw [hl, List.take_length]
+
+
+/-! ### push on clean vectors, bytes -/
+
+theorem bitmapNull_append_zero (data : List Nat) (q : Nat) :
+    bitmapNull (data ++ [0]) q = bitmapNull data q := by
+  unfold bitmapNull
+  by_cases h : q / 64 < data.length
+  · rw [List.getElem?_append_left h]
+  · rw [List.getElem?_eq_none (Nat.le_of_not_lt h)]
+    by_cases h2 : q / 64 = data.length
+    · rw [List.getElem?_append_right (by omega), h2]; simp [getBit_zero]
+    · rw [List.getElem?_eq_none (by simp; omega)]
+
+/-- pushing onto a well-formed vector whose padding is clean appends exactly one bit -/
+theorem push_clean (v : BVec) (hw : v.WF) (hc : v.Clean) (b : Bool) :
+    ∃ v', v.push b = .ok v' ∧ v'.WF ∧ v'.Clean ∧ v'.len = v.len + 1 ∧
+      ∀ q, bitmapNull v'.data q = if q = v.len then b else bitmapNull v.data q := by
+  obtain ⟨data, len⟩ := v
+  obtain ⟨hlen, hlt⟩ := hw
+  simp only at hlen hlt
+  unfold BVec.Clean at hc
+  simp only at hc
+  unfold nWords at hlen
+  -- the word array after the optional `data.push(0)`
+  have key : ∀ data', data'.length = (len + 1 + 63) / 64 → (∀ w ∈ data', w < W) →
+      (∀ q, bitmapNull data' q = bitmapNull data q) →
+      ∃ v', (match data'[len / 64]? with
+          | none => if b then Res.panic else Res.ok (BVec.mk data' (len + 1))
+          | some _ => Res.ok (BVec.mk (if b then orBitAt data' len else data') (len + 1))) = .ok v' ∧
+        v'.WF ∧ v'.Clean ∧ v'.len = len + 1 ∧
+        ∀ q, bitmapNull v'.data q = if q = len then b else bitmapNull data q := by
+    intro data' hl' hlt' hbits
+    have hin : len / 64 < data'.length := by omega
+    rw [List.getElem?_eq_getElem hin]
+    simp only
+    refine ⟨_, rfl, ?_, ?_, rfl, ?_⟩
+    · refine ⟨?_, ?_⟩
+      · simp only [nWords]; split <;> simp [orBitAt_length, hl']
+      · simp only; split
+        · exact orBitAt_lt _ _ hlt'
+        · exact hlt'
+    · intro q hq
+      simp only at hq ⊢
+      cases b
+      · simp only [Bool.false_eq_true, if_false]; rw [hbits]; exact hc q (by omega)
+      · simp only [if_true]; rw [bitmapNull_orBitAt, hbits, hc q (by omega)]
+        have : len ≠ q := by omega
+        simp [this]
+    · intro q
+      simp only
+      cases b
+      · simp only [Bool.false_eq_true, if_false]; rw [hbits]
+        by_cases hq : q = len
+        · subst hq; rw [if_pos rfl]; exact hc q (Nat.le_refl _)
+        · rw [if_neg hq]
+      · simp only [if_true]; rw [bitmapNull_orBitAt, hbits]
+        by_cases hq : q = len
+        · subst hq; simp [hin]
+        · have : len ≠ q := fun h => hq h.symm
+          simp [hq, this]
+  unfold BVec.push
+  simp only
+  by_cases hg : len / 64 ≥ data.length
+  · rw [if_pos hg]
+    apply key
+    · simp; omega
+    · intro w hw; rcases List.mem_append.mp hw with h | h
+      · exact hlt w h
+      · simp at h; subst h; decide
+    · exact bitmapNull_append_zero data
+  · rw [if_neg hg]
+    apply key
+    · omega
+    · exact hlt
+    · intro q; rfl
+
+/-- P: on a vector whose padding bits are clear (every vector built by `from_bools`, `new`,
+`zeros` and pushes is; `ones(n)`, `filled(n, true)` and `not()` are not), `push` appends: the bits
+read back are the old bits followed by the pushed bit. -/
+theorem c15b_bitvec_push_partial (v : BVec) (hw : v.WF) (hc : v.Clean) (b : Bool) (bs : List Bool)
+    (hb : v.toBools = .ok bs) :
+    ∃ v', v.push b = .ok v' ∧ v'.WF ∧ v'.Clean ∧ v'.toBools = .ok (bs ++ [b]) := by
+  obtain ⟨v', h1, h2, h3, h4, h5⟩ := push_clean v hw hc b
+  refine ⟨v', h1, h2, h3, ?_⟩
+  rw [toBools_wf v hw] at hb
+  cases hb
+  rw [toBools_wf v' h2, h4, List.range_succ, List.map_append]
+  congr 1
+  congr 1
+  · apply List.map_congr_left
+    intro q hq
+    have := List.mem_range.mp hq
+    rw [h5, if_neg (by omega)]
+  · simp [h5]
+
+/-- W: the unrestricted statement is false. `BitVector::ones(1)` fills the 63 padding bits too, so
+the `false` pushed next reads back as `true`; likewise after `not()`. -/
+theorem c15b_bitvec_push_dirty_witness :
+    (match (BVec.filled 1 true).push false with
+      | .ok v => v.toBools
+      | _ => .panic) = .ok [true, true] ∧
+    (match (BVec.fromBools [true]).not.push false with
+      | .ok v => v.toBools
+      | _ => .panic) = .ok [false, true] ∧
+    ¬ (BVec.filled 1 true).Clean := by
+  refine ⟨by decide, by decide, ?_⟩
+  intro h
+  have := h 1 (by decide)
+  revert this; decide
+
+/-- N: the hypotheses of the partial theorem hold for a non-trivial vector. -/
+theorem c15b_bitvec_push_nonvacuity : (BVec.fromBools [true, false, true]).WF ∧ (BVec.fromBools [true, false, true]).Clean :=
+  ⟨fromBools_wf _, fromBools_clean _⟩
+
+theorem filled_false_wf_clean (n : Nat) : (BVec.filled n false).WF ∧ (BVec.filled n false).Clean := by
+  refine ⟨⟨by simp [BVec.filled], ?_⟩, ?_⟩
+  · intro w hw; simp [BVec.filled] at hw; rw [hw.2]; decide
+  · intro q _; simp only [BVec.filled, Bool.false_eq_true, if_false]; exact bitmapNull_replicate _ _
+
+theorem empty_wf_clean : BVec.empty.WF ∧ BVec.empty.Clean := by
+  refine ⟨⟨rfl, by intro w hw; cases hw⟩, ?_⟩
+  intro q _; rfl
+
+/-- pushing a whole list onto a clean vector -/
+theorem pushAll_clean (v : BVec) (hw : v.WF) (hc : v.Clean) (bs : List Bool) :
+    ∃ v', v.pushAll bs = .ok v' ∧ v'.WF ∧ v'.Clean ∧ v'.len = v.len + bs.length ∧
+      ∀ q, bitmapNull v'.data q =
+        if q < v.len then bitmapNull v.data q else bs.getD (q - v.len) false := by
+  induction bs generalizing v with
+  | nil =>
+    refine ⟨v, rfl, hw, hc, rfl, ?_⟩
+    intro q
+    by_cases hq : q < v.len
+    · rw [if_pos hq]
+    · rw [if_neg hq, hc q (by omega)]; rfl
+  | cons b bs ih =>
+    obtain ⟨v1, h1, h2, h3, h4, h5⟩ := push_clean v hw hc b
+    obtain ⟨v2, g1, g2, g3, g4, g5⟩ := ih v1 h2 h3
+    refine ⟨v2, ?_, g2, g3, by rw [g4, h4]; simp; omega, ?_⟩
+    · unfold BVec.pushAll; rw [h1]; exact g1
+    · intro q
+      rw [g5, h4, h5]
+      by_cases hq : q < v.len
+      · rw [if_pos (by omega), if_neg (by omega), if_pos hq]
+      · rw [if_neg hq]
+        by_cases hq2 : q = v.len
+        · subst hq2; rw [if_pos (by omega), if_pos rfl]; simp
+        · rw [if_neg (by omega)]
+          have : q - v.len = (q - (v.len + 1)) + 1 := by omega
+          rw [this]; simp [List.getD]
+
+/-- F: collecting booleans by repeated `push` (the `FromIterator` impl, the way the wavelet tree
+and Elias-Fano build their vectors) gives a vector that reads back as the input. -/
+theorem c15b_bitvec_collect (bs : List Bool) :
+    ∃ v, BVec.empty.pushAll bs = .ok v ∧ v.WF ∧ v.Clean ∧ v.toBools = .ok bs := by
+  obtain ⟨v, h1, h2, h3, h4, h5⟩ := pushAll_clean BVec.empty empty_wf_clean.1 empty_wf_clean.2 bs
+  refine ⟨v, h1, h2, h3, ?_⟩
+  rw [toBools_wf v h2]
+  congr 1
+  have hl : v.len = bs.length := by rw [h4]; simp [BVec.empty]
+  apply List.ext_getElem?
+  intro i
+  rw [hl, List.getElem?_map]
+  by_cases hi : i < bs.length
+  · rw [List.getElem?_range hi, Option.map_some, h5]
+    simp [BVec.empty, List.getD, List.getElem?_eq_getElem hi]
+  · rw [List.getElem?_eq_none (by simpa using Nat.le_of_not_lt hi),
+        List.getElem?_eq_none (by omega)]; rfl
+
+/-- serialisation round trip for any well-formed bit vector -/
+theorem fromBytes_toBytes (v : BVec) (hw : v.WF) (hl : v.len < 4294967296) :
+    BVec.fromBytes v.toBytes = some v := by
+  obtain ⟨data, len⟩ := v
+  obtain ⟨hlen, hlt⟩ := hw
+  simp only at hlen hlt hl
+  have l4 : (leBytes 4 (len % 4294967296)).length = 4 := leBytes_length _ _
+  have lf : ((data.map (leBytes 8)).flatten).length = 8 * data.length := by
+    clear hlen hlt
+    induction data with
+    | nil => rfl
+    | cons w ws ih => simp [List.flatten_cons, leBytes_length, ih]; omega
+  unfold BVec.fromBytes BVec.toBytes
+  simp only
+  rw [Nat.mod_eq_of_lt hl] at l4 ⊢
+  rw [take_append_len _ _ 4 l4, drop_append_len _ _ 4 l4]
+  rw [ofLe_leBytes 4 _ (by rw [← u32_eq]; exact hl)]
+  rw [if_neg (by simp only [List.length_append, l4]; omega)]
+  rw [if_neg (by simp only [List.length_append, l4, lf]; omega)]
+  have := readWords_flatten data [] hlt
+  rw [List.append_nil] at this
+  rw [← hlen, this]
+
+/-- F: serialising a bit vector and reading it back changes nothing (whatever its padding bits;
+the length field is a `u32`). -/
+theorem c15b_bitvec_bytes_roundtrip (bs : List Bool) (hl : bs.length < 4294967296) :
+    BVec.fromBytes (BVec.fromBools bs).toBytes = some (BVec.fromBools bs) :=
+  fromBytes_toBytes _ (fromBools_wf bs) hl
+
+
+/-! ### byte formats of the integer codecs (needed by the codec selector) -/
+
+theorem flatten_le8_length (ws : List Nat) : ((ws.map (leBytes 8)).flatten).length = 8 * ws.length := by
+  induction ws with
+  | nil => rfl
+  | cons w ws ih => simp [List.flatten_cons, leBytes_length, ih]; omega
+
+theorem packWord_lt (b j : Nat) (vs : List Nat) : packWord b j vs < W := by
+  induction vs generalizing j with
+  | nil => simp [packWord, W]
+  | cons v vs ih =>
+    unfold packWord
+    rw [W_eq2]
+    apply Nat.or_lt_two_pow
+    · rw [← W_eq2]; exact Nat.mod_lt _ (by decide)
+    · rw [← W_eq2]; exact ih _
+
+theorem chunksOf_length (n : Nat) (hn : 0 < n) (f : Nat) (l : List Nat) (hf : l.length ≤ f) :
+    (chunksOf n f l).length = (l.length + n - 1) / n := by
+  induction f generalizing l with
+  | zero =>
+    have : l = [] := List.length_eq_zero_iff.mp (by omega)
+    subst this
+    simp [chunksOf]
+    exact (Nat.div_eq_of_lt (by omega)).symm
+  | succ f ih =>
+    cases l with
+    | nil =>
+      simp [chunksOf]
+      exact (Nat.div_eq_of_lt (by omega)).symm
+    | cons x xs =>
+      simp only [chunksOf, List.length_cons]
+      rw [ih _ (by simp only [List.length_drop, List.length_cons] at *; omega)]
+      simp only [List.length_drop, List.length_cons]
+      by_cases hle : xs.length + 1 ≤ n
+      · have h1 : xs.length + 1 - n = 0 := by omega
+        rw [h1]
+        have e1 : (0 + n - 1) / n = 0 := Nat.div_eq_of_lt (by omega)
+        have e2 : (xs.length + 1 + n - 1) / n = 1 := by
+          apply Nat.div_eq_of_lt_le <;> omega
+        omega
+      · have : xs.length + 1 + n - 1 = (xs.length + 1 - n + n - 1) + n := by omega
+        rw [this, Nat.add_div_right _ hn]
+
+/-- serialisation round trip of a packed block with consistent header -/
+theorem Packed.fromBytes_toBytes (p : Packed) (hb : p.bits ≤ 64) (hc : p.count < 4294967296)
+    (hd : ∀ w ∈ p.data, w < W)
+    (hl : p.data.length = if p.bits = 0 ∨ p.count = 0 then 0
+                           else (p.count + 64 / p.bits - 1) / (64 / p.bits)) :
+    Packed.fromBytes p.toBytes = .ok p := by
+  obtain ⟨data, bits, count⟩ := p
+  simp only at hb hc hd hl
+  have l4 : (leBytes 4 count).length = 4 := leBytes_length _ _
+  unfold Packed.fromBytes Packed.toBytes Generated.bitpackHeaderLen
+  simp only
+  rw [Nat.mod_eq_of_lt hc, Nat.mod_eq_of_lt (show bits < 256 by omega)]
+  rw [if_neg (by simp only [List.length_cons, List.length_append, l4]; omega)]
+  simp only [List.headD_cons, List.drop_succ_cons, List.drop_zero]
+  rw [take_append_len _ _ 4 l4, ofLe_leBytes 4 _ (by rw [← u32_eq]; exact hc)]
+  split
+  · rename_i h; simp at h; omega
+  · have hdrop : ((leBytes 4 count ++ (data.map (leBytes 8)).flatten).drop 4) = (data.map (leBytes 8)).flatten :=
+      drop_append_len _ _ 4 l4
+    rw [hdrop]
+    have hrw := readWords_flatten data [] hd
+    rw [List.append_nil] at hrw
+    by_cases hz : bits = 0 ∨ count = 0
+    · have hl0 : data.length = 0 := by rw [hl, if_pos hz]
+      have : data = [] := List.length_eq_zero_iff.mp hl0
+      subst this
+      rcases hz with hz | hz <;> simp [hz, readWords]
+    · rw [if_neg hz] at hl
+      have h1 : bits ≠ 0 := fun h => hz (Or.inl h)
+      have h2 : count ≠ 0 := fun h => hz (Or.inr h)
+      simp [h1, h2, ← hl, hrw]
+
+theorem pack_wellformed (vs : List Nat) (hb : ∀ v ∈ vs, v < W) :
+    (pack vs).bits ≤ 64 ∧ (pack vs).count = vs.length ∧ (∀ w ∈ (pack vs).data, w < W) ∧
+    (pack vs).data.length = if (pack vs).bits = 0 ∨ (pack vs).count = 0 then 0
+      else ((pack vs).count + 64 / (pack vs).bits - 1) / (64 / (pack vs).bits) := by
+  by_cases hne : vs = []
+  · subst hne; exact ⟨by decide, rfl, (by intro w hw; cases hw), (by decide)⟩
+  · obtain ⟨e, h1, h2, _⟩ := pack_bits vs hne hb
+    obtain ⟨hcount, hbits⟩ := packWithBits_count_bits vs _ hne h1
+    rw [e, hcount, hbits]
+    have hb0 : bitsNeeded (listMax vs) ≠ 0 := by omega
+    have hlen : vs.length ≠ 0 := fun h => hne (List.length_eq_zero_iff.mp h)
+    refine ⟨h2, rfl, ?_, ?_⟩
+    · intro w hw
+      simp only [packWithBits, if_neg hne, if_neg hb0, List.mem_map] at hw
+      obtain ⟨c, _, rfl⟩ := hw
+      exact packWord_lt _ _ _
+    · rw [if_neg (by omega)]
+      simp only [packWithBits, if_neg hne, if_neg hb0, List.length_map]
+      exact chunksOf_length _ (Nat.div_pos h2 (by omega)) _ _ (Nat.le_refl _)
+
+/-- F: serialising a bit-packed block and reading it back changes nothing. -/
+theorem c15b_pack_bytes_roundtrip (vs : List Nat) (hb : ∀ v ∈ vs, v < W)
+    (hc : vs.length < 4294967296) : Packed.fromBytes (pack vs).toBytes = .ok (pack vs) := by
+  obtain ⟨h1, h2, h3, h4⟩ := pack_wellformed vs hb
+  exact Packed.fromBytes_toBytes _ h1 (by rw [h2]; exact hc) h3 h4
+
+/-- F: serialising a delta + bit-packed block and reading it back changes nothing. -/
+theorem c15b_dbp_bytes_roundtrip (vs : List Nat) (hb : ∀ v ∈ vs, v < W)
+    (hc : vs.length < 4294967296) : DBP.fromBytes (DBP.encode vs).toBytes = .ok (DBP.encode vs) := by
+  have key : ∀ (base : Nat) (ds : List Nat), base < W → (∀ v ∈ ds, v < W) → ds.length < 4294967296 →
+      DBP.fromBytes (DBP.mk base (pack ds)).toBytes = .ok (DBP.mk base (pack ds)) := by
+    intro base ds hbase hds hlen
+    have l8 : (leBytes 8 base).length = 8 := leBytes_length _ _
+    unfold DBP.fromBytes DBP.toBytes
+    simp only
+    rw [if_neg (by simp only [List.length_append, l8]; omega)]
+    rw [drop_append_len _ _ 8 l8, take_append_len _ _ 8 l8, c15b_pack_bytes_roundtrip ds hds hlen]
+    simp only
+    rw [ofLe_leBytes 8 _ (by rw [← W_eq]; exact hbase)]
+  cases vs with
+  | nil => exact key 0 [] (by decide) (by intro v hv; cases hv) (by decide)
+  | cons a t =>
+    have : DBP.encode (a :: t) = ⟨a, pack (satDeltas (a :: t))⟩ := rfl
+    rw [this]
+    apply key a _ (hb a (by simp)) (satDeltas_lt _ hb)
+    rw [satDeltas_length]; simp at hc ⊢; omega
+
+theorem readRuns_flatten (rs : List (Nat × Nat)) (h : ∀ r ∈ rs, r.1 < W ∧ r.2 < W) :
+    readRuns rs.length ((rs.map (fun (v, n) => leBytes 8 v ++ leBytes 8 n)).flatten) = some rs := by
+  induction rs with
+  | nil => simp [readRuns]
+  | cons r rs ih =>
+    obtain ⟨v, n⟩ := r
+    have ⟨hv, hn⟩ := h (v, n) (by simp)
+    have ih' := ih (fun x hx => h x (by simp [hx]))
+    have l8v : (leBytes 8 v).length = 8 := leBytes_length _ _
+    have l8n : (leBytes 8 n).length = 8 := leBytes_length _ _
+    simp only [List.map_cons, List.flatten_cons, List.length_cons, readRuns]
+    have hlen : ¬ ((leBytes 8 v ++ leBytes 8 n ++
+        (rs.map (fun (v, n) => leBytes 8 v ++ leBytes 8 n)).flatten).length < 16) := by
+      simp only [List.length_append, l8v, l8n]; omega
+    rw [if_neg hlen]
+    have e16 : (leBytes 8 v ++ leBytes 8 n ++
+        (rs.map (fun (v, n) => leBytes 8 v ++ leBytes 8 n)).flatten).drop 16 =
+        (rs.map (fun (v, n) => leBytes 8 v ++ leBytes 8 n)).flatten :=
+      drop_append_len _ _ 16 (by simp only [List.length_append, l8v, l8n])
+    rw [e16, ih']
+    simp only
+    rw [List.append_assoc, take_append_len _ _ 8 l8v, drop_append_len _ _ 8 l8v,
+        take_append_len _ _ 8 l8n, ofLe_leBytes 8 v (by rw [← W_eq]; exact hv),
+        ofLe_leBytes 8 n (by rw [← W_eq]; exact hn)]
+
+theorem Rle.fromBytes_toBytes (r : Rle) (hl : r.runs.length < W) (h : ∀ x ∈ r.runs, x.1 < W ∧ x.2 < W) :
+    Rle.fromBytes r.toBytes = some (Rle.fromRuns r.runs) := by
+  have l8 : (leBytes 8 r.runs.length).length = 8 := leBytes_length _ _
+  unfold Rle.fromBytes Rle.toBytes
+  rw [if_neg (by simp only [List.length_append, l8]; omega)]
+  rw [take_append_len _ _ 8 l8, drop_append_len _ _ 8 l8,
+      ofLe_leBytes 8 _ (by rw [← W_eq]; exact hl), readRuns_flatten _ h]
+
+theorem rleLoop_bounds (cv cl : Nat) (vs : List Nat) (B : Nat) (hcv : cv < W) (hv : ∀ v ∈ vs, v < W)
+    (hcl : cl + vs.length ≤ B) :
+    (rleLoop cv cl vs).length ≤ vs.length + 1 ∧ ∀ x ∈ rleLoop cv cl vs, x.1 < W ∧ x.2 ≤ B := by
+  induction vs generalizing cv cl with
+  | nil =>
+    simp only [rleLoop, List.length_cons, List.length_nil, List.mem_singleton]
+    refine ⟨by omega, ?_⟩
+    intro x hx; subst hx; simp at hcl; exact ⟨hcv, hcl⟩
+  | cons v vs ih =>
+    unfold rleLoop
+    have hv' : ∀ u ∈ vs, u < W := fun u hu => hv u (by simp [hu])
+    simp only [List.length_cons] at hcl
+    split
+    · obtain ⟨h1, h2⟩ := ih cv (cl + 1) hcv hv' (by omega)
+      exact ⟨by simp only [List.length_cons]; omega, h2⟩
+    · obtain ⟨h1, h2⟩ := ih v 1 (hv v (by simp)) hv' (by omega)
+      refine ⟨by simp only [List.length_cons]; omega, ?_⟩
+      intro x hx
+      rcases List.mem_cons.mp hx with rfl | hx
+      · exact ⟨hcv, by simp only; omega⟩
+      · exact h2 x hx
+
+theorem Rle.decode_fromRuns (r : Rle) : (Rle.fromRuns r.runs).decode = r.decode := rfl
+
+/-- F: serialising a run-length block and reading it back gives a block that decodes to the
+original sequence and reports its length. -/
+theorem c15b_rle_bytes_roundtrip (vs : List Nat) (hb : ∀ v ∈ vs, v < W) (hc : vs.length < 4294967296) :
+    ∃ r, Rle.fromBytes (Rle.encode vs).toBytes = some r ∧ r.decode = vs ∧ r.total = vs.length ∧
+      r.runs.length ≤ vs.length := by
+  have hruns : (Rle.encode vs).runs.length ≤ vs.length ∧
+      ∀ x ∈ (Rle.encode vs).runs, x.1 < W ∧ x.2 ≤ vs.length := by
+    cases vs with
+    | nil => exact ⟨Nat.le_refl _, by intro x hx; cases hx⟩
+    | cons v t =>
+      obtain ⟨h1, h2⟩ := rleLoop_bounds v 1 t (t.length + 1) (hb v (by simp))
+        (fun u hu => hb u (by simp [hu])) (by omega)
+      exact ⟨by simpa [Rle.encode] using h1, by simpa [Rle.encode] using h2⟩
+  refine ⟨Rle.fromRuns (Rle.encode vs).runs, ?_, ?_, (c15_rle_total vs).2, hruns.1⟩
+  · apply Rle.fromBytes_toBytes
+    · have : (4294967296 : Nat) < W := by decide
+      omega
+    · intro x hx
+      obtain ⟨h1, h2⟩ := hruns.2 x hx
+      have : (4294967296 : Nat) < W := by decide
+      exact ⟨h1, by omega⟩
+  · rw [Rle.decode_fromRuns, c15_rle_roundtrip]
+
+
+/-! ### zig-zag, without `bv_decide` -/
+
+theorem bv_and_one (u : BitVec 64) : (u &&& 1#64).toNat = u.toNat % 2 := by
+  rw [BitVec.toNat_and]
+  have : (1#64).toNat = 2 ^ 1 - 1 := by decide
+  rw [this, Nat.and_two_pow_sub_one_eq_mod]
+
+/-- zig-zag decoding undoes zig-zag encoding (arithmetic proof, no external decision procedure) -/
+theorem zzDec_zzEnc' (v : BitVec 64) : zzDec (zzEnc v) = v := by
+  unfold zzDec zzEnc Generated.zigzagShift
+  have hv := v.isLt
+  cases hm : v.msb with
+  | false =>
+    have hlt : v.toNat < 2 ^ 63 := by
+      rw [BitVec.msb_eq_decide] at hm; simpa using hm
+    have hs : v.sshiftRight 63 = 0#64 := by
+      rw [BitVec.sshiftRight_eq_of_msb_false hm]
+      apply BitVec.eq_of_toNat_eq
+      rw [BitVec.toNat_ushiftRight, Nat.shiftRight_eq_div_pow]
+      simp only [BitVec.toNat_ofNat, Nat.zero_mod]
+      exact Nat.div_eq_of_lt hlt
+    rw [hs, BitVec.xor_zero]
+    have h2 : (v <<< 1).toNat = 2 * v.toNat := by
+      rw [BitVec.toNat_shiftLeft, Nat.shiftLeft_eq]; omega
+    have hl : (v <<< 1) &&& 1#64 = 0#64 := by
+      apply BitVec.eq_of_toNat_eq
+      rw [bv_and_one, h2]; simp
+    have hl' : (v <<< 1) &&& 1 = 0#64 := hl
+    rw [hl']
+    simp only [BitVec.neg_zero, BitVec.xor_zero]
+    apply BitVec.eq_of_toNat_eq
+    rw [BitVec.toNat_ushiftRight, h2, Nat.shiftRight_eq_div_pow]; omega
+  | true =>
+    have hge : 2 ^ 63 ≤ v.toNat := by
+      rw [BitVec.msb_eq_decide] at hm; simpa using hm
+    have hs : v.sshiftRight 63 = BitVec.allOnes 64 := by
+      rw [BitVec.sshiftRight_eq_of_msb_true hm]
+      apply BitVec.eq_of_toNat_eq
+      rw [BitVec.toNat_not, BitVec.toNat_ushiftRight, BitVec.toNat_not, Nat.shiftRight_eq_div_pow,
+        BitVec.toNat_allOnes]
+      have : (2 ^ 64 - 1 - v.toNat) / 2 ^ 63 = 0 := Nat.div_eq_of_lt (by omega)
+      rw [this]
+    rw [hs, BitVec.xor_allOnes]
+    have h2 : (v <<< 1).toNat = 2 * v.toNat - 2 ^ 64 := by
+      rw [BitVec.toNat_shiftLeft, Nat.shiftLeft_eq]; omega
+    have hn : (~~~(v <<< 1)).toNat = 2 ^ 65 - 1 - 2 * v.toNat := by
+      rw [BitVec.toNat_not, h2]; omega
+    have hl : ~~~(v <<< 1) &&& 1#64 = 1#64 := by
+      apply BitVec.eq_of_toNat_eq
+      rw [bv_and_one, hn]
+      have : (1#64).toNat = 1 := by decide
+      rw [this]; omega
+    have hl' : ~~~(v <<< 1) &&& 1 = 1#64 := hl
+    rw [hl', BitVec.neg_one_eq_allOnes, BitVec.xor_allOnes]
+    apply BitVec.eq_of_toNat_eq
+    rw [BitVec.toNat_not, BitVec.toNat_ushiftRight, hn, Nat.shiftRight_eq_div_pow]; omega
+
+
+/-! ### the automatic codec selector -/
+
+theorem rawWords_flatten (vs : List Nat) (hb : ∀ v ∈ vs, v < W) :
+    rawWords ((vs.map (leBytes 8)).flatten) = vs := by
+  unfold rawWords
+  rw [flatten_le8_length]
+  have e : 8 * vs.length / 8 = vs.length := by omega
+  rw [e]
+  have := readWords_flatten vs [] hb
+  rw [List.append_nil] at this
+  rw [this]; rfl
+
+theorem isSortedB_sorted (vs : List Nat) (h : isSortedB vs = true) : Sorted vs := by
+  induction vs with
+  | nil => trivial
+  | cons a t ih =>
+    cases t with
+    | nil => trivial
+    | cons b r =>
+      simp only [isSortedB, Bool.and_eq_true, decide_eq_true_eq] at h
+      exact ⟨h.1, ih h.2⟩
+
+/-- whatever codec is used — provided delta + bit-packing is only used on sorted input other than
+`[0]` — decompression returns the input -/
+theorem decompress_encodeWith (vs : List Nat) (c : IntCodec) (hb : ∀ v ∈ vs, v < W)
+    (hl : vs.length < 4294967296)
+    (hs : ∀ b, c = .deltaBitPacked b → Sorted vs ∧ vs ≠ [0]) :
+    decompressInts (encodeWith vs c) = .ok vs := by
+  cases c with
+  | none =>
+    simp only [encodeWith, decompressInts]
+    rw [rawWords_flatten vs hb]
+  | bitPacked b =>
+    simp only [encodeWith, decompressInts]
+    rw [c15b_pack_bytes_roundtrip vs hb hl]
+    exact c15_unpack_pack vs hb
+  | deltaBitPacked b =>
+    obtain ⟨h1, h2⟩ := hs b rfl
+    simp only [encodeWith, decompressInts]
+    rw [c15b_dbp_bytes_roundtrip vs hb hl]
+    exact c15_delta_bitpacked_roundtrip_partial vs h1 hb h2
+  | runLength =>
+    obtain ⟨r, h1, h2, _, h4⟩ := c15b_rle_bytes_roundtrip vs hb hl
+    simp only [encodeWith, decompressInts]
+    have l8 : (leBytes 8 (Rle.encode vs).runs.length).length = 8 := leBytes_length _ _
+    have hlt : (Rle.encode vs).runs.length < 4294967296 := by
+      cases vs with
+      | nil => decide
+      | cons v t =>
+        obtain ⟨h1, _⟩ := rleLoop_bounds v 1 t (t.length + 1) (hb v (by simp))
+          (fun u hu => hb u (by simp [hu])) (by omega)
+        simp only [Rle.encode]; simp only [List.length_cons] at hl; omega
+    have hcount : ofLe ((Rle.encode vs).toBytes.take 8) = (Rle.encode vs).runs.length := by
+      unfold Rle.toBytes
+      rw [take_append_len _ _ 8 l8, ofLe_leBytes 8 _ (by
+        rw [← W_eq]; have : (4294967296 : Nat) < W := by decide
+        omega)]
+    unfold rleDecompress
+    rw [if_neg (by rw [hcount]; intro h; have := h.2; omega), h1]
+    simp only [h2]
+
+theorem selectInts_dbp (vs : List Nat) (b : Nat) (h : selectInts vs = .deltaBitPacked b) :
+    isSortedB vs = true ∧ 8 ≤ vs.length := by
+  unfold selectInts at h
+  split at h
+  · cases h
+  · split at h
+    · cases h
+    · split at h
+      · rename_i h8 _ hsrt
+        exact ⟨hsrt, by omega⟩
+      · split at h
+        · cases h
+        · split at h <;> cases h
+
+/-- F: whatever codec the automatic selector picks, compressing a `u64` sequence and decompressing it
+returns the sequence — every length (the count fields are `u32`), every value. -/
+theorem c15b_selector_roundtrip (vs : List Nat) (hb : ∀ v ∈ vs, v < W) (hl : vs.length < 4294967296) :
+    decompressInts (compressInts vs) = .ok vs := by
+  unfold compressInts
+  apply decompress_encodeWith vs _ hb hl
+  intro b hsel
+  obtain ⟨h1, h2⟩ := selectInts_dbp vs b hsel
+  refine ⟨isSortedB_sorted vs h1, ?_⟩
+  intro h; rw [h] at h2; simp at h2
+
+/-- F: the same through the zig-zag front end for `i64` sequences (`compress_signed_integers`). -/
+theorem c15b_selector_signed_roundtrip (vs : List (BitVec 64)) (hl : vs.length < 4294967296) :
+    decodeSigned (decompressInts (compressSigned vs)) = .ok vs := by
+  unfold compressSigned
+  rw [c15b_selector_roundtrip _ (by
+    intro v hv
+    simp only [List.mem_map] at hv
+    obtain ⟨x, _, rfl⟩ := hv
+    rw [W_eq2]; exact (zzEnc x).isLt) (by simpa using hl)]
+  simp only [decodeSigned, List.map_map]
+  congr 1
+  have : ((fun w => zzDec (BitVec.ofNat 64 w)) ∘ fun v => (zzEnc v).toNat) = id := by
+    funext v; simp [zzDec_zzEnc']
+  rw [this, List.map_id]
+
+/-- F: compressed booleans decompress to the original sequence. -/
+theorem c15b_selector_bool_roundtrip (bs : List Bool) (hl : bs.length < 4294967296) :
+    decompressBools (compressBools bs) = .ok bs := by
+  simp only [compressBools, decompressBools]
+  rw [c15b_bitvec_bytes_roundtrip bs hl]
+  exact c15b_bitvec_roundtrip bs
+
+/-- N: the selector really uses the four codecs. -/
+theorem c15b_selector_nonvacuity : selectInts [1, 1, 1, 1, 1, 1, 1, 1, 1] = .runLength ∧
+    selectInts [1, 2, 3, 4, 5, 6, 7, 9] = .deltaBitPacked 2 ∧
+    selectInts [5, 1, 7, 2, 6, 3, 9, 4] = .bitPacked 4 ∧
+    selectInts [5, 1, 7, 2, 6, 3, 9, 4294967296] = .none ∧
+    selectInts [1, 2, 3] = .none := by decide
+
+
+/-! ### compressed property columns -/
+
+/-- keys of the hot map are unique (kept by insert and remove) -/
+def KeysNodup (m : HotMap) : Prop := (m.map (·.1)).Nodup
+
+theorem hmGet_insert (m : HotMap) (k : Nat) (v : PV) (id : Nat) :
+    hmGet (hmInsert m k v) id = if k = id then some v else hmGet m id := by
+  induction m with
+  | nil => simp [hmInsert, hmGet]
+  | cons kv r ih =>
+    obtain ⟨k', w⟩ := kv
+    unfold hmInsert
+    by_cases h : k' = k
+    · subst h; rw [if_pos rfl]
+      by_cases h2 : k' = id <;> simp [hmGet, h2]
+    · rw [if_neg h]
+      by_cases h2 : k' = id
+      · subst h2; simp [hmGet, show k ≠ k' from fun e => h e.symm]
+      · simp only [hmGet, if_neg h2, ih]
+
+theorem hmGet_some_mem (m : HotMap) (id : Nat) (v : PV) (h : hmGet m id = some v) : (id, v) ∈ m := by
+  induction m with
+  | nil => simp [hmGet] at h
+  | cons kv r ih =>
+    obtain ⟨k, w⟩ := kv
+    unfold hmGet at h
+    split at h
+    · rename_i hk; cases h; subst hk; simp
+    · exact List.mem_cons_of_mem _ (ih h)
+
+theorem hmGet_of_mem (m : HotMap) (hk : KeysNodup m) (id : Nat) (v : PV) (h : (id, v) ∈ m) :
+    hmGet m id = some v := by
+  induction m with
+  | nil => cases h
+  | cons kv r ih =>
+    obtain ⟨k, w⟩ := kv
+    unfold KeysNodup at hk
+    simp only [List.map_cons, List.nodup_cons] at hk
+    unfold hmGet
+    rcases List.mem_cons.mp h with h1 | h1
+    · cases h1; simp
+    · have : k ≠ id := by
+        intro e; subst e
+        exact hk.1 (List.mem_map.mpr ⟨(k, v), h1, rfl⟩)
+      rw [if_neg this]; exact ih hk.2 h1
+
+theorem hmGet_none_of_not_key (m : HotMap) (id : Nat) (h : id ∉ m.map (·.1)) : hmGet m id = none := by
+  cases hg : hmGet m id with
+  | none => rfl
+  | some v => exact absurd (List.mem_map.mpr ⟨(id, v), hmGet_some_mem m id v hg, rfl⟩) h
+
+theorem keysNodup_insert (m : HotMap) (hk : KeysNodup m) (k : Nat) (v : PV) : KeysNodup (hmInsert m k v) := by
+  induction m with
+  | nil => simp [hmInsert, KeysNodup]
+  | cons kv r ih =>
+    obtain ⟨k', w⟩ := kv
+    unfold KeysNodup at hk ⊢
+    simp only [List.map_cons, List.nodup_cons] at hk
+    unfold hmInsert
+    split
+    · simp only [List.map_cons, List.nodup_cons]; exact hk
+    · rename_i hne
+      simp only [List.map_cons, List.nodup_cons]
+      refine ⟨?_, ih hk.2⟩
+      intro hm
+      obtain ⟨⟨a, b⟩, hab, rfl⟩ := List.mem_map.mp hm
+      -- (a, b) ∈ hmInsert r k v: either the new pair or an old one
+      have : (a, b) = (k, v) ∨ (a, b) ∈ r := by
+        clear ih hk hm
+        induction r with
+        | nil => simp [hmInsert] at hab; left; exact Prod.ext hab.1 hab.2
+        | cons kv2 r2 ih2 =>
+          obtain ⟨k2, w2⟩ := kv2
+          unfold hmInsert at hab
+          split at hab
+          · rcases List.mem_cons.mp hab with h | h
+            · left; rename_i hk2; cases h; rw [hk2]
+            · right; exact List.mem_cons_of_mem _ h
+          · rcases List.mem_cons.mp hab with h | h
+            · right; rw [h]; simp
+            · rcases ih2 h with h | h
+              · left; exact h
+              · right; exact List.mem_cons_of_mem _ h
+      rcases this with h | h
+      · cases h; exact hne rfl
+      · exact hk.1 (List.mem_map.mpr ⟨(a, b), h, rfl⟩)
+
+theorem keysNodup_sublist (m m' : HotMap) (hs : m'.Sublist m) (hk : KeysNodup m) : KeysNodup m' :=
+  List.Nodup.sublist (List.Sublist.map _ hs) hk
+
+theorem keysNodup_remove (m : HotMap) (hk : KeysNodup m) (k : Nat) : KeysNodup (hmRemove m k) := by
+  apply keysNodup_sublist _ _ _ hk
+  induction m with
+  | nil => exact List.Sublist.refl _
+  | cons kv r ih =>
+    obtain ⟨k', w⟩ := kv
+    unfold hmRemove
+    unfold KeysNodup at hk
+    simp only [List.map_cons, List.nodup_cons] at hk
+    split
+    · exact List.sublist_cons_self _ _
+    · exact List.Sublist.cons_cons _ (ih hk.2)
+
+/-- `reinsertF` over paired ids and values is a fold of inserts -/
+theorem reinsertF_eq_foldl {α : Type} (mk : α → PV) (get : Nat → Option α) (pairs : List (Nat × α))
+    (m : HotMap) (i0 : Nat) (hget : ∀ j (hj : j < pairs.length), get (i0 + j) = some pairs[j].2) :
+    reinsertF mk get m i0 (pairs.map (·.1)) = pairs.foldl (fun m p => hmInsert m p.1 (mk p.2)) m := by
+  induction pairs generalizing m i0 with
+  | nil => rfl
+  | cons p ps ih =>
+    simp only [List.map_cons, reinsertF, List.foldl_cons]
+    have h0 := hget 0 (by simp)
+    simp only [Nat.add_zero, List.getElem_cons_zero] at h0
+    rw [h0]
+    apply ih
+    intro j hj
+    have := hget (j + 1) (by simp; omega)
+    rw [show i0 + 1 + j = i0 + (j + 1) by omega, this]; rfl
+
+/-- lookup after a fold of inserts with unique keys -/
+theorem hmGet_foldl_insert {α : Type} (mk : α → PV) (pairs : List (Nat × α))
+    (hk : (pairs.map (·.1)).Nodup) (m : HotMap) (id : Nat) :
+    hmGet (pairs.foldl (fun m p => hmInsert m p.1 (mk p.2)) m) id =
+      match pairs.find? (fun p => p.1 == id) with
+      | some p => some (mk p.2)
+      | none => hmGet m id := by
+  induction pairs generalizing m with
+  | nil => rfl
+  | cons p ps ih =>
+    simp only [List.map_cons, List.nodup_cons] at hk
+    rw [List.foldl_cons, ih hk.2, List.find?_cons]
+    by_cases hp : p.1 = id
+    · have : (p.1 == id) = true := by simpa using hp
+      rw [this]
+      -- id is not a key of ps
+      have hnone : ps.find? (fun q => q.1 == id) = none := by
+        rw [List.find?_eq_none]
+        intro q hq hqid
+        have : q.1 = id := by simpa using hqid
+        exact hk.1 (by rw [hp, ← this]; exact List.mem_map.mpr ⟨q, hq, rfl⟩)
+      rw [hnone]; simp only [hmGet_insert, if_pos hp]
+    · have : (p.1 == id) = false := by simpa using hp
+      rw [this]
+      cases ps.find? (fun q => q.1 == id) with
+      | some q => rfl
+      | none => simp only [hmGet_insert, if_neg hp]
+
+/-- the heart of the column round trip: splitting a map by a type test, carrying the selected part
+through any permutation and an encoding `un` with left inverse `mk`, and inserting it back,
+gives a map with the same lookups -/
+theorem restore_get {α : Type} (values : HotMap) (hk : KeysNodup values) (sel : PV → Bool)
+    (mk : α → PV) (un : PV → α) (hmk : ∀ v, sel v = true → mk (un v) = v)
+    (sorted : HotMap) (hp : sorted.Perm (values.filter (fun kv => sel kv.2))) (id : Nat) :
+    hmGet ((sorted.map (fun kv => (kv.1, un kv.2))).foldl (fun m p => hmInsert m p.1 (mk p.2))
+      (values.filter (fun kv => !sel kv.2))) id = hmGet values id := by
+  have hkf : KeysNodup (values.filter (fun kv => sel kv.2)) :=
+    keysNodup_sublist _ _ List.filter_sublist hk
+  have hkn : KeysNodup (values.filter (fun kv => !sel kv.2)) :=
+    keysNodup_sublist _ _ List.filter_sublist hk
+  have hks : KeysNodup sorted := by
+    unfold KeysNodup
+    exact (List.Perm.nodup_iff (List.Perm.map _ hp)).mpr hkf
+  have hkeys : ((sorted.map (fun kv => (kv.1, un kv.2))).map (·.1)) = sorted.map (·.1) := by
+    rw [List.map_map]; rfl
+  rw [hmGet_foldl_insert mk _ (by rw [hkeys]; exact hks)]
+  rw [List.find?_map]
+  cases hf : sorted.find? ((fun p => p.1 == id) ∘ fun kv => (kv.1, un kv.2)) with
+  | some kv =>
+    simp only [Option.map_some]
+    have hmem : kv ∈ sorted := List.mem_of_find?_eq_some hf
+    have hid : kv.1 = id := by
+      have := List.find?_some hf; simpa using this
+    have hmem2 : kv ∈ values.filter (fun kv => sel kv.2) := hp.mem_iff.mp hmem
+    obtain ⟨hv, hs⟩ := List.mem_filter.mp hmem2
+    rw [hmk _ (by simpa using hs)]
+    symm; apply hmGet_of_mem values hk
+    rw [← hid]; exact hv
+  | none =>
+    simp only [Option.map_none]
+    rw [List.find?_eq_none] at hf
+    -- no selected entry has key id
+    cases hg : hmGet values id with
+    | none =>
+      apply hmGet_none_of_not_key
+      intro hm
+      obtain ⟨kv, hkv, hkid⟩ := List.mem_map.mp hm
+      have hv := (List.mem_filter.mp hkv).1
+      have := hmGet_of_mem values hk kv.1 kv.2 hv
+      rw [hkid, hg] at this; cases this
+    | some v =>
+      have hv := hmGet_some_mem values id v hg
+      have hns : sel v = false := by
+        cases hsv : sel v with
+        | false => rfl
+        | true =>
+          have : (id, v) ∈ sorted := hp.mem_iff.mpr (List.mem_filter.mpr ⟨hv, by simpa using hsv⟩)
+          have := hf (id, v) this
+          simp at this
+      apply hmGet_of_mem _ hkn
+      exact List.mem_filter.mpr ⟨hv, by simp [hns]⟩
+
+
+theorem insertBy_perm {α : Type} (key : α → Nat) (a : α) (l : List α) : (insertBy key a l).Perm (a :: l) := by
+  induction l with
+  | nil => exact List.Perm.refl _
+  | cons y ys ih =>
+    unfold insertBy
+    split
+    · exact List.Perm.refl _
+    · exact (List.Perm.cons y ih).trans (List.Perm.swap a y ys)
+
+theorem sortBy_perm {α : Type} (key : α → Nat) (l : List α) : (sortBy key l).Perm l := by
+  induction l with
+  | nil => exact List.Perm.refl _
+  | cons a t ih =>
+    unfold sortBy at ih ⊢
+    rw [List.foldr_cons]
+    exact (insertBy_perm key a _).trans (List.Perm.cons a ih)
+
+theorem sortById_perm (l : HotMap) : (sortById l).Perm l := sortBy_perm _ l
+
+theorem decompressAll_of_none (c : PCol) (hn : c.compressed = none) : c.decompressAll = .ok c := by
+  unfold PCol.decompressAll; rw [hn]
+
+theorem filter_length_lt (c : PCol) (p : Nat × PV → Bool) (hl : c.values.length < 4294967296) :
+    (sortById (c.values.filter p)).length < 4294967296 := by
+  have h1 := (sortById_perm (c.values.filter p)).length_eq
+  have h2 := List.length_filter_le p c.values
+  omega
+
+theorem compressAsInts_restore (c : PCol) (hk : KeysNodup c.values) (hn : c.compressed = none)
+    (hl : c.values.length < 4294967296) :
+    ∃ c', c.compressAsInts.decompressAll = .ok c' ∧ c'.compressed = none ∧ ∀ id, c'.get id = c.get id := by
+  unfold PCol.compressAsInts
+  simp only
+  split
+  · exact ⟨c, decompressAll_of_none c hn, hn, fun _ => rfl⟩
+  · split
+    · unfold PCol.decompressAll
+      simp only
+      rw [c15b_selector_signed_roundtrip _ (by
+        rw [List.length_map]; exact filter_length_lt c _ hl)]
+      simp only
+      refine ⟨_, rfl, rfl, ?_⟩
+      intro id
+      unfold PCol.get
+      simp only
+      have e := reinsertF_eq_foldl PV.int
+        (fun i => (List.map (fun kv => intOf kv.2) (sortById (c.values.filter (fun kv => isInt kv.2))))[i]?)
+        ((sortById (c.values.filter (fun kv => isInt kv.2))).map (fun kv => (kv.1, intOf kv.2)))
+        (c.values.filter (fun kv => !isInt kv.2)) 0 (by
+          intro j hj
+          simp only [List.length_map] at hj
+          simp [List.getElem?_eq_getElem hj])
+      rw [List.map_map] at e
+      have e2 : ((fun x : Nat × BitVec 64 => x.1) ∘ fun kv : Nat × PV => (kv.1, intOf kv.2)) = (fun kv => kv.1) := rfl
+      rw [e2] at e
+      rw [e]
+      exact restore_get c.values hk isInt PV.int intOf (by
+        intro v hv; cases v <;> simp [isInt] at hv; rfl) _ (sortById_perm _) id
+    · exact ⟨c, decompressAll_of_none c hn, hn, fun _ => rfl⟩
+
+theorem compressAsBools_restore (c : PCol) (hk : KeysNodup c.values) (hn : c.compressed = none)
+    (hl : c.values.length < 4294967296) :
+    ∃ c', c.compressAsBools.decompressAll = .ok c' ∧ c'.compressed = none ∧ ∀ id, c'.get id = c.get id := by
+  unfold PCol.compressAsBools
+  simp only
+  split
+  · exact ⟨c, decompressAll_of_none c hn, hn, fun _ => rfl⟩
+  · unfold PCol.decompressAll
+    simp only
+    rw [c15b_selector_bool_roundtrip _ (by
+      rw [List.length_map]; exact filter_length_lt c _ hl)]
+    simp only
+    refine ⟨_, rfl, rfl, ?_⟩
+    intro id
+    unfold PCol.get
+    simp only
+    have e := reinsertF_eq_foldl PV.bool
+      (fun i => (List.map (fun kv => boolOf kv.2) (sortById (c.values.filter (fun kv => isBool kv.2))))[i]?)
+      ((sortById (c.values.filter (fun kv => isBool kv.2))).map (fun kv => (kv.1, boolOf kv.2)))
+      (c.values.filter (fun kv => !isBool kv.2)) 0 (by
+        intro j hj
+        simp only [List.length_map] at hj
+        simp [List.getElem?_eq_getElem hj])
+    rw [List.map_map] at e
+    have e2 : ((fun x : Nat × Bool => x.1) ∘ fun kv : Nat × PV => (kv.1, boolOf kv.2)) = (fun kv => kv.1) := rfl
+    rw [e2] at e
+    rw [e]
+    exact restore_get c.values hk isBool PV.bool boolOf (by
+      intro v hv; cases v <;> simp [isBool] at hv; rfl) _ (sortById_perm _) id
+
+theorem compressAsStrs_restore (c : PCol) (hk : KeysNodup c.values) (hn : c.compressed = none)
+    (hl : c.values.length < 4294967296) :
+    ∃ c', c.compressAsStrs.decompressAll = .ok c' ∧ c'.compressed = none ∧ ∀ id, c'.get id = c.get id := by
+  unfold PCol.compressAsStrs
+  simp only
+  split
+  · exact ⟨c, decompressAll_of_none c hn, hn, fun _ => rfl⟩
+  · split
+    · unfold PCol.decompressAll
+      simp only
+      refine ⟨_, rfl, rfl, ?_⟩
+      intro id
+      unfold PCol.get
+      simp only
+      have hlen := filter_length_lt c (fun kv => isStr kv.2) hl
+      have e := reinsertF_eq_foldl PV.str
+        (dictOf (List.map (fun kv => some (strOf kv.2)) (sortById (c.values.filter (fun kv => isStr kv.2))))).get
+        ((sortById (c.values.filter (fun kv => isStr kv.2))).map (fun kv => (kv.1, strOf kv.2)))
+        (c.values.filter (fun kv => !isStr kv.2)) 0 (by
+          intro j hj
+          simp only [List.length_map] at hj
+          rw [Nat.zero_add, c15b_dict_get _ (by rw [List.length_map]; exact hlen)]
+          simp [List.getElem?_eq_getElem hj])
+      rw [List.map_map] at e
+      have e2 : ((fun x : Nat × Str => x.1) ∘ fun kv : Nat × PV => (kv.1, strOf kv.2)) = (fun kv => kv.1) := rfl
+      rw [e2] at e
+      rw [e]
+      exact restore_get c.values hk isStr PV.str strOf (by
+        intro v hv; cases v <;> simp [isStr] at hv; rfl) _ (sortById_perm _) id
+    · exact ⟨c, decompressAll_of_none c hn, hn, fun _ => rfl⟩
+
+/-- F: compressing a property column (any mix of values, whichever branch and codec `compress()`
+takes) and decompressing it restores every value: for every entity id the read after
+`compress(); decompress_all()` equals the read before. -/
+theorem c15b_propcol_compress_decompress (c : PCol) (hk : KeysNodup c.values) (hn : c.compressed = none)
+    (hl : c.values.length < 4294967296) :
+    ∃ c', c.compress.decompressAll = .ok c' ∧ c'.compressed = none ∧ ∀ id, c'.get id = c.get id := by
+  unfold PCol.compress
+  split
+  · exact ⟨c, decompressAll_of_none c hn, hn, fun _ => rfl⟩
+  · split
+    · exact ⟨c, decompressAll_of_none c hn, hn, fun _ => rfl⟩
+    · split
+      · exact compressAsInts_restore c hk hn hl
+      · split
+        · exact compressAsStrs_restore c hk hn hl
+        · split
+          · exact compressAsBools_restore c hk hn hl
+          · exact ⟨c, decompressAll_of_none c hn, hn, fun _ => rfl⟩
+
+
+/-! ### reads do not depend on the compression mode — as far as that is true -/
+
+inductive ColOp where
+  | set (id : Nat) (v : PV) | remove (id : Nat) | compress | setMode (m : CMode)
+  deriving DecidableEq, Repr
+
+def PCol.step (c : PCol) : ColOp → Res PCol
+  | .set id v => .ok (c.set id v)
+  | .remove id => .ok (c.remove id)
+  | .compress => .ok c.compress
+  | .setMode m => c.setMode m
+
+def PCol.run (c : PCol) : List ColOp → Res PCol
+  | [] => .ok c
+  | o :: os => match c.step o with
+    | .ok c' => c'.run os
+    | .err => .err
+    | .panic => .panic
+
+/-- the same operations with compression switched off: a plain map -/
+def plainStep (m : HotMap) : ColOp → HotMap
+  | .set id v => hmInsert m id v
+  | .remove id => hmRemove m id
+  | _ => m
+
+def plainRun (m : HotMap) (ops : List ColOp) : HotMap := ops.foldl plainStep m
+
+/-- decidable: the column never holds compressed data while `ops` run -/
+def staysHot (c : PCol) : List ColOp → Bool
+  | [] => c.compressed.isNone
+  | o :: os => c.compressed.isNone && (match c.step o with
+    | .ok c' => staysHot c' os
+    | _ => false)
+
+theorem compressAsInts_none (c : PCol) (h : c.compressAsInts.compressed = none) : c.compressAsInts = c := by
+  unfold PCol.compressAsInts at h ⊢
+  simp only at h ⊢
+  split
+  · rfl
+  · rename_i h8
+    rw [if_neg h8] at h
+    split
+    · rename_i hr; rw [if_pos hr] at h; cases h
+    · rfl
+
+theorem compressAsStrs_none (c : PCol) (h : c.compressAsStrs.compressed = none) : c.compressAsStrs = c := by
+  unfold PCol.compressAsStrs at h ⊢
+  simp only at h ⊢
+  split
+  · rfl
+  · rename_i h8
+    rw [if_neg h8] at h
+    split
+    · rename_i hr; rw [if_pos hr] at h; cases h
+    · rfl
+
+theorem compressAsBools_none (c : PCol) (h : c.compressAsBools.compressed = none) : c.compressAsBools = c := by
+  unfold PCol.compressAsBools at h ⊢
+  simp only at h ⊢
+  split
+  · rfl
+  · rename_i h8
+    rw [if_neg h8] at h; cases h
+
+theorem compress_none (c : PCol) (h : c.compress.compressed = none) : c.compress = c := by
+  unfold PCol.compress at h ⊢
+  split
+  · rfl
+  · rename_i h1
+    rw [if_neg h1] at h
+    split
+    · rfl
+    · rename_i h2
+      rw [if_neg h2] at h
+      split
+      · rename_i h3; rw [if_pos h3] at h; exact compressAsInts_none c h
+      · rename_i h3
+        rw [if_neg h3] at h
+        split
+        · rename_i h4; rw [if_pos h4] at h; exact compressAsStrs_none c h
+        · rename_i h4
+          rw [if_neg h4] at h
+          split
+          · rename_i h5; rw [if_pos h5] at h; exact compressAsBools_none c h
+          · rfl
+
+/-- one step that leaves the column uncompressed acts on the hot map like the plain map -/
+theorem step_hot (c : PCol) (o : ColOp) (hn : c.compressed = none) (c' : PCol)
+    (hs : c.step o = .ok c') (hn' : c'.compressed = none) : c'.values = plainStep c.values o := by
+  cases o with
+  | set id v =>
+    simp only [PCol.step, Res.ok.injEq] at hs
+    subst hs
+    unfold PCol.set at hn' ⊢
+    simp only at hn' ⊢
+    split
+    · rename_i hm
+      rw [if_pos hm] at hn'
+      split
+      · rename_i ht
+        rw [if_pos ht] at hn'
+        rw [compress_none _ hn']; rfl
+      · rfl
+    · rfl
+  | remove id =>
+    simp only [PCol.step, Res.ok.injEq] at hs
+    subst hs; rfl
+  | compress =>
+    simp only [PCol.step, Res.ok.injEq] at hs
+    subst hs
+    rw [compress_none _ hn']; rfl
+  | setMode m =>
+    simp only [PCol.step, PCol.setMode] at hs
+    split at hs
+    · rw [if_neg (by simp [hn])] at hs
+      cases hs; rfl
+    · cases hs; rfl
+
+/-- P: as long as the column never actually holds compressed data (decidable: `staysHot`) — mode
+`None`, or `Auto` below the 4096-value hot buffer, or compression attempts that are not worth it —
+every operation sequence leaves exactly the map that the same sequence builds with compression
+off; so every read agrees. -/
+theorem c15b_propcol_mode_independent_partial (c : PCol) (ops : List ColOp) (h : staysHot c ops = true) :
+    ∃ c', c.run ops = .ok c' ∧ c'.values = plainRun c.values ops ∧
+      ∀ id, c'.get id = hmGet (plainRun c.values ops) id := by
+  induction ops generalizing c with
+  | nil => exact ⟨c, rfl, rfl, fun _ => rfl⟩
+  | cons o os ih =>
+    unfold staysHot at h
+    simp only [Bool.and_eq_true, Option.isNone_iff_eq_none] at h
+    obtain ⟨hn, h2⟩ := h
+    cases hs : c.step o with
+    | ok c1 =>
+      rw [hs] at h2
+      simp only at h2
+      obtain ⟨c', hr, hv, hg⟩ := ih c1 h2
+      have hn1 : c1.compressed = none := by
+        cases os with
+        | nil => simpa [staysHot] using h2
+        | cons o2 os2 =>
+          unfold staysHot at h2
+          simp only [Bool.and_eq_true, Option.isNone_iff_eq_none] at h2
+          exact h2.1
+      have e := step_hot c o hn c1 hs hn1
+      refine ⟨c', ?_, ?_, ?_⟩
+      · unfold PCol.run; rw [hs]; exact hr
+      · rw [hv, e]; rfl
+      · intro id; rw [hg id, e]; rfl
+    | err => rw [hs] at h2; cases h2
+    | panic => rw [hs] at h2; cases h2
+
+def intCol (n : Nat) : List ColOp := (List.range n).map (fun i => ColOp.set i (.int (BitVec.ofNat 64 (1000 + i))))
+
+/-- N: the hypothesis holds for a run that does request compression (seven integers are not
+worth compressing) and for an Auto-mode column below its buffer size. -/
+theorem c15b_propcol_nonvacuity : staysHot {} (intCol 7 ++ [.compress, .set 3 (.int 7), .setMode .none]) = true ∧
+    staysHot { mode := .auto } (intCol 20) = true := by decide
+
+/-- W: the unrestricted statement — a read never depends on whether compression happened — is false.
+Eight integers, `force_compress()`: every value becomes unreadable (`get` only looks into the
+hot buffer), although the same operations without compression read `1000`. -/
+theorem c15b_propcol_unreadable_witness :
+    (match PCol.run {} (intCol 8 ++ [.compress]) with
+      | .ok c => c.get 0
+      | _ => none) = none ∧
+    hmGet (plainRun [] (intCol 8 ++ [.compress])) 0 = some (.int 1000) ∧
+    staysHot {} (intCol 8 ++ [.compress]) = false := by decide
+
+/-- W: writes after compression are lost or resurrected by `decompress_all`: a value set after
+compression is overwritten by the stale compressed one, a removed value comes back. -/
+theorem c15b_propcol_stale_witness :
+    (match PCol.run {} (intCol 8 ++ [.compress, .set 3 (.int 7), .setMode .none]) with
+      | .ok c => c.get 3
+      | _ => none) = some (.int 1003) ∧
+    hmGet (plainRun [] (intCol 8 ++ [.compress, .set 3 (.int 7), .setMode .none])) 3 = some (.int 7) ∧
+    (match PCol.run {} (intCol 8 ++ [.compress, .remove 3, .setMode .none]) with
+      | .ok c => c.get 3
+      | _ => none) = some (.int 1003) ∧
+    hmGet (plainRun [] (intCol 8 ++ [.compress, .remove 3, .setMode .none])) 3 = none := by decide
+
+
+/-! ### compressed adjacency chunks -/
+
+theorem sorted_cons_of_le (a : Nat) (l : List Nat) (hs : Sorted l) (h : ∀ x ∈ l.head?, a ≤ x) : Sorted (a :: l) := by
+  cases l with
+  | nil => trivial
+  | cons b r => exact ⟨h b (by simp), hs⟩
+
+theorem head_insertBy {α : Type} (key : α → Nat) (a : α) (l : List α) :
+    (insertBy key a l).head? = some a ∨ (insertBy key a l).head? = l.head? := by
+  cases l with
+  | nil => left; rfl
+  | cons y ys =>
+    unfold insertBy
+    split
+    · left; rfl
+    · right; rfl
+
+theorem insertBy_sorted {α : Type} (key : α → Nat) (a : α) (l : List α) (hs : Sorted (l.map key)) :
+    Sorted ((insertBy key a l).map key) := by
+  induction l with
+  | nil => trivial
+  | cons y ys ih =>
+    unfold insertBy
+    split
+    · rename_i hle; exact ⟨hle, hs⟩
+    · rename_i hnle
+      have hys : Sorted (ys.map key) := by
+        cases ys with
+        | nil => trivial
+        | cons z zs => exact hs.2
+      have := ih hys
+      simp only [List.map_cons]
+      apply sorted_cons_of_le _ _ this
+      intro x hx
+      rw [List.head?_map] at hx
+      rcases head_insertBy key a ys with h | h
+      · rw [h] at hx; simp at hx; omega
+      · rw [h] at hx
+        cases ys with
+        | nil => simp at hx
+        | cons z zs =>
+          simp at hx
+          have := hs.1
+          omega
+
+theorem sortBy_sorted {α : Type} (key : α → Nat) (l : List α) : Sorted ((sortBy key l).map key) := by
+  induction l with
+  | nil => trivial
+  | cons a t ih =>
+    unfold sortBy at ih ⊢
+    rw [List.foldr_cons]
+    exact insertBy_sorted key a _ ih
+
+theorem zip_map_fst_snd {α β : Type} (l : List (α × β)) : List.zip (l.map (·.1)) (l.map (·.2)) = l := by
+  induction l with
+  | nil => rfl
+  | cons x xs ih => simp [ih]
+
+/-- does the chunk consist of exactly one edge, to node id 0? -/
+def zeroSingleton (es : List Entry) : Bool :=
+  match es with
+  | [(0, _)] => true
+  | _ => false
+
+theorem sortByDst_perm (es : List Entry) : (sortByDst es).Perm es := sortBy_perm _ es
+
+theorem zeroSingleton_sort (es : List Entry) (h : zeroSingleton es = false) :
+    (sortByDst es).map (·.1) ≠ [0] := by
+  intro h0
+  have hl : (sortByDst es).length = 1 := by
+    have := congrArg List.length h0; simpa using this
+  have hl2 : es.length = 1 := by rw [← (sortByDst_perm es).length_eq]; exact hl
+  match es, hl2 with
+  | [(d, e)], _ =>
+    have : sortByDst [(d, e)] = [(d, e)] := rfl
+    rw [this] at h0
+    simp at h0
+    subst h0
+    simp [zeroSingleton] at h
+
+/-- P: a compressed adjacency chunk decodes to the chunk's entries, stably sorted by destination —
+a permutation of what was stored — unless the chunk is a single edge to node 0. -/
+theorem c15b_adj_chunk_roundtrip_partial (c : AChunk) (hb : ∀ e ∈ c.entries, e.1 < W ∧ e.2 < W)
+    (hz : zeroSingleton c.entries = false) :
+    c.compress.iter = .ok (sortByDst c.entries) ∧ (sortByDst c.entries).Perm c.entries := by
+  refine ⟨?_, sortByDst_perm _⟩
+  have hmem : ∀ e ∈ sortByDst c.entries, e.1 < W ∧ e.2 < W := fun e he =>
+    hb e ((sortByDst_perm c.entries).mem_iff.mp he)
+  unfold AChunk.compress CChunk.iter
+  simp only
+  rw [c15_delta_bitpacked_roundtrip_partial ((sortByDst c.entries).map (·.1)) (sortBy_sorted _ _)
+    (by intro v hv; obtain ⟨e, he, rfl⟩ := List.mem_map.mp hv; exact (hmem e he).1)
+    (zeroSingleton_sort _ hz)]
+  simp only
+  rw [c15_unpack_pack _ (by intro v hv; obtain ⟨e, he, rfl⟩ := List.mem_map.mp hv; exact (hmem e he).2)]
+  simp only
+  rw [zip_map_fst_snd]
+
+/-- W: the excluded chunk. A chunk holding the single edge `(dst 0, edge 7)` decodes to nothing:
+the edge is lost (through the `DeltaBitPacked` emptiness test `deltas.is_empty() && base == 0`). -/
+theorem c15b_adj_chunk_zero_singleton_witness :
+    (AChunk.mk [(0, 7)] 64).compress.iter = .ok [] ∧
+    ((({} : AList).addEdge (0, 7)).compact 64).freezeAll.iter = .ok [] ∧
+    ((({} : AList).addEdge (0, 7)).compact 64).iter = .ok [(0, 7)] := by decide
+
+/-- N -/
+theorem c15b_adj_chunk_nonvacuity : (AChunk.mk [(3, 1), (1, 2), (3, 0), (0, 9)] 64).compress.iter = .ok [(0, 9), (1, 2), (3, 1), (3, 0)] := by
+  decide
+
+theorem coldEntries_append (a b : List CChunk) (ea eb : List Entry)
+    (ha : coldEntries a = .ok ea) (hb : coldEntries b = .ok eb) : coldEntries (a ++ b) = .ok (ea ++ eb) := by
+  induction a generalizing ea with
+  | nil => simp only [coldEntries, Res.ok.injEq] at ha; subst ha; simpa using hb
+  | cons c cs ih =>
+    simp only [List.cons_append, coldEntries] at ha ⊢
+    cases hc : c.iter with
+    | ok es =>
+      rw [hc] at ha
+      simp only at ha ⊢
+      cases hcs : coldEntries cs with
+      | ok r =>
+        rw [hcs] at ha
+        simp only [Res.ok.injEq] at ha
+        rw [ih r hcs]; simp only [Res.ok.injEq]; rw [← ha]; simp
+      | err => rw [hcs] at ha; cases ha
+      | panic => rw [hcs] at ha; cases ha
+    | err => rw [hc] at ha; cases ha
+    | panic => rw [hc] at ha; cases ha
+
+theorem coldEntries_compress (hot : List AChunk)
+    (hb : ∀ c ∈ hot, ∀ e ∈ c.entries, e.1 < W ∧ e.2 < W)
+    (hz : ∀ c ∈ hot, zeroSingleton c.entries = false) :
+    ∃ es, coldEntries (hot.map AChunk.compress) = .ok es ∧ es.Perm (hot.map (·.entries)).flatten := by
+  induction hot with
+  | nil => exact ⟨[], rfl, List.Perm.refl _⟩
+  | cons c cs ih =>
+    obtain ⟨es, h1, h2⟩ := ih (fun c' hc' => hb c' (List.mem_cons_of_mem _ hc'))
+      (fun c' hc' => hz c' (List.mem_cons_of_mem _ hc'))
+    obtain ⟨g1, g2⟩ := c15b_adj_chunk_roundtrip_partial c (hb c (by simp)) (hz c (by simp))
+    refine ⟨sortByDst c.entries ++ es, ?_, ?_⟩
+    · simp only [List.map_cons, coldEntries, g1, h1]
+    · simp only [List.map_cons, List.flatten_cons]
+      exact List.Perm.append g2 h2
+
+/-- P: `freeze_all` (compress every hot chunk) keeps the edge list of a node up to order, provided
+no hot chunk is a single edge to node 0. -/
+theorem c15b_adj_freeze_partial (l : AList) (es : List Entry) (h : l.iter = .ok es)
+    (hb : ∀ c ∈ l.hot, ∀ e ∈ c.entries, e.1 < W ∧ e.2 < W)
+    (hz : ∀ c ∈ l.hot, zeroSingleton c.entries = false) :
+    ∃ es', l.freezeAll.iter = .ok es' ∧ es'.Perm es := by
+  unfold AList.iter at h
+  cases hc : coldEntries l.cold with
+  | ok ce =>
+    rw [hc] at h
+    simp only [Res.ok.injEq] at h
+    obtain ⟨ne, h1, h2⟩ := coldEntries_compress (l.hot.filter (fun c => c.entries.length > 0))
+      (fun c hc' => hb c (List.mem_filter.mp hc').1) (fun c hc' => hz c (List.mem_filter.mp hc').1)
+    unfold AList.freezeAll AList.iter
+    simp only
+    rw [coldEntries_append _ _ ce ne hc h1]
+    simp only [List.map_nil, List.flatten_nil, List.append_nil]
+    refine ⟨_, rfl, ?_⟩
+    rw [← h]
+    apply List.Perm.filter
+    -- dropping empty chunks does not change the concatenation
+    have hflat : ((l.hot.filter (fun c => c.entries.length > 0)).map (·.entries)).flatten =
+        (l.hot.map (·.entries)).flatten := by
+      clear h hb hz h1 h2 hc
+      induction l.hot with
+      | nil => rfl
+      | cons c cs ih =>
+        simp only [List.filter_cons]
+        split
+        · simp only [List.map_cons, List.flatten_cons, ih]
+        · rename_i hlen
+          have : c.entries = [] := by
+            apply List.length_eq_zero_iff.mp
+            simpa using hlen
+          simp only [List.map_cons, List.flatten_cons, ih, this, List.nil_append]
+    rw [hflat] at h2
+    rw [List.append_assoc, List.append_assoc]
+    apply List.Perm.append_left
+    exact List.Perm.append_right _ h2
+  | err => rw [hc] at h; cases h
+  | panic => rw [hc] at h; cases h
+
+
+/-! ### succinct bit vector: what `from_bitvec` builds -/
+
+-- `omega` needs this for coefficients such as 512 and 4096
+set_option maxRecDepth 40000
+
+
+/-- ones among the valid bits of the first `k` words -/
+def cum (data : List Nat) (len k : Nat) : Nat := onesBelow data (min (64 * k) len)
+
+theorem cum_zero (data : List Nat) (len : Nat) : cum data len 0 = 0 := by
+  simp [cum, onesBelow_zero]
+
+theorem cum_mono (data : List Nat) (len a b : Nat) (h : a ≤ b) : cum data len a ≤ cum data len b := by
+  unfold cum; apply onesBelow_mono; omega
+
+theorem cum_step (data : List Nat) (len k w : Nat) (hw : data[k]? = some w) :
+    cum data len k + wordOnes len k w = cum data len (k + 1) := by
+  have hgd : data.getD k 0 = w := by simp [List.getD, hw]
+  unfold cum wordOnes bitsInWord
+  by_cases hA : k * 64 + 64 ≤ len
+  · rw [if_pos hA, if_pos rfl]
+    rw [Nat.min_eq_left (by omega), Nat.min_eq_left (by omega), onesBelow_fullword, hgd]
+  · rw [if_neg hA]
+    have hr : len - k * 64 ≠ 64 := by omega
+    rw [if_neg hr]
+    by_cases hB : 64 * k ≤ len
+    · rw [Nat.min_eq_left hB, Nat.min_eq_right (by omega)]
+      have : len = 64 * k + (len - k * 64) := by omega
+      conv => rhs; rw [this]
+      rw [onesBelow_word _ _ _ (by omega), hgd]
+    · have : len - k * 64 = 0 := by omega
+      rw [this, Nat.min_eq_right (by omega), Nat.min_eq_right (by omega)]
+      simp [popcount, popF]
+
+theorem wordOnes_le (len k w : Nat) : wordOnes len k w ≤ bitsInWord len k := by
+  unfold wordOnes
+  have hb : bitsInWord len k ≤ 64 := by unfold bitsInWord; split <;> omega
+  split
+  · rename_i h; rw [h, popcount_eq]
+    have := List.countP_le_length (p := fun j => w.testBit j) (l := List.range 64)
+    simpa using this
+  · rw [popcount_mask _ _ hb]
+    have := List.countP_le_length (p := fun j => w.testBit j) (l := List.range (bitsInWord len k))
+    simpa using this
+
+/-- the valid-bit count of the first `k` words -/
+theorem bits_step (len k : Nat) : min (64 * k) len + bitsInWord len k = min (64 * (k + 1)) len := by
+  unfold bitsInWord; split <;> omega
+
+theorem pushSamples_spec (f : Nat) (s : List Nat) (next bp : Nat) (hf : next ≤ s.length * 4096 + f * 4096) :
+    ∃ m, pushSamples f s next bp = s ++ List.replicate m (bp % 4294967296) ∧
+      next ≤ (s.length + m) * 4096 ∧ (m > 0 → s.length * 4096 < next) := by
+  induction f generalizing s with
+  | zero =>
+    refine ⟨0, by simp [pushSamples], by omega, by omega⟩
+  | succ f ih =>
+    unfold pushSamples selectSampleRate
+    split
+    · rename_i hlt
+      obtain ⟨m, h1, h2, _⟩ := ih (s ++ [bp % 4294967296]) (by simp; omega)
+      refine ⟨m + 1, ?_, ?_, fun _ => hlt⟩
+      · rw [h1, List.append_assoc]; congr 1
+      · simp at h2; omega
+    · exact ⟨0, by simp, by omega, by omega⟩
+
+/-- closed form of the loop state after `k` words -/
+structure SbvInv (data : List Nat) (len : Nat) (st : SbvSt) (k : Nat) : Prop where
+  ones : st.ones = cum data len k
+  zeros : st.zeros = min (64 * k) len - cum data len k
+  sb : st.sb = (List.range ((k + 7) / 8)).map (fun j => cum data len (8 * j))
+  br : st.br = (List.range k).map (fun b => (cum data len b - cum data len (8 * (b / 8))) % 256)
+  sbStart : k > 0 → st.sbStart = cum data len (8 * ((k - 1) / 8))
+  s1len : st.ones ≤ st.s1.length * 4096
+  s1 : ∀ j x, st.s1[j]? = some x → ∃ b, b < k ∧ x = (64 * b) % 4294967296 ∧ cum data len b ≤ 4096 * j
+  s0len : st.zeros ≤ st.s0.length * 4096
+  s0 : ∀ j x, st.s0[j]? = some x → ∃ b, b < k ∧ x = (64 * b) % 4294967296 ∧
+        min (64 * b) len - cum data len b ≤ 4096 * j
+
+theorem cum_le_bits (data : List Nat) (len k : Nat) : cum data len k ≤ min (64 * k) len := by
+  unfold cum onesBelow
+  have := List.countP_le_length (p := bitmapNull data) (l := List.range (min (64 * k) len))
+  simpa using this
+
+theorem SbvInv.init (data : List Nat) (len : Nat) : SbvInv data len {} 0 where
+  ones := by simp [cum_zero]
+  zeros := by simp
+  sb := by simp
+  br := by simp
+  sbStart := by intro h; omega
+  s1len := by simp
+  s1 := by intro j x h; simp at h
+  s0len := by simp
+  s0 := by intro j x h; simp at h
+
+theorem SbvInv.step (data : List Nat) (len : Nat) (st : SbvSt) (k w : Nat)
+    (inv : SbvInv data len st k) (hw : data[k]? = some w) :
+    SbvInv data len (sbvStep len st k w) (k + 1) := by
+  obtain ⟨hones, hzeros, hsb, hbr, hstart, hs1l, hs1, hs0l, hs0⟩ := inv
+  have hcs := cum_step data len k w hw
+  have hwo := wordOnes_le len k w
+  have hbs := bits_step len k
+  have hcb := cum_le_bits data len k
+  have hstart' : (if k % 8 = 0 then st.ones else st.sbStart) = cum data len (8 * (k / 8)) := by
+    by_cases h8 : k % 8 = 0
+    · rw [if_pos h8, hones]; congr 1; omega
+    · rw [if_neg h8, hstart (by omega)]; congr 2; omega
+  have hb64 : bitsInWord len k ≤ 64 := by unfold bitsInWord; split <;> omega
+  -- sample pushes
+  obtain ⟨m1, e1, l1, p1⟩ := pushSamples_spec 64 st.s1 (st.ones + wordOnes len k w) (k * 64) (by omega)
+  obtain ⟨m0, e0, l0, p0⟩ := pushSamples_spec 64 st.s0
+    (st.zeros + (bitsInWord len k - wordOnes len k w)) (k * 64) (by omega)
+  refine ⟨?_, ?_, ?_, ?_, ?_, ?_, ?_, ?_, ?_⟩
+  · simp only [sbvStep]; rw [hones]; exact hcs
+  · simp only [sbvStep]; rw [hzeros]; omega
+  · simp only [sbvStep]
+    by_cases h8 : k % 8 = 0
+    · rw [if_pos h8, hsb, hones]
+      have e : (k + 1 + 7) / 8 = (k + 7) / 8 + 1 := by omega
+      rw [e, List.range_succ, List.map_append]
+      congr 1
+      simp only [List.map_cons, List.map_nil]
+      congr 2; omega
+    · rw [if_neg h8, hsb]
+      have e : (k + 1 + 7) / 8 = (k + 7) / 8 := by omega
+      rw [e]
+  · simp only [sbvStep]
+    rw [hbr, List.range_succ, List.map_append, hstart', hones]
+    rfl
+  · intro _
+    simp only [sbvStep, Nat.add_sub_cancel]
+    exact hstart'
+  · simp only [sbvStep]; rw [e1]; simp only [List.length_append, List.length_replicate]; omega
+  · intro j x hj
+    simp only [sbvStep] at hj
+    rw [e1] at hj
+    by_cases hjl : j < st.s1.length
+    · rw [List.getElem?_append_left hjl] at hj
+      obtain ⟨b, hb1, hb2, hb3⟩ := hs1 j x hj
+      exact ⟨b, by omega, hb2, hb3⟩
+    · rw [List.getElem?_append_right (by omega)] at hj
+      have := List.getElem?_eq_some_iff.mp hj
+      obtain ⟨hlt, hx⟩ := this
+      simp only [List.getElem_replicate] at hx
+      refine ⟨k, by omega, by rw [← hx]; congr 1; omega, ?_⟩
+      rw [← hones]; omega
+  · simp only [sbvStep]; rw [e0]; simp only [List.length_append, List.length_replicate]; omega
+  · intro j x hj
+    simp only [sbvStep] at hj
+    rw [e0] at hj
+    by_cases hjl : j < st.s0.length
+    · rw [List.getElem?_append_left hjl] at hj
+      obtain ⟨b, hb1, hb2, hb3⟩ := hs0 j x hj
+      exact ⟨b, by omega, hb2, hb3⟩
+    · rw [List.getElem?_append_right (by omega)] at hj
+      have := List.getElem?_eq_some_iff.mp hj
+      obtain ⟨hlt, hx⟩ := this
+      simp only [List.getElem_replicate] at hx
+      refine ⟨k, by omega, by rw [← hx]; congr 1; omega, ?_⟩
+      rw [← hzeros]; omega
+
+theorem SbvInv.loop (data : List Nat) (len : Nat) (ws : List Nat) (st : SbvSt) (k : Nat)
+    (inv : SbvInv data len st k) (hws : ∀ i, ws[i]? = data[k + i]?) (hk : k + ws.length = data.length) :
+    SbvInv data len (sbvLoop len st k ws) data.length := by
+  induction ws generalizing st k with
+  | nil => simp at hk; subst hk; exact inv
+  | cons w ws ih =>
+    unfold sbvLoop
+    apply ih
+    · apply inv.step
+      have := hws 0; simp at this; exact this.symm
+    · intro i
+      have := hws (i + 1)
+      simp only [List.getElem?_cons_succ] at this
+      rw [this]; congr 1; omega
+    · simp at hk; omega
+
+theorem sbv_inv (v : BVec) : SbvInv v.data v.len (sbvLoop v.len {} 0 v.data) v.data.length :=
+  SbvInv.loop v.data v.len v.data {} 0 (SbvInv.init _ _) (by intro i; simp) (by simp)
+
+
+set_option maxRecDepth 40000
+
+/-- decidable hypothesis of the rank/select theorems: no block starts with 256 or more ones counted
+from the start of its superblock, i.e. the `relative_rank as u8` casts of `from_bitvec` are exact -/
+def NoTrunc (v : BVec) : Prop :=
+  ∀ b, b < v.data.length → cum v.data v.len b - cum v.data v.len (8 * (b / 8)) < 256
+
+instance (v : BVec) : Decidable (NoTrunc v) := by unfold NoTrunc; exact Nat.decidableBallLT _ _
+
+theorem ofBVec_inner (v : BVec) : (SBV.ofBVec v).inner = v := rfl
+theorem ofBVec_br (v : BVec) : (SBV.ofBVec v).blockRanks =
+    (List.range v.data.length).map (fun b => (cum v.data v.len b - cum v.data v.len (8 * (b / 8))) % 256) :=
+  (sbv_inv v).br
+theorem ofBVec_ones (v : BVec) : (SBV.ofBVec v).onesCount = cum v.data v.len v.data.length := (sbv_inv v).ones
+
+theorem ofBVec_sb (v : BVec) (j : Nat) (hj : j < (v.data.length + 7) / 8) :
+    (SBV.ofBVec v).superblockRanks[j]? = some (cum v.data v.len (8 * j)) := by
+  have hsb := (sbv_inv v).sb
+  have hl : (sbvLoop v.len {} 0 v.data).sb.length = (v.data.length + 7) / 8 := by rw [hsb]; simp
+  have hget : (sbvLoop v.len {} 0 v.data).sb[j]? = some (cum v.data v.len (8 * j)) := by
+    rw [hsb, List.getElem?_map, List.getElem?_range hj]; rfl
+  unfold SBV.ofBVec
+  simp only
+  split
+  · rw [List.getElem?_append_left (by omega)]; exact hget
+  · exact hget
+
+theorem cum_full (v : BVec) (hw : v.WF) : cum v.data v.len v.data.length = onesBelow v.data v.len := by
+  unfold cum
+  have := hw.1
+  unfold nWords at this
+  rw [Nat.min_eq_right (by omega)]
+
+theorem onesBelow_le (data : List Nat) (n : Nat) : onesBelow data n ≤ n := by
+  unfold onesBelow
+  have := List.countP_le_length (p := bitmapNull data) (l := List.range n)
+  simpa using this
+
+/-- `rank1` of the index built over a well-formed vector, when no block rank was truncated -/
+theorem rank1_correct (v : BVec) (hw : v.WF) (hn : NoTrunc v) (pos : Nat) :
+    (SBV.ofBVec v).rank1 pos = .ok (onesBelow v.data (min pos v.len)) := by
+  unfold SBV.rank1
+  rw [ofBVec_inner]
+  by_cases h0 : pos = 0
+  · rw [if_pos h0, h0]; simp [onesBelow_zero]
+  · rw [if_neg h0]
+    by_cases hge : pos ≥ v.len
+    · rw [if_pos hge, ofBVec_ones, cum_full v hw, Nat.min_eq_right hge]
+    · rw [if_neg hge, Nat.min_eq_left (by omega)]
+      have hlen := hw.1
+      unfold nWords at hlen
+      obtain ⟨b, r, hp, hr64⟩ : ∃ b r, pos = 64 * b + r ∧ r < 64 := ⟨pos / 64, pos % 64, by omega, by omega⟩
+      have e1 : pos / 64 = b := by omega
+      have e2 : pos % 64 = r := by omega
+      have e3 : pos / 512 = b / 8 := by omega
+      rw [e1, e2, e3]
+      have hb : b < v.data.length := by omega
+      rw [ofBVec_sb v (b / 8) (by omega)]
+      simp only
+      rw [ofBVec_br]
+      have hbr : ((List.range v.data.length).map (fun b =>
+          (cum v.data v.len b - cum v.data v.len (8 * (b / 8))) % 256)).getD b 0 =
+          cum v.data v.len b - cum v.data v.len (8 * (b / 8)) := by
+        simp only [List.getD, List.getElem?_map, List.getElem?_range hb, Option.map_some, Option.getD_some]
+        exact Nat.mod_eq_of_lt (hn _ hb)
+      rw [hbr]
+      have hmono := cum_mono v.data v.len (8 * (b / 8)) b (by omega)
+      have hcb : cum v.data v.len b = onesBelow v.data (64 * b) := by
+        unfold cum; rw [Nat.min_eq_left (by omega)]
+      have hsum : cum v.data v.len (8 * (b / 8)) +
+          (cum v.data v.len b - cum v.data v.len (8 * (b / 8))) = onesBelow v.data (64 * b) := by
+        omega
+      rw [hsum, hp]
+      by_cases hr : r > 0
+      · rw [if_pos ⟨hr, hb⟩, onesBelow_word _ _ _ (by omega)]
+      · rw [if_neg (by omega)]
+        have : r = 0 := by omega
+        rw [this, Nat.add_zero]
+
+theorem rank0_correct (v : BVec) (hw : v.WF) (hn : NoTrunc v) (pos : Nat) :
+    (SBV.ofBVec v).rank0 pos = .ok (min pos v.len - onesBelow v.data (min pos v.len)) := by
+  unfold SBV.rank0
+  rw [ofBVec_inner, rank1_correct v hw hn]
+  simp only [Nat.min_assoc, Nat.min_self]
+  unfold usub
+  rw [if_neg (by have := onesBelow_le v.data (min pos v.len); omega)]
+
+theorem take_map_range {α : Type} (f : Nat → α) (n pos : Nat) :
+    ((List.range n).map f).take pos = (List.range (min pos n)).map f := by
+  rw [← List.map_take, List.take_range]
+
+theorem specRank_true (f : Nat → Bool) (n pos : Nat) :
+    Spec.rank true ((List.range n).map f) pos = (List.range (min pos n)).countP f := by
+  unfold Spec.rank
+  rw [take_map_range, List.countP_eq_length_filter, List.filter_map, List.length_map]
+  congr 2
+  funext x; simp
+
+theorem specRank_false (f : Nat → Bool) (n pos : Nat) :
+    Spec.rank false ((List.range n).map f) pos = min pos n - (List.range (min pos n)).countP f := by
+  unfold Spec.rank
+  rw [take_map_range, List.filter_map, List.length_map]
+  have h := List.length_eq_countP_add_countP (p := f) (l := List.range (min pos n))
+  rw [List.length_range] at h
+  rw [List.countP_eq_length_filter (p := fun a => decide ¬f a = true)] at h
+  have e : (List.filter (fun a => decide ¬f a = true) (List.range (min pos n))) =
+      (List.filter ((fun x => x == false) ∘ f) (List.range (min pos n))) := by
+    congr 1; funext x; simp only [Function.comp]; cases f x <;> simp
+  rw [← e]; omega
+
+/-- P: on a bit vector where no superblock holds 256 or more ones ahead of one of its blocks
+(decidable hypothesis `NoTrunc`), `rank1(pos)` is the number of ones and `rank0(pos)` the number of
+zeros among the first `pos` bits (the whole vector for `pos ≥ len`). -/
+theorem c15b_sbv_rank_partial (v : BVec) (hw : v.WF) (hn : NoTrunc v) (bs : List Bool)
+    (hb : v.toBools = .ok bs) (pos : Nat) :
+    (SBV.ofBVec v).rank1 pos = .ok (Spec.rank true bs pos) ∧
+    (SBV.ofBVec v).rank0 pos = .ok (Spec.rank false bs pos) := by
+  rw [toBools_wf v hw] at hb
+  cases hb
+  rw [rank1_correct v hw hn, rank0_correct v hw hn, specRank_true, specRank_false]
+  exact ⟨rfl, rfl⟩
+
+/-- W: the unrestricted statement is false: in 321 set bits the fifth block starts 256 ones into its
+superblock, `256 as u8` is 0, and `rank1(300)` answers 44. -/
+theorem c15b_sbv_rank_trunc_witness :
+    (SBV.ofBVec (BVec.fromBools (List.replicate 321 true))).rank1 300 = .ok 44 ∧
+    Spec.rank true (List.replicate 321 true) 300 = 300 ∧
+    ¬ NoTrunc (BVec.fromBools (List.replicate 321 true)) := by
+  refine ⟨by decide +kernel, by decide +kernel, by decide +kernel⟩
+
+/-- N: the hypothesis holds for a vector spanning several superblocks. -/
+theorem c15b_sbv_nonvacuity : NoTrunc (BVec.fromBools ((List.range 1200).map (fun i => i % 3 == 0))) := by decide +kernel
+
+
+set_option maxRecDepth 40000
+
+/-! ### `select_in_word` -/
+
+/-- number of indices below `a` satisfying `P` -/
+def cnt (P : Nat → Bool) (a : Nat) : Nat := (List.range a).countP P
+
+theorem cnt_succ (P : Nat → Bool) (a : Nat) : cnt P (a + 1) = cnt P a + (if P a then 1 else 0) := by
+  unfold cnt
+  rw [List.range_succ, List.countP_append]
+  simp [List.countP_cons]
+
+theorem cnt_zero (P : Nat → Bool) : cnt P 0 = 0 := rfl
+
+theorem cnt_mono (P : Nat → Bool) (a b : Nat) (h : a ≤ b) : cnt P a ≤ cnt P b := by
+  induction b with
+  | zero => have : a = 0 := by omega
+            subst this; exact Nat.le_refl _
+  | succ b ih =>
+    by_cases hab : a = b + 1
+    · subst hab; exact Nat.le_refl _
+    · have := ih (by omega)
+      rw [cnt_succ]; omega
+
+theorem cnt_add (P : Nat → Bool) (a b : Nat) : cnt P (a + b) = cnt P a + cnt (fun j => P (a + j)) b := by
+  induction b with
+  | zero => simp [cnt_zero]
+  | succ b ih => rw [← Nat.add_assoc, cnt_succ, ih, cnt_succ]; omega
+
+theorem cnt_congr (P Q : Nat → Bool) (a : Nat) (h : ∀ j, j < a → P j = Q j) : cnt P a = cnt Q a := by
+  unfold cnt
+  apply List.countP_congr
+  intro j hj
+  have := h j (List.mem_range.mp hj)
+  simp [this]
+
+theorem shiftRight_mod2 (w j : Nat) : ((w >>> j) % 2 = 1) ↔ w.testBit j = true := by
+  rw [Nat.testBit_eq_decide_div_mod_eq, Nat.shiftRight_eq_div_pow]; simp
+
+/-- the bit scan finds the `remaining`-th set bit at or after `bit` -/
+theorem selectInByte_spec (byte : Nat) (n bit remaining : Nat) (hn : bit + n = 8)
+    (hr : remaining < cnt (fun j => byte.testBit j) 8 - cnt (fun j => byte.testBit j) bit) :
+    ∃ t, selectInByte byte n bit remaining = some t ∧ t < 8 ∧ byte.testBit t = true ∧
+      cnt (fun j => byte.testBit j) t = cnt (fun j => byte.testBit j) bit + remaining := by
+  induction n generalizing bit remaining with
+  | zero =>
+    have : bit = 8 := by omega
+    subst this; omega
+  | succ n ih =>
+    unfold selectInByte
+    have hcs := cnt_succ (fun j => byte.testBit j) bit
+    by_cases hb : byte.testBit bit = true
+    · rw [if_pos ((shiftRight_mod2 byte bit).mpr hb)]
+      simp only [hb, if_true] at hcs
+      by_cases h0 : remaining = 0
+      · rw [if_pos h0]
+        exact ⟨bit, rfl, by omega, hb, by omega⟩
+      · rw [if_neg h0]
+        obtain ⟨t, h1, h2, h3, h4⟩ := ih (bit + 1) (remaining - 1) (by omega) (by omega)
+        exact ⟨t, h1, h2, h3, by omega⟩
+    · have hbf : byte.testBit bit = false := by simpa using hb
+      rw [if_neg (fun h => hb ((shiftRight_mod2 byte bit).mp h))]
+      simp only [hbf, Bool.false_eq_true, if_false, Nat.add_zero] at hcs
+      obtain ⟨t, h1, h2, h3, h4⟩ := ih (bit + 1) remaining (by omega) (by omega)
+      exact ⟨t, h1, h2, h3, by omega⟩
+
+theorem byte_testBit (word byteIdx t : Nat) (ht : t < 8) :
+    ((word >>> (byteIdx * 8)) % 256).testBit t = word.testBit (byteIdx * 8 + t) := by
+  have : (256 : Nat) = 2 ^ 8 := by decide
+  rw [this, Nat.testBit_mod_two_pow, Nat.testBit_shiftRight]
+  simp [ht]
+
+theorem byte_testBit_hi (word byteIdx t : Nat) (ht : 8 ≤ t) :
+    ((word >>> (byteIdx * 8)) % 256).testBit t = false := by
+  have : (256 : Nat) = 2 ^ 8 := by decide
+  rw [this, Nat.testBit_mod_two_pow]
+  simp; omega
+
+/-- popcount of byte `byteIdx` of the word = its share of the word's set bits -/
+theorem popcount_byte (word byteIdx : Nat) :
+    popcount ((word >>> (byteIdx * 8)) % 256) =
+      cnt (fun j => word.testBit j) (byteIdx * 8 + 8) - cnt (fun j => word.testBit j) (byteIdx * 8) := by
+  rw [popcount_eq]
+  have h1 : (List.range 64).countP (fun j => ((word >>> (byteIdx * 8)) % 256).testBit j) =
+      cnt (fun j => ((word >>> (byteIdx * 8)) % 256).testBit j) (8 + 56) := rfl
+  rw [h1, cnt_add]
+  have h2 : cnt (fun j => ((word >>> (byteIdx * 8)) % 256).testBit (8 + j)) 56 = 0 := by
+    unfold cnt
+    rw [List.countP_eq_zero]
+    intro j _
+    simp [byte_testBit_hi word byteIdx (8 + j) (by omega)]
+  rw [h2, Nat.add_zero, cnt_add (fun j => word.testBit j) (byteIdx * 8) 8]
+  have h3 : cnt (fun j => ((word >>> (byteIdx * 8)) % 256).testBit j) 8 =
+      cnt (fun j => word.testBit (byteIdx * 8 + j)) 8 :=
+    cnt_congr _ _ 8 (fun j hj => byte_testBit word byteIdx j hj)
+  rw [h3]; omega
+
+/-- the byte loop finds the `r`-th set bit of the word -/
+theorem selectBytes_spec (word : Nat) (n byteIdx remaining r : Nat) (hn : byteIdx + n = 8)
+    (hrem : cnt (fun j => word.testBit j) (byteIdx * 8) + remaining = r)
+    (hr : r < cnt (fun j => word.testBit j) 64) :
+    ∃ j, selectBytes word n byteIdx remaining = .ok (some j) ∧ j < 64 ∧ word.testBit j = true ∧
+      cnt (fun j => word.testBit j) j = r := by
+  induction n generalizing byteIdx remaining with
+  | zero =>
+    have : byteIdx = 8 := by omega
+    subst this
+    simp only [Nat.reduceMul] at hrem
+    omega
+  | succ n ih =>
+    unfold selectBytes
+    simp only
+    have hpb := popcount_byte word byteIdx
+    have hmono := cnt_mono (fun j => word.testBit j) (byteIdx * 8) (byteIdx * 8 + 8) (by omega)
+    by_cases hlt : remaining < popcount ((word >>> (byteIdx * 8)) % 256)
+    · rw [if_pos hlt]
+      -- the byte's own counting function
+      have hc8 : cnt (fun j => ((word >>> (byteIdx * 8)) % 256).testBit j) 8 =
+          popcount ((word >>> (byteIdx * 8)) % 256) := by
+        rw [hpb, cnt_add (fun j => word.testBit j) (byteIdx * 8) 8]
+        have : cnt (fun j => ((word >>> (byteIdx * 8)) % 256).testBit j) 8 =
+            cnt (fun j => word.testBit (byteIdx * 8 + j)) 8 :=
+          cnt_congr _ _ 8 (fun j hj => byte_testBit word byteIdx j hj)
+        rw [this]; omega
+      obtain ⟨t, h1, h2, h3, h4⟩ := selectInByte_spec ((word >>> (byteIdx * 8)) % 256) 8 0 remaining rfl
+        (by rw [cnt_zero, hc8]; omega)
+      rw [h1]
+      simp only
+      refine ⟨byteIdx * 8 + t, rfl, by omega, ?_, ?_⟩
+      · rw [← byte_testBit word byteIdx t h2]; exact h3
+      · rw [cnt_add (fun j => word.testBit j) (byteIdx * 8) t]
+        have : cnt (fun j => word.testBit (byteIdx * 8 + j)) t =
+            cnt (fun j => ((word >>> (byteIdx * 8)) % 256).testBit j) t :=
+          cnt_congr _ _ t (fun j hj => (byte_testBit word byteIdx j (by omega)).symm)
+        rw [this, h4, cnt_zero]; omega
+    · rw [if_neg hlt]
+      apply ih (byteIdx + 1) (remaining - popcount ((word >>> (byteIdx * 8)) % 256)) (by omega)
+      rw [show (byteIdx + 1) * 8 = byteIdx * 8 + 8 by omega]
+      omega
+
+/-- `select_in_word(word, r)` is the position of the `r`-th set bit among the lowest 64 -/
+theorem selectInWord_spec (word r : Nat) (hr : r < cnt (fun j => word.testBit j) 64) :
+    ∃ j, selectInWord word r = .ok (some j) ∧ j < 64 ∧ word.testBit j = true ∧
+      cnt (fun j => word.testBit j) j = r := by
+  unfold selectInWord
+  have hp : popcount word = cnt (fun j => word.testBit j) 64 := popcount_eq word
+  rw [if_neg (by omega)]
+  exact selectBytes_spec word 8 0 r r rfl (by simp [cnt_zero]) hr
+
+
+set_option maxRecDepth 40000
+
+/-! ### `select1` -/
+
+theorem bsSuper_spec (sb : List Nat) (target : Nat) (f lo hi : Nat)
+    (hlo : lo < hi) (hhi : hi ≤ sb.length) (hf : hi - lo ≤ f)
+    (h1 : ∃ x, sb[lo]? = some x ∧ x < target)
+    (h2 : hi = sb.length ∨ ∃ y, sb[hi]? = some y ∧ target ≤ y) :
+    ∃ r, bsSuper sb target f lo hi = .ok r ∧ r < hi ∧ (∃ x, sb[r]? = some x ∧ x < target) ∧
+      (r + 1 = sb.length ∨ ∃ y, sb[r + 1]? = some y ∧ target ≤ y) := by
+  induction f generalizing lo hi with
+  | zero => omega
+  | succ f ih =>
+    unfold bsSuper
+    by_cases hlt : lo + 1 < hi
+    · rw [if_pos hlt]
+      have hmid : lo + (hi - lo) / 2 < sb.length := by omega
+      rw [List.getElem?_eq_getElem hmid]
+      simp only
+      by_cases hr : sb[lo + (hi - lo) / 2] < target
+      · rw [if_pos hr]
+        exact ih (lo + (hi - lo) / 2) hi (by omega) hhi (by omega)
+          ⟨_, List.getElem?_eq_getElem hmid, hr⟩ h2
+      · rw [if_neg hr]
+        obtain ⟨r, g1, g2, g3, g4⟩ := ih lo (lo + (hi - lo) / 2) (by omega) (by omega) (by omega) h1
+          (Or.inr ⟨_, List.getElem?_eq_getElem hmid, by omega⟩)
+        exact ⟨r, g1, by omega, g3, g4⟩
+    · rw [if_neg hlt]
+      have : lo + 1 = hi := by omega
+      refine ⟨lo, rfl, by omega, h1, ?_⟩
+      rw [this]; exact h2
+
+theorem blockScan_spec (br : List Nat) (base target : Nat) (n i cur : Nat)
+    (hcur : cur + 1 = i) (hg : ∃ x, br[cur]? = some x ∧ base + x < target) (hend : i + n ≤ br.length) :
+    ∃ r, blockScan br base target n i cur = .ok r ∧ cur ≤ r ∧ r < i + n ∧
+      (∃ x, br[r]? = some x ∧ base + x < target) ∧
+      (r + 1 = i + n ∨ (r + 1 < i + n ∧ ∃ y, br[r + 1]? = some y ∧ target ≤ base + y)) := by
+  induction n generalizing i cur with
+  | zero => exact ⟨cur, rfl, Nat.le_refl _, by omega, hg, Or.inl (by omega)⟩
+  | succ n ih =>
+    unfold blockScan
+    have hi : i < br.length := by omega
+    rw [List.getElem?_eq_getElem hi]
+    simp only
+    by_cases hge : base + br[i] ≥ target
+    · rw [if_pos hge]
+      refine ⟨cur, rfl, Nat.le_refl _, by omega, hg, Or.inr ⟨by omega, br[i], ?_, hge⟩⟩
+      rw [hcur]; exact List.getElem?_eq_getElem hi
+    · rw [if_neg hge]
+      obtain ⟨r, g1, g2, g3, g4, g5⟩ := ih (i + 1) i rfl ⟨_, List.getElem?_eq_getElem hi, by omega⟩ (by omega)
+      exact ⟨r, g1, by omega, by omega, g4, by
+        rcases g5 with g5 | ⟨g5, g6⟩
+        · left; omega
+        · right; exact ⟨by omega, g6⟩⟩
+
+theorem cum_sat (v : BVec) (hw : v.WF) (j : Nat) (hj : v.data.length ≤ j) :
+    cum v.data v.len j = onesBelow v.data v.len := by
+  unfold cum
+  have := hw.1
+  unfold nWords at this
+  rw [Nat.min_eq_right (by omega)]
+
+/-- every entry of the superblock array is the rank at its superblock's first bit -/
+theorem ofBVec_sb_all (v : BVec) (hw : v.WF) :
+    (v.data.length + 7) / 8 ≤ (SBV.ofBVec v).superblockRanks.length ∧
+    (SBV.ofBVec v).superblockRanks.length ≤ (v.data.length + 7) / 8 + 1 ∧
+    ∀ j, j < (SBV.ofBVec v).superblockRanks.length →
+      (SBV.ofBVec v).superblockRanks[j]? = some (cum v.data v.len (8 * j)) := by
+  have hsb := (sbv_inv v).sb
+  have hones := (sbv_inv v).ones
+  have hl : (sbvLoop v.len {} 0 v.data).sb.length = (v.data.length + 7) / 8 := by rw [hsb]; simp
+  unfold SBV.ofBVec
+  simp only
+  split
+  · refine ⟨by simp [hl], by simp [hl], ?_⟩
+    intro j hj
+    simp only [List.length_append, List.length_singleton, hl] at hj
+    by_cases hjl : j < (v.data.length + 7) / 8
+    · rw [List.getElem?_append_left (by omega), hsb, List.getElem?_map, List.getElem?_range hjl]; rfl
+    · have : j = (v.data.length + 7) / 8 := by omega
+      rw [List.getElem?_append_right (by omega), hl, this]
+      simp only [Nat.sub_self, List.getElem?_cons_zero, Option.some.injEq]
+      rw [hones, cum_sat v hw _ (Nat.le_refl _), cum_sat v hw _ (by omega)]
+  · refine ⟨by omega, by omega, ?_⟩
+    intro j hj
+    rw [hl] at hj
+    rw [hsb, List.getElem?_map, List.getElem?_range hj]; rfl
+
+theorem cum_eq_onesBelow (v : BVec) (b : Nat) (h : 64 * b ≤ v.len) :
+    cum v.data v.len b = onesBelow v.data (64 * b) := by
+  unfold cum; rw [Nat.min_eq_left h]
+
+/-- ones among the valid bits of word `b`, as a count over the word's bits -/
+theorem cum_word (v : BVec) (hw : v.WF) (b : Nat) (hb : b < v.data.length) (t : Nat)
+    (ht : 64 * b + t ≤ v.len) (ht64 : t ≤ 64) :
+    onesBelow v.data (64 * b + t) = cum v.data v.len b + cnt (fun j => (v.data.getD b 0).testBit j) t := by
+  rw [cum_eq_onesBelow v b (by omega), onesBelow_add]
+  congr 1
+  unfold cnt
+  apply List.countP_congr
+  intro j hj
+  have := List.mem_range.mp hj
+  rw [bitmapNull_word v.data b j (by omega)]
+
+theorem select1_correct (v : BVec) (hw : v.WF) (hn : NoTrunc v) (k : Nat) (hk : k < onesBelow v.data v.len) :
+    ∃ p, (SBV.ofBVec v).select1 k = .ok (some p) ∧ p < v.len ∧ bitmapNull v.data p = true ∧
+      onesBelow v.data p = k := by
+  have hlen := hw.1
+  unfold nWords at hlen
+  have hinv := sbv_inv v
+  obtain ⟨hL1, hL2, hsball⟩ := ofBVec_sb_all v hw
+  have hnW : 0 < v.data.length := by
+    apply Classical.byContradiction; intro h
+    have : v.len = 0 := by omega
+    rw [this, onesBelow_zero] at hk; omega
+  -- 1. the sampled start superblock
+  have hstart : ∃ lo, (SBV.ofBVec v).select1Samples.getD (k / selectSampleRate) 0 / 512 = lo ∧
+      lo < (v.data.length + 7) / 8 ∧ cum v.data v.len (8 * lo) ≤ k := by
+    have hs : (SBV.ofBVec v).select1Samples = (sbvLoop v.len {} 0 v.data).s1 := rfl
+    rw [hs]
+    cases hx : (sbvLoop v.len {} 0 v.data).s1[k / selectSampleRate]? with
+    | none =>
+      refine ⟨0, by simp [List.getD, hx], by omega, by simp [cum_zero]⟩
+    | some x =>
+      obtain ⟨b, hb1, hb2, hb3⟩ := hinv.s1 _ x hx
+      have hxle : x ≤ 64 * b := by rw [hb2]; exact Nat.mod_le _ _
+      refine ⟨x / 512, by simp [List.getD, hx], by omega, ?_⟩
+      have := cum_mono v.data v.len (8 * (x / 512)) b (by omega)
+      unfold selectSampleRate at hb3
+      omega
+  obtain ⟨lo, hlo1, hlo2, hlo3⟩ := hstart
+  -- 2. the superblock
+  obtain ⟨sbi, hs1, hs2, ⟨x, hs3, hs4⟩, hs5⟩ := bsSuper_spec (SBV.ofBVec v).superblockRanks (k + 1)
+    (SBV.ofBVec v).superblockRanks.length lo (SBV.ofBVec v).superblockRanks.length
+    (by omega) (Nat.le_refl _) (by omega) ⟨_, hsball lo (by omega), by omega⟩ (Or.inl rfl)
+  rw [hsball sbi hs2] at hs3
+  cases hs3
+  have hsbi_lt : sbi < (v.data.length + 7) / 8 := by
+    apply Classical.byContradiction; intro h
+    have : cum v.data v.len (8 * sbi) = onesBelow v.data v.len := cum_sat v hw _ (by omega)
+    omega
+  have hnext : k < cum v.data v.len (8 * (sbi + 1)) := by
+    rcases hs5 with h | ⟨y, hy1, hy2⟩
+    · rw [cum_sat v hw _ (by omega)]; exact hk
+    · rw [hsball (sbi + 1) (by
+        apply Classical.byContradiction; intro h
+        rw [List.getElem?_eq_none (by omega)] at hy1; cases hy1)] at hy1
+      cases hy1; omega
+  -- 3. the block
+  have hbr := ofBVec_br v
+  have hbrlen : (SBV.ofBVec v).blockRanks.length = v.data.length := by rw [hbr]; simp
+  have hbrget : ∀ b, b < v.data.length → b / 8 = sbi →
+      (SBV.ofBVec v).blockRanks[b]? = some (cum v.data v.len b - cum v.data v.len (8 * sbi)) := by
+    intro b hb hb8
+    rw [hbr, List.getElem?_map, List.getElem?_range hb]
+    simp only [Option.map_some, Option.some.injEq]
+    rw [Nat.mod_eq_of_lt (hn b hb), hb8]
+  have hstartblk : sbi * 8 < v.data.length := by omega
+  have hblock : ∃ bi, blockScan (SBV.ofBVec v).blockRanks (cum v.data v.len (8 * sbi)) (k + 1)
+        (min ((sbi + 1) * 8) (SBV.ofBVec v).blockRanks.length - sbi * 8) (sbi * 8) (sbi * 8) = .ok bi ∧
+      bi < v.data.length ∧ bi / 8 = sbi ∧ cum v.data v.len bi ≤ k ∧ k < cum v.data v.len (bi + 1) := by
+    rw [hbrlen]
+    obtain ⟨n, hn'⟩ : ∃ n, min ((sbi + 1) * 8) v.data.length - sbi * 8 = n + 1 :=
+      ⟨min ((sbi + 1) * 8) v.data.length - sbi * 8 - 1, by omega⟩
+    rw [hn']
+    unfold blockScan
+    rw [hbrget (sbi * 8) hstartblk (by omega)]
+    simp only
+    have e8 : 8 * sbi = sbi * 8 := by omega
+    have hc8 : cum v.data v.len (sbi * 8) = cum v.data v.len (8 * sbi) := by rw [e8]
+    rw [if_neg (by omega)]
+    obtain ⟨r, g1, g2, g3, ⟨x, g4, g5⟩, g6⟩ := blockScan_spec (SBV.ofBVec v).blockRanks
+      (cum v.data v.len (8 * sbi)) (k + 1) n (sbi * 8 + 1) (sbi * 8) rfl
+      ⟨_, hbrget (sbi * 8) hstartblk (by omega), by omega⟩ (by rw [hbrlen]; omega)
+    have hr8 : r / 8 = sbi := by omega
+    have hrlt : r < v.data.length := by omega
+    rw [hbrget r hrlt hr8] at g4
+    cases g4
+    have hm := cum_mono v.data v.len (8 * sbi) r (by omega)
+    refine ⟨r, g1, hrlt, hr8, by omega, ?_⟩
+    rcases g6 with g6 | ⟨hlt6, y, hy1, hy2⟩
+    · -- the last block of the superblock (or of the vector)
+      by_cases hlast : r + 1 = (sbi + 1) * 8
+      · rw [hlast, show (sbi + 1) * 8 = 8 * (sbi + 1) by omega]; exact hnext
+      · have hend : v.data.length ≤ r + 1 := by omega
+        rw [cum_sat v hw _ hend]; exact hk
+    · have hr1 : r + 1 < v.data.length := by
+        apply Classical.byContradiction; intro h
+        rw [List.getElem?_eq_none (by omega)] at hy1; cases hy1
+      rw [hbrget (r + 1) hr1 (by omega)] at hy1
+      cases hy1
+      have hm2 := cum_mono v.data v.len (8 * sbi) (r + 1) (by omega)
+      omega
+  obtain ⟨bi, hb1, hb2, hb3, hb4, hb5⟩ := hblock
+  -- 4. the word
+  unfold SBV.select1
+  rw [ofBVec_ones, cum_full v hw, if_neg (by omega)]
+  simp only
+  rw [hlo1, hs1]
+  simp only
+  rw [hsball sbi hs2]
+  simp only
+  rw [hb1]
+  simp only
+  rw [hbrget bi hb2 hb3]
+  simp only
+  have hm := cum_mono v.data v.len (8 * sbi) bi (by omega)
+  have hbase : cum v.data v.len (8 * sbi) + (cum v.data v.len bi - cum v.data v.len (8 * sbi)) =
+      cum v.data v.len bi := by omega
+  rw [hbase, if_neg (by omega), ofBVec_inner, List.getElem?_eq_getElem hb2]
+  simp only
+  -- valid bits of word `bi`
+  have hgd : v.data.getD bi 0 = v.data[bi] := by simp [List.getD, List.getElem?_eq_getElem hb2]
+  have hvb : ∃ vb, vb ≤ 64 ∧ 64 * bi + vb ≤ v.len ∧
+      cum v.data v.len (bi + 1) = cum v.data v.len bi + cnt (fun j => v.data[bi].testBit j) vb := by
+    by_cases hfull : 64 * (bi + 1) ≤ v.len
+    · refine ⟨64, Nat.le_refl _, by omega, ?_⟩
+      rw [cum_eq_onesBelow v (bi + 1) hfull, show 64 * (bi + 1) = 64 * bi + 64 by omega,
+        cum_word v hw bi hb2 64 (by omega) (Nat.le_refl _), hgd]
+    · refine ⟨v.len - 64 * bi, by omega, by omega, ?_⟩
+      have : cum v.data v.len (bi + 1) = onesBelow v.data (64 * bi + (v.len - 64 * bi)) := by
+        unfold cum; rw [Nat.min_eq_right (by omega)]; congr 1; omega
+      rw [this, cum_word v hw bi hb2 _ (by omega) (by omega), hgd]
+  obtain ⟨vb, hvb1, hvb2, hvb3⟩ := hvb
+  have hcm := cnt_mono (fun j => v.data[bi].testBit j) vb 64 hvb1
+  obtain ⟨j, hj1, hj2, hj3, hj4⟩ := selectInWord_spec v.data[bi] (k - cum v.data v.len bi) (by omega)
+  rw [hj1]
+  simp only
+  -- the found bit is a valid one
+  have hjvb : j < vb := by
+    apply Classical.byContradiction; intro h
+    have := cnt_mono (fun j => v.data[bi].testBit j) vb j (by omega)
+    omega
+  rw [if_pos (by omega)]
+  refine ⟨bi * 64 + j, rfl, by omega, ?_, ?_⟩
+  · rw [show bi * 64 + j = 64 * bi + j by omega, bitmapNull_word v.data bi j hj2, hgd]; exact hj3
+  · rw [show bi * 64 + j = 64 * bi + j by omega, cum_word v hw bi hb2 j (by omega) (by omega), hgd, hj4]
+    omega
+
+theorem select1_none (v : BVec) (hw : v.WF) (k : Nat) (hk : onesBelow v.data v.len ≤ k) :
+    (SBV.ofBVec v).select1 k = .ok none := by
+  unfold SBV.select1
+  rw [ofBVec_ones, cum_full v hw, if_pos hk]
+
+
+set_option maxRecDepth 40000
+
+/-! ### `select0`, and the plain definitions of select -/
+
+theorem specSelect_of (b : Bool) (bs : List Bool) (k off p : Nat) (hp : p < bs.length) (hb : bs[p] = b)
+    (hc : ((bs.take p).filter (· == b)).length = k) : Spec.select b bs k off = some (off + p) := by
+  induction bs generalizing k off p with
+  | nil => simp at hp
+  | cons x xs ih =>
+    unfold Spec.select
+    cases p with
+    | zero =>
+      simp only [List.getElem_cons_zero] at hb
+      simp only [List.take_zero, List.filter_nil, List.length_nil] at hc
+      subst hb
+      simp [← hc]
+    | succ p =>
+      simp only [List.getElem_cons_succ] at hb
+      simp only [List.length_cons] at hp
+      simp only [List.take_succ_cons, List.filter_cons] at hc
+      by_cases hx : (x == b) = true
+      · rw [if_pos hx] at hc ⊢
+        simp only [List.length_cons] at hc
+        rw [if_neg (by omega)]
+        rw [ih (k - 1) (off + 1) p (by omega) hb (by omega)]
+        congr 1; omega
+      · rw [if_neg hx] at hc ⊢
+        rw [ih k (off + 1) p (by omega) hb hc]
+        congr 1; omega
+
+theorem specSelect_none (b : Bool) (bs : List Bool) (k off : Nat)
+    (h : (bs.filter (· == b)).length ≤ k) : Spec.select b bs k off = none := by
+  induction bs generalizing k off with
+  | nil => rfl
+  | cons x xs ih =>
+    unfold Spec.select
+    simp only [List.filter_cons] at h
+    by_cases hx : (x == b) = true
+    · rw [if_pos hx] at h ⊢
+      simp only [List.length_cons] at h
+      rw [if_neg (by omega)]
+      exact ih (k - 1) (off + 1) (by omega)
+    · rw [if_neg hx] at h ⊢
+      exact ih k (off + 1) h
+
+/-- zeros among the first `p` bits of the vector -/
+def zerosBelow (v : BVec) (p : Nat) : Nat := min p v.len - onesBelow v.data (min p v.len)
+
+theorem zerosBelow_succ (v : BVec) (p : Nat) (hp : p < v.len) :
+    zerosBelow v (p + 1) = zerosBelow v p + (if bitmapNull v.data p then 0 else 1) := by
+  unfold zerosBelow
+  rw [Nat.min_eq_left (by omega), Nat.min_eq_left (by omega), onesBelow_succ]
+  have := onesBelow_le v.data p
+  split <;> omega
+
+theorem zerosBelow_mono (v : BVec) (a b : Nat) (h : a ≤ b) : zerosBelow v a ≤ zerosBelow v b := by
+  induction b with
+  | zero => have : a = 0 := by omega
+            subst this; exact Nat.le_refl _
+  | succ b ih =>
+    by_cases hab : a = b + 1
+    · subst hab; exact Nat.le_refl _
+    · have h1 := ih (by omega)
+      by_cases hb : b < v.len
+      · rw [zerosBelow_succ v b hb]; omega
+      · have : zerosBelow v (b + 1) = zerosBelow v b := by
+          unfold zerosBelow
+          rw [Nat.min_eq_right (by omega), Nat.min_eq_right (by omega)]
+        omega
+
+theorem sel0Search_spec (s : SBV) (Z : Nat → Nat) (hZ : ∀ p, s.rank0 p = .ok (Z p)) (L k f lo hi : Nat)
+    (hlohi : lo ≤ hi) (hf : hi - lo < f) (h1 : Z lo ≤ k) (h2 : hi = L ∨ k < Z (hi + 1)) :
+    ∃ r, sel0Search s k f lo hi = .ok r ∧ lo ≤ r ∧ r ≤ hi ∧ Z r ≤ k ∧ (r = L ∨ k < Z (r + 1)) := by
+  induction f generalizing lo hi with
+  | zero => omega
+  | succ f ih =>
+    unfold sel0Search
+    by_cases hlt : lo < hi
+    · rw [if_pos hlt, hZ]
+      simp only
+      by_cases hle : Z (lo + (hi - lo) / 2 + 1) ≤ k
+      · rw [if_pos hle]
+        obtain ⟨r, g1, g2, g3, g4, g5⟩ := ih (lo + (hi - lo) / 2 + 1) hi (by omega) (by omega) hle h2
+        exact ⟨r, g1, by omega, g3, g4, g5⟩
+      · rw [if_neg hle]
+        obtain ⟨r, g1, g2, g3, g4, g5⟩ := ih lo (lo + (hi - lo) / 2) (by omega) (by omega) h1
+          (Or.inr (by omega))
+        exact ⟨r, g1, g2, by omega, g4, g5⟩
+    · rw [if_neg hlt]
+      have : lo = hi := by omega
+      subst this
+      exact ⟨lo, rfl, Nat.le_refl _, Nat.le_refl _, h1, h2⟩
+
+theorem select0_correct (v : BVec) (hw : v.WF) (hn : NoTrunc v) (k : Nat)
+    (hk : k < v.len - onesBelow v.data v.len) :
+    ∃ p, (SBV.ofBVec v).select0 k = .ok (some p) ∧ p < v.len ∧ bitmapNull v.data p = false ∧
+      zerosBelow v p = k := by
+  have hlen := hw.1
+  unfold nWords at hlen
+  have hinv := sbv_inv v
+  have hZ : ∀ p, (SBV.ofBVec v).rank0 p = .ok (zerosBelow v p) := fun p => rank0_correct v hw hn p
+  have htot : zerosBelow v v.len = v.len - onesBelow v.data v.len := by
+    unfold zerosBelow; rw [Nat.min_self]
+  -- the sampled start position
+  have hstart : ∃ lo, (SBV.ofBVec v).select0Samples.getD (k / selectSampleRate) 0 = lo ∧
+      lo ≤ v.len ∧ zerosBelow v lo ≤ k := by
+    have hs : (SBV.ofBVec v).select0Samples = (sbvLoop v.len {} 0 v.data).s0 := rfl
+    rw [hs]
+    cases hx : (sbvLoop v.len {} 0 v.data).s0[k / selectSampleRate]? with
+    | none =>
+      refine ⟨0, by simp [List.getD, hx], by omega, ?_⟩
+      unfold zerosBelow; simp
+    | some x =>
+      obtain ⟨b, hb1, hb2, hb3⟩ := hinv.s0 _ x hx
+      have hxle : x ≤ 64 * b := by rw [hb2]; exact Nat.mod_le _ _
+      refine ⟨x, by simp [List.getD, hx], by omega, ?_⟩
+      have hm := zerosBelow_mono v x (64 * b) hxle
+      have : zerosBelow v (64 * b) = min (64 * b) v.len - cum v.data v.len b := rfl
+      unfold selectSampleRate at hb3
+      omega
+  obtain ⟨lo, hlo1, hlo2, hlo3⟩ := hstart
+  obtain ⟨r, g1, g2, g3, g4, g5⟩ := sel0Search_spec (SBV.ofBVec v) (zerosBelow v) hZ v.len k (v.len + 1)
+    lo v.len hlo2 (by omega) hlo3 (Or.inl rfl)
+  have hrlt : r < v.len := by
+    apply Classical.byContradiction; intro h
+    have : r = v.len := by omega
+    rw [this, htot] at g4; omega
+  have hnext : k < zerosBelow v (r + 1) := by
+    rcases g5 with g5 | g5
+    · omega
+    · exact g5
+  have hstep := zerosBelow_succ v r hrlt
+  have hbit : bitmapNull v.data r = false := by
+    cases hb : bitmapNull v.data r with
+    | false => rfl
+    | true => rw [hb] at hstep; simp at hstep; omega
+  rw [hbit] at hstep
+  simp only [Bool.false_eq_true, if_false] at hstep
+  unfold SBV.select0
+  rw [ofBVec_inner, ofBVec_ones, cum_full v hw]
+  unfold usub
+  rw [if_neg (by have := onesBelow_le v.data v.len; omega)]
+  simp only
+  rw [if_neg (by omega), hlo1, g1]
+  simp only
+  rw [if_pos hrlt, hZ]
+  simp only
+  rw [if_pos (by omega)]
+  exact ⟨r, rfl, hrlt, hbit, by omega⟩
+
+theorem select0_none (v : BVec) (hw : v.WF) (k : Nat) (hk : v.len - onesBelow v.data v.len ≤ k) :
+    (SBV.ofBVec v).select0 k = .ok none := by
+  unfold SBV.select0
+  rw [ofBVec_inner, ofBVec_ones, cum_full v hw]
+  unfold usub
+  rw [if_neg (by have := onesBelow_le v.data v.len; omega)]
+  simp only
+  rw [if_pos hk]
+
+theorem filter_true_length (f : Nat → Bool) (n : Nat) :
+    (((List.range n).map f).filter (· == true)).length = (List.range n).countP f := by
+  have := specRank_true f n n
+  unfold Spec.rank at this
+  rw [List.take_of_length_le (by simp), Nat.min_self] at this
+  exact this
+
+theorem filter_false_length (f : Nat → Bool) (n : Nat) :
+    (((List.range n).map f).filter (· == false)).length = n - (List.range n).countP f := by
+  have := specRank_false f n n
+  unfold Spec.rank at this
+  rw [List.take_of_length_le (by simp), Nat.min_self] at this
+  exact this
+
+/-- P: under the same hypothesis, `select1(k)` is the position of the `k`-th one and `select0(k)`
+the position of the `k`-th zero (0-indexed), `None` when there are not that many. -/
+theorem c15b_sbv_select_partial (v : BVec) (hw : v.WF) (hn : NoTrunc v) (bs : List Bool)
+    (hb : v.toBools = .ok bs) (k : Nat) :
+    (SBV.ofBVec v).select1 k = .ok (Spec.select true bs k 0) ∧
+    (SBV.ofBVec v).select0 k = .ok (Spec.select false bs k 0) := by
+  rw [toBools_wf v hw] at hb
+  cases hb
+  constructor
+  · by_cases hk : k < onesBelow v.data v.len
+    · obtain ⟨p, h1, h2, h3, h4⟩ := select1_correct v hw hn k hk
+      rw [h1]
+      have := specSelect_of true ((List.range v.len).map (bitmapNull v.data)) k 0 p (by simpa using h2)
+        (by simp [h3]) (by
+          have := specRank_true (bitmapNull v.data) v.len p
+          unfold Spec.rank at this
+          rw [this, Nat.min_eq_left (by omega)]; exact h4)
+      rw [this, Nat.zero_add]
+    · rw [select1_none v hw k (by omega), specSelect_none]
+      rw [filter_true_length]; unfold onesBelow at hk; omega
+  · by_cases hk : k < v.len - onesBelow v.data v.len
+    · obtain ⟨p, h1, h2, h3, h4⟩ := select0_correct v hw hn k hk
+      rw [h1]
+      have := specSelect_of false ((List.range v.len).map (bitmapNull v.data)) k 0 p (by simpa using h2)
+        (by simp [h3]) (by
+          have := specRank_false (bitmapNull v.data) v.len p
+          unfold Spec.rank at this
+          rw [this, Nat.min_eq_left (by omega)]
+          unfold zerosBelow at h4
+          rw [Nat.min_eq_left (by omega)] at h4
+          exact h4)
+      rw [this, Nat.zero_add]
+    · rw [select0_none v hw k (by omega), specSelect_none]
+      rw [filter_false_length]; unfold onesBelow at hk; omega
+
+/-- W: without the hypothesis: in 512 set bits `select1(300)` finds nothing, and
+`select0(0)` of 300 ones, a zero and 30 more ones misses the only zero (at position 300). -/
+theorem c15b_sbv_select_trunc_witness :
+    (SBV.ofBVec (BVec.fromBools (List.replicate 512 true))).select1 300 = .ok none ∧
+    Spec.select true (List.replicate 512 true) 300 0 = some 300 ∧
+    (SBV.ofBVec (BVec.fromBools (List.replicate 300 true ++ false :: List.replicate 30 true))).select0 0 ≠
+      .ok (Spec.select false (List.replicate 300 true ++ false :: List.replicate 30 true) 0 0) := by
+  refine ⟨by decide +kernel, by decide +kernel, by decide +kernel⟩
+
+
+set_option maxRecDepth 40000
+
+/-! ### Elias-Fano -/
+
+/-- `set` on a well-formed vector -/
+theorem set_wf (v : BVec) (hw : v.WF) (i : Nat) (hi : i < v.len) (b : Bool) :
+    ∃ v', v.set i b = .ok v' ∧ v'.WF ∧ v'.len = v.len ∧
+      ∀ q, bitmapNull v'.data q = if q = i then b else bitmapNull v.data q := by
+  obtain ⟨data, len⟩ := v
+  obtain ⟨hlen, hlt⟩ := hw
+  simp only at hlen hlt hi
+  unfold nWords at hlen
+  have hin : i / 64 < data.length := by omega
+  unfold BVec.set
+  simp only
+  rw [if_neg (by omega), List.getElem?_eq_getElem hin]
+  simp only
+  refine ⟨_, rfl, ⟨by simp [nWords]; omega, ?_⟩, rfl, ?_⟩
+  · intro w hw
+    simp only at hw
+    obtain ⟨k, hk, he⟩ := List.getElem_of_mem hw
+    have hk' : k < data.length := by simpa using hk
+    have := List.getElem?_modify (fun w => if b then setBit w (i % 64) else clearBit w (i % 64)) (i / 64) data k
+    rw [List.getElem?_eq_getElem hk, List.getElem?_eq_getElem hk', he] at this
+    simp only [Option.map_eq_map, Option.map_some, Option.some.injEq] at this
+    rw [this]
+    have hwk := hlt _ (List.getElem_mem hk')
+    split
+    · split
+      · exact setBit_lt _ _ hwk (Nat.mod_lt _ (by decide))
+      · unfold clearBit
+        exact Nat.lt_of_le_of_lt Nat.and_le_left hwk
+    · exact hwk
+  · intro q
+    simp only
+    unfold bitmapNull
+    rw [List.getElem?_modify]
+    cases hq : data[q / 64]? with
+    | none =>
+      have : q ≠ i := by
+        intro h; subst h; rw [List.getElem?_eq_getElem hin] at hq; cases hq
+      simp [this]
+    | some w =>
+      simp only [Option.map_eq_map, Option.map_some]
+      by_cases h64 : i / 64 = q / 64
+      · rw [if_pos h64]
+        by_cases hqi : q = i
+        · subst hqi
+          rw [if_pos rfl]
+          cases b
+          · simp only [Bool.false_eq_true, if_false, getBit_eq_testBit, clearBit, Nat.one_shiftLeft,
+              Nat.testBit_and, Nat.testBit_xor, Nat.testBit_two_pow]
+            have hw64 : (W - 1).testBit (q % 64) = true := by
+              have : W - 1 = 2 ^ 64 - 1 := by decide
+              rw [this, Nat.testBit_two_pow_sub_one]; simp; omega
+            simp [hw64]
+          · simp only [if_true, getBit_setBit]; simp
+        · rw [if_neg hqi]
+          have hne : i % 64 ≠ q % 64 := by omega
+          cases b
+          · simp only [Bool.false_eq_true, if_false, getBit_eq_testBit, clearBit, Nat.one_shiftLeft,
+              Nat.testBit_and, Nat.testBit_xor, Nat.testBit_two_pow]
+            have hw64 : (W - 1).testBit (q % 64) = true := by
+              have : W - 1 = 2 ^ 64 - 1 := by decide
+              rw [this, Nat.testBit_two_pow_sub_one]; simp; omega
+            simp [hw64, hne]
+          · simp only [if_true, getBit_setBit]; simp [hne]
+      · rw [if_neg h64]
+        have : q ≠ i := by intro h; subst h; exact h64 rfl
+        rw [if_neg this]
+
+/-- positions set by the upper-bits loop -/
+def posFrom (lb : Nat) : Nat → List Nat → List Nat
+  | _, [] => []
+  | i, v :: vs => ((v >>> lb) + i) :: posFrom lb (i + 1) vs
+
+theorem posFrom_length (lb i : Nat) (vs : List Nat) : (posFrom lb i vs).length = vs.length := by
+  induction vs generalizing i with
+  | nil => rfl
+  | cons v vs ih => simp [posFrom, ih]
+
+theorem posFrom_get (lb i : Nat) (vs : List Nat) (t : Nat) (ht : t < vs.length) :
+    (posFrom lb i vs)[t]? = some ((vs[t] >>> lb) + i + t) := by
+  induction vs generalizing i t with
+  | nil => simp at ht
+  | cons v vs ih =>
+    cases t with
+    | zero => simp [posFrom]
+    | succ t =>
+      simp only [posFrom, List.getElem?_cons_succ, List.getElem_cons_succ]
+      rw [ih (i + 1) t (by simpa using ht)]
+      congr 1; omega
+
+theorem setUpper_spec (lb L : Nat) (u : BVec) (hw : u.WF) (hl : u.len = L) (i : Nat) (vs : List Nat)
+    (hpos : ∀ p ∈ posFrom lb i vs, p < L) :
+    ∃ u', setUpper lb L u i vs = .ok u' ∧ u'.WF ∧ u'.len = L ∧
+      ∀ q, bitmapNull u'.data q = (bitmapNull u.data q || decide (q ∈ posFrom lb i vs)) := by
+  induction vs generalizing u i with
+  | nil => exact ⟨u, rfl, hw, hl, by intro q; simp [posFrom]⟩
+  | cons v vs ih =>
+    unfold setUpper
+    have hp0 : (v >>> lb) + i < L := hpos _ (by simp [posFrom])
+    rw [if_pos hp0]
+    obtain ⟨u1, h1, h2, h3, h4⟩ := set_wf u hw ((v >>> lb) + i) (by omega) true
+    rw [h1]
+    simp only
+    obtain ⟨u2, g1, g2, g3, g4⟩ := ih u1 h2 (by omega) (i + 1)
+      (fun p hp => hpos p (by simp [posFrom, hp]))
+    refine ⟨u2, g1, g2, g3, ?_⟩
+    intro q
+    rw [g4, h4]
+    simp only [posFrom, List.mem_cons]
+    by_cases hq : q = (v >>> lb) + i
+    · simp [hq]
+    · simp [hq]
+
+/-- counting the members of a strictly increasing list below its `i`-th element gives `i` -/
+theorem countP_mem_sorted (l : List Nat) (hs : l.Pairwise (· < ·)) (i : Nat) (hi : i < l.length) :
+    (List.range l[i]).countP (fun q => decide (q ∈ l)) = i := by
+  induction l generalizing i with
+  | nil => simp at hi
+  | cons a t ih =>
+    rw [List.pairwise_cons] at hs
+    obtain ⟨ha, ht⟩ := hs
+    -- split membership in `a :: t`
+    have hsplit : ∀ p, (List.range p).countP (fun q => decide (q ∈ a :: t)) =
+        (if a < p then 1 else 0) + (List.range p).countP (fun q => decide (q ∈ t)) := by
+      intro p
+      induction p with
+      | zero => simp
+      | succ p ihp =>
+        rw [List.range_succ, List.countP_append, List.countP_append, ihp]
+        simp only [List.countP_cons, List.countP_nil, List.mem_cons, Nat.zero_add]
+        by_cases hpa : p = a
+        · subst hpa
+          have : p ∉ t := fun h => Nat.lt_irrefl _ (ha p h)
+          simp [this]; omega
+        · by_cases hpt : p ∈ t
+          · simp [hpa, hpt]; split <;> split <;> omega
+          · simp [hpa, hpt]; split <;> split <;> omega
+    rw [hsplit]
+    cases i with
+    | zero =>
+      simp only [List.getElem_cons_zero, Nat.lt_irrefl, if_false, Nat.zero_add]
+      rw [List.countP_eq_zero]
+      intro q hq
+      have := List.mem_range.mp hq
+      simp only [decide_eq_true_eq]
+      intro hqt
+      have := ha q hqt
+      omega
+    | succ i =>
+      simp only [List.getElem_cons_succ]
+      have hi' : i < t.length := by simpa using hi
+      have hlt : a < t[i] := ha _ (List.getElem_mem hi')
+      rw [if_pos hlt, ih ht i hi']
+      omega
+
+theorem onesBelow_lt_of_bit (data : List Nat) (p p' : Nat) (h : p < p') (hb : bitmapNull data p = true) :
+    onesBelow data p < onesBelow data p' := by
+  have h1 := onesBelow_succ data p
+  rw [hb] at h1
+  simp only [if_true] at h1
+  have h2 := onesBelow_mono data (p + 1) p' (by omega)
+  omega
+
+theorem strictlyIncreasing_pairwise (vs : List Nat) (h : strictlyIncreasing vs = true) :
+    vs.Pairwise (· < ·) := by
+  induction vs with
+  | nil => exact List.Pairwise.nil
+  | cons a t ih =>
+    cases t with
+    | nil => exact List.pairwise_singleton _ _
+    | cons b r =>
+      simp only [strictlyIncreasing, Bool.and_eq_true, decide_eq_true_eq] at h
+      have ht := ih h.2
+      rw [List.pairwise_cons]
+      refine ⟨?_, ht⟩
+      intro x hx
+      rcases List.mem_cons.mp hx with rfl | hx
+      · exact h.1
+      · have := (List.pairwise_cons.mp ht).1 x hx
+        omega
+
+theorem posFrom_pairwise (lb i : Nat) (vs : List Nat) (hs : vs.Pairwise (· < ·)) :
+    (posFrom lb i vs).Pairwise (· < ·) := by
+  induction vs generalizing i with
+  | nil => exact List.Pairwise.nil
+  | cons v vs ih =>
+    rw [List.pairwise_cons] at hs
+    simp only [posFrom, List.pairwise_cons]
+    refine ⟨?_, ih (i + 1) hs.2⟩
+    intro p hp
+    obtain ⟨t, ht, he⟩ := List.getElem_of_mem hp
+    have ht' : t < vs.length := by simpa [posFrom_length] using ht
+    have := posFrom_get lb (i + 1) vs t ht'
+    rw [List.getElem?_eq_getElem ht, he] at this
+    cases this
+    have hlt : v < vs[t] := hs.1 _ (List.getElem_mem _)
+    have : v >>> lb ≤ vs[t] >>> lb := by
+      rw [Nat.shiftRight_eq_div_pow, Nat.shiftRight_eq_div_pow]
+      exact Nat.div_le_div_right (by omega)
+    omega
+
+
+set_option maxRecDepth 40000
+
+theorem lowBitsOf_length (low n j : Nat) : (lowBitsOf low n j).length = n := by
+  induction n generalizing j with
+  | zero => rfl
+  | succ n ih => simp [lowBitsOf, ih]
+
+theorem lowBitsOf_get (low n j t : Nat) (ht : t < n) :
+    (lowBitsOf low n j)[t]? = some (low.testBit (j + t)) := by
+  induction n generalizing j t with
+  | zero => omega
+  | succ n ih =>
+    cases t with
+    | zero =>
+      simp only [lowBitsOf, List.getElem?_cons_zero, Nat.add_zero, Option.some.injEq]
+      rw [Nat.testBit_eq_decide_div_mod_eq, Nat.shiftRight_eq_div_pow]
+      by_cases h : low / 2 ^ j % 2 = 1 <;> simp [h]
+    | succ t =>
+      simp only [lowBitsOf, List.getElem?_cons_succ]
+      rw [ih (j + 1) t (by omega)]
+      congr 2; omega
+
+/-- bit `i * lb + j` of the concatenated lower bits is bit `j` of the masked `i`-th value -/
+theorem lowerBitsList_get (mask lb : Nat) (vs : List Nat) (i j : Nat) (hi : i < vs.length) (hj : j < lb) :
+    (lowerBitsList mask lb vs)[i * lb + j]? = some ((vs[i] &&& mask).testBit j) := by
+  induction vs generalizing i with
+  | nil => simp at hi
+  | cons v vs ih =>
+    unfold lowerBitsList
+    cases i with
+    | zero =>
+      rw [Nat.zero_mul, Nat.zero_add, List.getElem?_append_left (by rw [lowBitsOf_length]; exact hj),
+        lowBitsOf_get _ _ _ _ hj]
+      simp
+    | succ i =>
+      rw [List.getElem?_append_right (by rw [lowBitsOf_length, Nat.succ_mul]; omega), lowBitsOf_length]
+      have : (i + 1) * lb + j - lb = i * lb + j := by rw [Nat.succ_mul]; omega
+      rw [this, ih i (by simpa using hi)]
+      simp
+
+theorem lowerBitsList_length (mask lb : Nat) (vs : List Nat) :
+    (lowerBitsList mask lb vs).length = vs.length * lb := by
+  induction vs with
+  | nil => simp [lowerBitsList]
+  | cons v vs ih => simp [lowerBitsList, lowBitsOf_length, ih, Nat.succ_mul]; omega
+
+theorem testBit_getLowerLoop (lower : BVec) (start n j t : Nat) :
+    (getLowerLoop lower start n j).testBit t =
+      (decide (j ≤ t ∧ t < j + n) && decide (lower.get (start + t) = .ok true)) := by
+  induction n generalizing j with
+  | zero =>
+    simp only [getLowerLoop, Nat.zero_testBit, Nat.add_zero]
+    have : ¬ (j ≤ t ∧ t < j) := by omega
+    simp [this]
+  | succ n ih =>
+    unfold getLowerLoop
+    rw [Nat.testBit_or, ih]
+    by_cases htj : t = j
+    · subst htj
+      have h1 : ¬ (t + 1 ≤ t ∧ t < t + 1 + n) := by omega
+      have h2 : (t ≤ t ∧ t < t + (n + 1)) := by omega
+      simp only [h1, h2, decide_false, decide_true, Bool.false_and, Bool.or_false, Bool.true_and]
+      split
+      · rename_i hg
+        rw [hg, Nat.one_shiftLeft, Nat.testBit_two_pow]; simp
+      · rename_i hg
+        have : ¬ (lower.get (start + t) = .ok true) := fun h => hg h
+        simp [this]
+    · have h0 : ∀ x : Nat, (x = 1 <<< j ∨ x = 0) → x.testBit t = false := by
+        intro x hx
+        rcases hx with rfl | rfl
+        · rw [Nat.one_shiftLeft, Nat.testBit_two_pow]; simp <;> omega
+        · simp
+      have hm : (match lower.get (start + j) with
+          | Res.ok true => 1 <<< j
+          | _ => 0).testBit t = false := by
+        apply h0
+        split
+        · left; rfl
+        · right; rfl
+      split
+      · rw [h0 _ (Or.inl rfl), Bool.false_or]
+        congr 1
+        by_cases h : j + 1 ≤ t ∧ t < j + 1 + n
+        · have : j ≤ t ∧ t < j + (n + 1) := by omega
+          simp [h, this]
+        · have : ¬ (j ≤ t ∧ t < j + (n + 1)) := by omega
+          simp [h, this]
+      · rw [h0 _ (Or.inr rfl), Bool.false_or]
+        congr 1
+        by_cases h : j + 1 ≤ t ∧ t < j + 1 + n
+        · have : j ≤ t ∧ t < j + (n + 1) := by omega
+          simp [h, this]
+        · have : ¬ (j ≤ t ∧ t < j + (n + 1)) := by omega
+          simp [h, this]
+
+theorem efMask_eq (lb : Nat) (h : lb < 64) : efMask lb = 2 ^ lb - 1 := by
+  unfold efMask
+  by_cases h0 : lb = 0
+  · rw [if_pos h0, h0]
+  · rw [if_neg h0, if_neg (by omega)]
+
+/-- P: Elias-Fano random access returns the `i`-th element — for every strictly increasing `u64`
+sequence whose last element is below `u64::MAX`, whose lower-bit width stays below 64 (excludes only
+a single element `≥ 2^63 - 1`) and whose unary upper part has no truncated block rank. -/
+theorem c15b_ef_get_partial (vs : List Nat) (hs : strictlyIncreasing vs = true)
+    (last : Nat) (hlast : vs.getLast? = some last) (hmax : last + 1 < W)
+    (hlb : efLowerBits vs.length last < 64) :
+    ∃ e, EF.new vs = .ok e ∧ e.n = vs.length ∧
+      (NoTrunc e.upper.inner → ∀ i (hi : i < vs.length), e.get i = .ok vs[i]) := by
+  have hpw := strictlyIncreasing_pairwise vs hs
+  have hn0 : 0 < vs.length := by
+    cases vs with
+    | nil => simp at hlast
+    | cons a t => simp
+  -- every element is at most `last`
+  have hle : ∀ i (hi : i < vs.length), vs[i] ≤ last := by
+    intro i hi
+    have hl : last = vs[vs.length - 1] := by
+      have := List.getLast?_eq_getElem? (l := vs)
+      rw [this, List.getElem?_eq_getElem (by omega)] at hlast
+      exact (Option.some.inj hlast).symm
+    by_cases hil : i = vs.length - 1
+    · subst hil; omega
+    · have := List.pairwise_iff_getElem.mp hpw i (vs.length - 1) hi (by omega) (by omega)
+      omega
+  generalize hlbdef : efLowerBits vs.length last = lb at hlb
+  -- 1. the lower bits
+  obtain ⟨lower, hl1, hl2, hl3, hl4, hl5⟩ := pushAll_clean BVec.empty empty_wf_clean.1 empty_wf_clean.2
+    (lowerBitsList (efMask lb) lb vs)
+  -- 2. the upper bits
+  have hposlt : ∀ p ∈ posFrom lb 0 vs, p < vs.length + (last >>> lb) := by
+    intro p hp
+    obtain ⟨t, ht, he⟩ := List.getElem_of_mem hp
+    have ht' : t < vs.length := by simpa [posFrom_length] using ht
+    have := posFrom_get lb 0 vs t ht'
+    rw [List.getElem?_eq_getElem ht, he] at this
+    cases this
+    have : vs[t] >>> lb ≤ last >>> lb := by
+      rw [Nat.shiftRight_eq_div_pow, Nat.shiftRight_eq_div_pow]
+      exact Nat.div_le_div_right (hle t ht')
+    omega
+  obtain ⟨ub, hu1, hu2, hu3, hu4⟩ := setUpper_spec lb (vs.length + (last >>> lb))
+    (BVec.filled (vs.length + (last >>> lb)) false) (filled_false_wf_clean _).1 rfl 0 vs hposlt
+  have hubits : ∀ q, bitmapNull ub.data q = decide (q ∈ posFrom lb 0 vs) := by
+    intro q
+    rw [hu4]
+    have : bitmapNull (BVec.filled (vs.length + (last >>> lb)) false).data q = false :=
+      bitmapNull_replicate _ _
+    rw [this, Bool.false_or]
+  refine ⟨⟨vs.length, last + 1, lb, lower, SBV.ofBVec ub⟩, ?_, rfl, ?_⟩
+  · unfold EF.new
+    rw [hlast]
+    simp only
+    rw [hs]
+    simp only [Bool.not_true, Bool.false_eq_true, if_false]
+    rw [if_neg (by omega), hlbdef, hl1]
+    simp only
+    rw [if_neg (by omega), hu1]
+  · intro hnt i hi
+    simp only [ofBVec_inner] at hnt
+    -- the i-th one of the upper vector is at `high_i + i`
+    have hpi := posFrom_get lb 0 vs i hi
+    have hpil : i < (posFrom lb 0 vs).length := by rw [posFrom_length]; exact hi
+    rw [List.getElem?_eq_getElem hpil] at hpi
+    have hpi' : (posFrom lb 0 vs)[i] = (vs[i] >>> lb) + i := by
+      have := Option.some.inj hpi; omega
+    have hcount : onesBelow ub.data ((vs[i] >>> lb) + i) = i := by
+      unfold onesBelow
+      have h1 : (List.range ((vs[i] >>> lb) + i)).countP (bitmapNull ub.data) =
+          (List.range ((vs[i] >>> lb) + i)).countP (fun q => decide (q ∈ posFrom lb 0 vs)) := by
+        apply List.countP_congr; intro q _; rw [hubits]
+      rw [h1, ← hpi']
+      exact countP_mem_sorted _ (posFrom_pairwise lb 0 vs hpw) i hpil
+    have hbit : bitmapNull ub.data ((vs[i] >>> lb) + i) = true := by
+      rw [hubits, ← hpi']; simp [List.getElem_mem]
+    have hplt : (vs[i] >>> lb) + i < ub.len := by
+      rw [hu3]; exact hposlt _ (by rw [← hpi']; exact List.getElem_mem hpil)
+    have htotal : i < onesBelow ub.data ub.len := by
+      have := onesBelow_lt_of_bit ub.data _ _ hplt hbit
+      omega
+    obtain ⟨p, hp1, hp2, hp3, hp4⟩ := select1_correct ub hu2 hnt i htotal
+    have hpeq : p = (vs[i] >>> lb) + i := by
+      apply Classical.byContradiction; intro hne
+      rcases Nat.lt_or_gt_of_ne hne with h | h
+      · have := onesBelow_lt_of_bit ub.data _ _ h hp3; omega
+      · have := onesBelow_lt_of_bit ub.data _ _ h hbit; omega
+    -- the lower bits
+    have hlow : EF.getLower ⟨vs.length, last + 1, lb, lower, SBV.ofBVec ub⟩ i = vs[i] % 2 ^ lb := by
+      unfold EF.getLower
+      simp only
+      by_cases h0 : lb = 0
+      · rw [if_pos h0, h0]; simp [Nat.mod_one]
+      · rw [if_neg h0]
+        apply Nat.eq_of_testBit_eq
+        intro t
+        rw [testBit_getLowerLoop, Nat.testBit_mod_two_pow]
+        by_cases ht : t < lb
+        · have hlen : i * lb + t < lower.len := by
+            rw [hl4, lowerBitsList_length]
+            simp only [BVec.empty, Nat.zero_add]
+            calc i * lb + t < i * lb + lb := by omega
+              _ = (i + 1) * lb := by rw [Nat.succ_mul]
+              _ ≤ vs.length * lb := Nat.mul_le_mul_right _ (by omega)
+          rw [get_wf lower hl2, if_pos hlen, hl5]
+          simp only [BVec.empty, Nat.not_lt_zero, if_false, Nat.sub_zero]
+          have := lowerBitsList_get (efMask lb) lb vs i t hi ht
+          simp only [List.getD, this, Option.getD_some]
+          rw [efMask_eq lb hlb, Nat.and_two_pow_sub_one_eq_mod, Nat.testBit_mod_two_pow]
+          simp [ht]
+        · simp [ht]
+    subst hpeq
+    unfold EF.get
+    simp only
+    rw [if_neg (by omega), hp1]
+    simp only
+    rw [if_neg (Nat.not_lt.mpr (Nat.le_add_left _ _)), hlow, Nat.add_sub_cancel]
+    congr 1
+    -- (high << lb) | low = value
+    have hv : vs[i] < W := by have := hle i hi; omega
+    have hsh : (vs[i] >>> lb) <<< lb ≤ vs[i] := by
+      rw [Nat.shiftRight_eq_div_pow, Nat.shiftLeft_eq]
+      exact Nat.div_mul_le_self _ _
+    rw [Nat.mod_eq_of_lt (by omega)]
+    have hlowlt : vs[i] % 2 ^ lb < 2 ^ lb := Nat.mod_lt _ (Nat.two_pow_pos _)
+    rw [← Nat.shiftLeft_add_eq_or_of_lt hlowlt, Nat.shiftRight_eq_div_pow, Nat.shiftLeft_eq]
+    rw [Nat.mul_comm]; exact Nat.div_add_mod _ _
+
+/-- W: the excluded inputs. A single element `2^63 - 1` (or larger) makes `lower_bits = 64` and
+`values[n-1] >> 64` panics; `u64::MAX` overflows `values[n-1] + 1`. -/
+theorem c15b_ef_extreme_witness :
+    EF.new [9223372036854775807] = .panic ∧ EF.new [18446744073709551615] = .panic ∧
+    efLowerBits 1 9223372036854775807 = 64 := by decide +kernel
+
+/-- N: the hypotheses hold for a sequence with large gaps and values up to 2^64 - 2. -/
+theorem c15b_ef_nonvacuity : ∃ e, EF.new [3, 9, 1000000, 18446744073709551614] = .ok e ∧ NoTrunc e.upper.inner ∧
+    e.get 3 = .ok 18446744073709551614 := by
+  refine ⟨_, rfl, ?_, ?_⟩ <;> decide +kernel
+
+
+set_option maxRecDepth 40000
+
+theorem efDecodeFrom_eq (e : EF) (f : Nat → Nat) (n s : Nat)
+    (h : ∀ k, k < n → e.get (s + k) = .ok (f (s + k))) :
+    efDecodeFrom e n s = .ok ((List.range' s n).map f) := by
+  induction n generalizing s with
+  | zero => rfl
+  | succ n ih =>
+    unfold efDecodeFrom
+    have h0 := h 0 (by omega)
+    rw [Nat.add_zero] at h0
+    rw [h0]
+    have := ih (s + 1) (fun k hk => by
+      have := h (k + 1) (by omega)
+      rw [show s + 1 + k = s + (k + 1) by omega]; exact this)
+    rw [this]
+    simp [List.range'_succ]
+
+/-- P: under the same hypotheses, iterating an Elias-Fano sequence returns the original sequence. -/
+theorem c15b_ef_decode_partial (vs : List Nat) (hs : strictlyIncreasing vs = true)
+    (last : Nat) (hlast : vs.getLast? = some last) (hmax : last + 1 < W)
+    (hlb : efLowerBits vs.length last < 64) :
+    ∃ e, EF.new vs = .ok e ∧ (NoTrunc e.upper.inner → e.decode = .ok vs) := by
+  obtain ⟨e, h1, h2, h3⟩ := c15b_ef_get_partial vs hs last hlast hmax hlb
+  refine ⟨e, h1, ?_⟩
+  intro hnt
+  unfold EF.decode
+  rw [h2, efDecodeFrom_eq e (fun i => vs.getD i 0) vs.length 0 (fun k hk => by
+    rw [Nat.zero_add, h3 hnt k hk]; simp [List.getD, List.getElem?_eq_getElem hk])]
+  congr 1
+  apply List.ext_getElem?
+  intro i
+  rw [List.getElem?_map]
+  by_cases hi : i < vs.length
+  · rw [← List.range_eq_range', List.getElem?_range hi]
+    simp [List.getD, List.getElem?_eq_getElem hi]
+  · rw [← List.range_eq_range', List.getElem?_eq_none (by simpa using Nat.le_of_not_lt hi),
+      List.getElem?_eq_none (by omega)]; rfl
+
+/-- W: with a dense cluster the unary upper part has 256 ones ahead of a block, `select1` goes wrong
+and `get` panics (`expect("index within bounds")`): 300 consecutive ids followed by a distant one. -/
+theorem c15b_ef_trunc_witness :
+    (match EF.new (List.range 300 ++ [1000000]) with
+      | .ok e => e.get 260
+      | _ => .err) = .panic ∧
+    (match EF.new (List.range 300 ++ [1000000]) with
+      | .ok e => decide (NoTrunc e.upper.inner)
+      | _ => true) = false := by
+  constructor <;> decide +kernel
+
+/-- the empty sequence -/
+example : EF.new [] = .ok ⟨0, 0, 0, BVec.empty, SBV.ofBVec BVec.empty⟩ := rfl
+
+
+set_option maxRecDepth 40000
+
+/-! ### wavelet tree: list lemmas for one level -/
+
+theorem filter_take_countP {α : Type} (P : α → Bool) (S : List α) (p : Nat) :
+    (S.filter P).take ((S.take p).countP P) = (S.take p).filter P := by
+  induction S generalizing p with
+  | nil => simp
+  | cons x xs ih =>
+    cases p with
+    | zero => simp
+    | succ p =>
+      simp only [List.take_succ_cons, List.filter_cons, List.countP_cons]
+      by_cases hx : P x = true
+      · simp only [hx, if_true, List.take_succ_cons, ih]
+      · simp only [hx, Bool.false_eq_true, if_false, Nat.add_zero, ih]
+
+theorem filter_drop_countP {α : Type} (P : α → Bool) (S : List α) (p : Nat) :
+    (S.filter P).drop ((S.take p).countP P) = (S.drop p).filter P := by
+  induction S generalizing p with
+  | nil => simp
+  | cons x xs ih =>
+    cases p with
+    | zero => simp
+    | succ p =>
+      simp only [List.take_succ_cons, List.filter_cons, List.countP_cons, List.drop_succ_cons]
+      by_cases hx : P x = true
+      · simp only [hx, if_true, List.drop_succ_cons, ih]
+      · simp only [hx, Bool.false_eq_true, if_false, Nat.add_zero, ih]
+
+/-- elements `lo ≤ · < hi` -/
+def slice {α : Type} (S : List α) (lo hi : Nat) : List α := (S.take hi).drop lo
+
+theorem countP_take_le {α : Type} (P : α → Bool) (S : List α) (p : Nat) :
+    (S.take p).countP P ≤ (S.filter P).length := by
+  rw [← List.countP_eq_length_filter]
+  exact List.Sublist.countP_le (List.take_sublist p S)
+
+theorem countP_take_mono {α : Type} (P : α → Bool) (S : List α) (a b : Nat) (h : a ≤ b) :
+    (S.take a).countP P ≤ (S.take b).countP P := by
+  apply List.Sublist.countP_le
+  rw [show S.take a = (S.take b).take a by rw [List.take_take]; congr 1; omega]
+  exact List.take_sublist a _
+
+/-- the zero side of the stable partition holds, at the mapped interval, exactly the selected elements -/
+theorem slice_left {α : Type} (P : α → Bool) (S F1 : List α) (lo hi : Nat) (h : lo ≤ hi) :
+    slice (S.filter P ++ F1) ((S.take lo).countP P) ((S.take hi).countP P) =
+      (slice S lo hi).filter P := by
+  unfold slice
+  rw [List.take_append_of_le_length (countP_take_le P S hi), filter_take_countP]
+  have := filter_drop_countP P (S.take hi) lo
+  rw [List.take_take, Nat.min_eq_left h] at this
+  exact this
+
+theorem slice_right {α : Type} (P : α → Bool) (S F0 : List α) (lo hi : Nat) (h : lo ≤ hi) :
+    slice (F0 ++ S.filter P) (F0.length + (S.take lo).countP P) (F0.length + (S.take hi).countP P) =
+      (slice S lo hi).filter P := by
+  unfold slice
+  rw [List.take_length_add_append, List.drop_length_add_append, filter_take_countP]
+  have := filter_drop_countP P (S.take hi) lo
+  rw [List.take_take, Nat.min_eq_left h] at this
+  exact this
+
+theorem getElem_filter_countP {α : Type} (P : α → Bool) (S : List α) (pos : Nat) (hp : pos < S.length)
+    (hP : P S[pos] = true) : (S.filter P)[(S.take pos).countP P]? = some S[pos] := by
+  have h := filter_drop_countP P S pos
+  have hd : S.drop pos = S[pos] :: S.drop (pos + 1) := List.drop_eq_getElem_cons hp
+  rw [hd, List.filter_cons, if_pos hP] at h
+  have := congrArg List.head? h
+  rw [List.head?_drop] at this
+  simpa using this
+
+theorem bitOf_eq_testBit (b c : Nat) : bitOf b c = c.testBit b := by
+  unfold bitOf
+  rw [Nat.testBit_eq_decide_div_mod_eq, Nat.shiftRight_eq_div_pow]
+  by_cases h : c / 2 ^ b % 2 = 1 <;> simp [h]
+
+/-! ### what one level's bit vector answers -/
+
+structure LevelOK (s : SBV) (S : List Nat) (b : Nat) : Prop where
+  rank1 : ∀ p, s.rank1 p = .ok ((S.take p).countP (bitOf b))
+  rank0 : ∀ p, s.rank0 p = .ok ((S.take p).countP (fun c => !bitOf b c))
+  zeros : s.countZeros = .ok (S.countP (fun c => !bitOf b c))
+  get : ∀ p (hp : p < S.length), s.inner.get p = .ok (bitOf b S[p])
+  sel1 : ∀ k, s.select1 k = .ok (Spec.select true (S.map (bitOf b)) k 0)
+  sel0 : ∀ k, s.select0 k = .ok (Spec.select false (S.map (bitOf b)) k 0)
+
+theorem specRank_map (P : Nat → Bool) (S : List Nat) (p : Nat) :
+    Spec.rank true (S.map P) p = (S.take p).countP P ∧
+    Spec.rank false (S.map P) p = (S.take p).countP (fun c => !P c) := by
+  unfold Spec.rank
+  rw [← List.map_take, List.filter_map, List.length_map, List.filter_map, List.length_map,
+    List.countP_eq_length_filter, List.countP_eq_length_filter]
+  constructor
+  · congr 2; funext x; simp
+  · congr 2; funext x; simp
+
+theorem levelOK_of (S : List Nat) (b : Nat) (bits : BVec)
+    (hb : BVec.empty.pushAll (levelBits b S) = .ok bits) (hn : NoTrunc bits) :
+    LevelOK (SBV.ofBVec bits) S b := by
+  obtain ⟨v, h1, h2, h3, h4⟩ := c15b_bitvec_collect (levelBits b S)
+  rw [hb] at h1
+  cases h1
+  have hr := fun p => c15b_sbv_rank_partial bits h2 hn _ h4 p
+  have hs := fun k => c15b_sbv_select_partial bits h2 hn _ h4 k
+  have hlen : bits.len = S.length := by
+    have := toBools_wf bits h2
+    rw [h4] at this
+    have := congrArg (fun r => match r with | Res.ok l => l.length | _ => 0) this
+    simp [levelBits] at this
+    exact this.symm
+  refine ⟨?_, ?_, ?_, ?_, fun k => (hs k).1, fun k => (hs k).2⟩
+  · intro p; rw [(hr p).1]; unfold levelBits; rw [(specRank_map _ S p).1]
+  · intro p; rw [(hr p).2]; unfold levelBits; rw [(specRank_map _ S p).2]
+  · -- zeros = len - ones
+    unfold SBV.countZeros
+    rw [ofBVec_inner, ofBVec_ones, cum_full bits h2]
+    have h1 := rank1_correct bits h2 hn bits.len
+    rw [(hr bits.len).1, Nat.min_self] at h1
+    have heq := Res.ok.inj h1
+    unfold levelBits at heq
+    rw [← heq, (specRank_map _ S bits.len).1, hlen, List.take_length]
+    unfold usub
+    have hsum := List.length_eq_countP_add_countP (p := bitOf b) (l := S)
+    rw [if_neg (by omega)]
+    congr 1
+    have : S.countP (fun c => !bitOf b c) = S.countP (fun a => decide ¬bitOf b a = true) := by
+      apply List.countP_congr; intro x _; cases bitOf b x <;> simp
+    rw [this]; omega
+  · intro p hp
+    rw [ofBVec_inner, get_wf bits h2, if_pos (by omega)]
+    congr 1
+    have := toBools_wf bits h2
+    rw [h4] at this
+    have heq := Res.ok.inj this
+    have := congrArg (fun l => l[p]?) heq
+    simp only [levelBits, List.getElem?_map, List.getElem?_eq_getElem hp, Option.map_some,
+      List.getElem?_range (show p < bits.len by omega)] at this
+    exact (Option.some.inj this).symm
+
+
+set_option maxRecDepth 40000
+
+/-! ### wavelet tree: access and rank -/
+
+theorem buildLevels_succ (n : Nat) (S : List Nat) :
+    ∃ bits rest, BVec.empty.pushAll (levelBits n S) = .ok bits ∧
+      buildLevels n (partitionLevel n S) = .ok rest ∧
+      buildLevels (n + 1) S = .ok (SBV.ofBVec bits :: rest) := by
+  induction n generalizing S with
+  | zero =>
+    obtain ⟨bits, hb, _⟩ := c15b_bitvec_collect (levelBits 0 S)
+    exact ⟨bits, [], hb, rfl, by simp [buildLevels, hb]⟩
+  | succ n ih =>
+    obtain ⟨bits, hb, _⟩ := c15b_bitvec_collect (levelBits (n + 1) S)
+    obtain ⟨b2, r2, _, _, h3⟩ := ih (partitionLevel (n + 1) S)
+    refine ⟨bits, _, hb, h3, ?_⟩
+    conv => lhs; unfold buildLevels
+    rw [hb]; simp only; rw [h3]
+
+theorem partitionLevel_length (b : Nat) (S : List Nat) : (partitionLevel b S).length = S.length := by
+  unfold partitionLevel
+  rw [List.length_append, ← List.countP_eq_length_filter, ← List.countP_eq_length_filter]
+  have hsum := List.length_eq_countP_add_countP (p := bitOf b) (l := S)
+  have : S.countP (fun c => !bitOf b c) = S.countP (fun a => decide ¬bitOf b a = true) := by
+    apply List.countP_congr; intro x _; cases bitOf b x <;> simp
+  rw [this]; omega
+
+theorem countP_take_le_len {α : Type} (P : α → Bool) (S : List α) (p : Nat) :
+    (S.take p).countP P ≤ S.countP P := List.Sublist.countP_le (List.take_sublist p S)
+
+/-- position of an element in the next level's arrangement -/
+theorem partition_get (b : Nat) (S : List Nat) (pos : Nat) (hp : pos < S.length) :
+    (partitionLevel b S)[if bitOf b S[pos] then S.countP (fun c => !bitOf b c) + (S.take pos).countP (bitOf b)
+      else (S.take pos).countP (fun c => !bitOf b c)]? = some S[pos] := by
+  unfold partitionLevel
+  by_cases hb : bitOf b S[pos] = true
+  · rw [if_pos hb, List.countP_eq_length_filter, List.getElem?_append_right (by omega),
+      Nat.add_sub_cancel_left]
+    exact getElem_filter_countP _ S pos hp hb
+  · rw [if_neg hb]
+    have hb' : (fun c => !bitOf b c) S[pos] = true := by simpa using hb
+    have h := getElem_filter_countP (fun c => !bitOf b c) S pos hp hb'
+    have hlt : (S.take pos).countP (fun c => !bitOf b c) < (S.filter (fun c => !bitOf b c)).length := by
+      apply Classical.byContradiction; intro hn
+      rw [List.getElem?_eq_none (by omega)] at h; cases h
+    rw [List.getElem?_append_left hlt]; exact h
+
+def AllNoTrunc (levels : List SBV) : Prop := ∀ l ∈ levels, NoTrunc l.inner
+
+theorem accessLoop_spec (n : Nat) (S : List Nat) (levels : List SBV) (hb : buildLevels n S = .ok levels)
+    (hnt : AllNoTrunc levels) (pos : Nat) (hp : pos < S.length) (code0 : Nat) :
+    ∃ code, accessLoop levels n pos code0 = .ok code ∧
+      ∀ t, code.testBit t = (code0.testBit t || (decide (t < n) && S[pos].testBit t)) := by
+  induction n generalizing S levels pos code0 with
+  | zero =>
+    simp only [buildLevels, Res.ok.injEq] at hb
+    subst hb
+    exact ⟨code0, rfl, by intro t; simp⟩
+  | succ n ih =>
+    obtain ⟨bits, rest, h1, h2, h3⟩ := buildLevels_succ n S
+    rw [h3] at hb
+    cases hb
+    have hlv := levelOK_of S n bits h1 (hnt (SBV.ofBVec bits) (by simp))
+    have hnt' : AllNoTrunc rest := fun l hl => hnt l (by simp [hl])
+    have hpg := partition_get n S pos hp
+    unfold accessLoop
+    unfold getOrFalse
+    rw [hlv.get pos hp]
+    simp only
+    by_cases hbit : bitOf n S[pos] = true
+    · rw [hbit] at hpg ⊢
+      simp only [if_true] at hpg
+      simp only
+      rw [hlv.zeros, hlv.rank1]
+      simp only [Nat.add_sub_cancel]
+      have hpos' : S.countP (fun c => !bitOf n c) + (S.take pos).countP (bitOf n) <
+          (partitionLevel n S).length := by
+        apply Classical.byContradiction; intro hn
+        rw [List.getElem?_eq_none (by omega)] at hpg; cases hpg
+      obtain ⟨code, g1, g2⟩ := ih (partitionLevel n S) rest h2 hnt' _ hpos' (code0 ||| 1 <<< n)
+      refine ⟨code, g1, ?_⟩
+      intro t
+      rw [g2 t]
+      rw [List.getElem?_eq_getElem hpos'] at hpg
+      rw [Option.some.inj hpg, Nat.testBit_or, Nat.one_shiftLeft, Nat.testBit_two_pow]
+      have hbn : S[pos].testBit n = true := by rw [← bitOf_eq_testBit]; exact hbit
+      by_cases htn : t = n
+      · subst htn; simp [hbn]
+      · have : n ≠ t := fun h => htn h.symm
+        by_cases hlt : t < n
+        · have : t < n + 1 := by omega
+          simp [*]
+        · have : ¬ t < n + 1 := by omega
+          simp [*]
+    · have hbf : bitOf n S[pos] = false := by simpa using hbit
+      rw [hbf] at hpg ⊢
+      simp only [Bool.false_eq_true, if_false] at hpg
+      simp only
+      rw [hlv.rank0]
+      simp only [Nat.add_sub_cancel]
+      have hpos' : (S.take pos).countP (fun c => !bitOf n c) < (partitionLevel n S).length := by
+        apply Classical.byContradiction; intro hn
+        rw [List.getElem?_eq_none (by omega)] at hpg; cases hpg
+      obtain ⟨code, g1, g2⟩ := ih (partitionLevel n S) rest h2 hnt' _ hpos' code0
+      refine ⟨code, g1, ?_⟩
+      intro t
+      rw [g2 t]
+      rw [List.getElem?_eq_getElem hpos'] at hpg
+      rw [Option.some.inj hpg]
+      have hbn : S[pos].testBit n = false := by rw [← bitOf_eq_testBit]; exact hbf
+      by_cases htn : t = n
+      · subst htn; simp [hbn]
+      · by_cases hlt : t < n
+        · have : t < n + 1 := by omega
+          simp [*]
+        · have : ¬ t < n + 1 := by omega
+          simp [*]
+
+/-- low `n+1` bits agree ⇔ bit `n` agrees and the low `n` bits agree -/
+theorem low_bits_split (n code x : Nat) : (x % 2 ^ (n + 1) == code % 2 ^ (n + 1)) =
+    ((bitOf n x == bitOf n code) && (x % 2 ^ n == code % 2 ^ n)) := by
+  have hx : x % 2 ^ (n + 1) = x % 2 ^ n + 2 ^ n * (if bitOf n x then 1 else 0) := by
+    rw [bitOf_eq_testBit, Nat.testBit_eq_decide_div_mod_eq, Nat.pow_succ, Nat.mod_mul]
+    by_cases h : x / 2 ^ n % 2 = 1
+    · simp [h]
+    · have : x / 2 ^ n % 2 = 0 := by omega
+      simp [this]
+  have hc : code % 2 ^ (n + 1) = code % 2 ^ n + 2 ^ n * (if bitOf n code then 1 else 0) := by
+    rw [bitOf_eq_testBit, Nat.testBit_eq_decide_div_mod_eq, Nat.pow_succ, Nat.mod_mul]
+    by_cases h : code / 2 ^ n % 2 = 1
+    · simp [h]
+    · have : code / 2 ^ n % 2 = 0 := by omega
+      simp [this]
+  have hxl : x % 2 ^ n < 2 ^ n := Nat.mod_lt _ (Nat.two_pow_pos _)
+  have hcl : code % 2 ^ n < 2 ^ n := Nat.mod_lt _ (Nat.two_pow_pos _)
+  rw [hx, hc]
+  generalize 2 ^ n = m at hxl hcl ⊢
+  generalize x % m = a at hxl ⊢
+  generalize code % m = c at hcl ⊢
+  clear hx hc
+  cases bitOf n x <;> cases bitOf n code <;> simp
+  · omega
+  · omega
+  · rw [Bool.eq_iff_iff]; simp only [beq_iff_eq]; omega
+
+/-- the interval `[lo, hi)` shrinks to the elements whose low `n` bits are those of `code` -/
+theorem descend_spec (n : Nat) (S : List Nat) (levels : List SBV) (hb : buildLevels n S = .ok levels)
+    (hnt : AllNoTrunc levels) (code lo hi : Nat) (hlh : lo ≤ hi) (hhi : hi ≤ S.length) :
+    ∃ lo' hi', descend code levels n lo hi = .ok (lo', hi') ∧ lo' ≤ hi' ∧
+      hi' - lo' = (slice S lo hi).countP (fun x => x % 2 ^ n == code % 2 ^ n) := by
+  induction n generalizing S levels lo hi with
+  | zero =>
+    simp only [buildLevels, Res.ok.injEq] at hb
+    subst hb
+    refine ⟨lo, hi, rfl, hlh, ?_⟩
+    simp only [Nat.pow_zero, Nat.mod_one, beq_self_eq_true, List.countP_true]
+    unfold slice; simp; omega
+  | succ n ih =>
+    obtain ⟨bits, rest, h1, h2, h3⟩ := buildLevels_succ n S
+    rw [h3] at hb
+    cases hb
+    have hlv := levelOK_of S n bits h1 (hnt (SBV.ofBVec bits) (by simp))
+    have hnt' : AllNoTrunc rest := fun l hl => hnt l (by simp [hl])
+    have hplen := partitionLevel_length n S
+    have hsplit := fun x => low_bits_split n code x
+    unfold descend
+    simp only [Nat.add_sub_cancel]
+    by_cases hcb : bitOf n code = true
+    · rw [hcb]
+      simp only [Bool.not_true, Bool.false_eq_true, if_false]
+      rw [hlv.zeros, hlv.rank1, hlv.rank1]
+      simp only
+      have hsl := slice_right (bitOf n) S (S.filter (fun c => !bitOf n c)) lo hi hlh
+      rw [← List.countP_eq_length_filter] at hsl
+      obtain ⟨lo', hi', g1, g2, g3⟩ := ih (partitionLevel n S) rest h2 hnt'
+        (S.countP (fun c => !bitOf n c) + (S.take lo).countP (bitOf n))
+        (S.countP (fun c => !bitOf n c) + (S.take hi).countP (bitOf n))
+        (by have := countP_take_mono (bitOf n) S lo hi hlh; omega)
+        (by
+          rw [hplen]
+          have := countP_take_le_len (bitOf n) S hi
+          have hsum := List.length_eq_countP_add_countP (p := bitOf n) (l := S)
+          have e : S.countP (fun c => !bitOf n c) = S.countP (fun a => decide ¬bitOf n a = true) := by
+            apply List.countP_congr; intro x _; cases bitOf n x <;> simp
+          omega)
+      refine ⟨lo', hi', g1, g2, ?_⟩
+      rw [g3]
+      unfold partitionLevel
+      rw [hsl, List.countP_filter]
+      apply List.countP_congr
+      intro x _
+      rw [hsplit x, hcb]
+      cases bitOf n x <;> simp
+    · have hcf : bitOf n code = false := by simpa using hcb
+      rw [hcf]
+      simp only [Bool.not_false, if_true]
+      rw [hlv.rank0, hlv.rank0]
+      simp only
+      have hsl := slice_left (fun c => !bitOf n c) S (S.filter (bitOf n)) lo hi hlh
+      obtain ⟨lo', hi', g1, g2, g3⟩ := ih (partitionLevel n S) rest h2 hnt'
+        ((S.take lo).countP (fun c => !bitOf n c)) ((S.take hi).countP (fun c => !bitOf n c))
+        (countP_take_mono _ S lo hi hlh)
+        (by
+          rw [hplen]
+          have := countP_take_le_len (fun c => !bitOf n c) S hi
+          have := List.countP_le_length (p := fun c => !bitOf n c) (l := S)
+          omega)
+      refine ⟨lo', hi', g1, g2, ?_⟩
+      rw [g3]
+      unfold partitionLevel
+      rw [hsl, List.countP_filter]
+      apply List.countP_congr
+      intro x _
+      rw [hsplit x, hcf]
+      cases bitOf n x <;> simp
+
+
+set_option maxRecDepth 40000
+
+theorem mem_insertSorted (x y : Nat) (l : List Nat) : y ∈ insertSorted x l ↔ y = x ∨ y ∈ l := by
+  induction l with
+  | nil => simp [insertSorted]
+  | cons z zs ih =>
+    unfold insertSorted
+    split
+    · simp
+    · split
+      · rename_i h; subst h; simp
+      · simp only [List.mem_cons, ih]
+        constructor
+        · rintro (h | h | h)
+          · right; left; exact h
+          · left; exact h
+          · right; right; exact h
+        · rintro (h | h | h)
+          · right; left; exact h
+          · left; exact h
+          · right; right; exact h
+
+theorem mem_sortDedup (y : Nat) (l : List Nat) : y ∈ sortDedup l ↔ y ∈ l := by
+  induction l with
+  | nil => simp [sortDedup]
+  | cons x xs ih => simp only [sortDedup, mem_insertSorted, ih, List.mem_cons]
+
+theorem idxOf?_of_mem (l : List Nat) (s : Nat) (h : s ∈ l) :
+    ∃ c, l.idxOf? s = some c ∧ c < l.length ∧ l[c]? = some s := by
+  induction l with
+  | nil => cases h
+  | cons x xs ih =>
+    rw [List.idxOf?_cons]
+    by_cases hx : x = s
+    · subst hx; exact ⟨0, by simp, by simp, by simp⟩
+    · have hb : (x == s) = false := by simpa using hx
+      rw [hb]
+      have hm : s ∈ xs := by
+        rcases List.mem_cons.mp h with h | h
+        · exact absurd h.symm hx
+        · exact h
+      obtain ⟨c, h1, h2, h3⟩ := ih hm
+      refine ⟨c + 1, by simp [h1], by simp; omega, by simpa using h3⟩
+
+theorem idxOf?_some_get (l : List Nat) (s c : Nat) (h : l.idxOf? s = some c) : l[c]? = some s := by
+  induction l generalizing c with
+  | nil => simp at h
+  | cons x xs ih =>
+    rw [List.idxOf?_cons] at h
+    by_cases hx : x = s
+    · have hb : (x == s) = true := by simpa using hx
+      rw [hb] at h; simp at h; subst h; simp [hx]
+    · have hb : (x == s) = false := by simpa using hx
+      rw [hb] at h
+      cases hc : xs.idxOf? s with
+      | none => rw [hc] at h; simp at h
+      | some c' =>
+        rw [hc] at h; simp at h; subst h
+        simpa using ih c' hc
+
+/-- what `WaveletTree::new` builds for a non-empty sequence -/
+theorem wtNew_nonempty (seq : List Nat) (hne : seq ≠ []) :
+    ∃ levels, WT.new seq = .ok ⟨levels,
+        if (sortDedup seq).length ≤ 1 then 1 else bitLen ((sortDedup seq).length - 1),
+        (sortDedup seq).length, seq.length, sortDedup seq⟩ ∧
+      buildLevels (if (sortDedup seq).length ≤ 1 then 1 else bitLen ((sortDedup seq).length - 1))
+        (seq.map (fun s => (codeOf (sortDedup seq) s).getD 0)) = .ok levels := by
+  have hbl : ∀ n S, ∃ levels, buildLevels n S = .ok levels := by
+    intro n S
+    cases n with
+    | zero => exact ⟨[], rfl⟩
+    | succ n => obtain ⟨b, r, _, _, h⟩ := buildLevels_succ n S; exact ⟨_, h⟩
+  obtain ⟨levels, hl⟩ := hbl (if (sortDedup seq).length ≤ 1 then 1 else bitLen ((sortDedup seq).length - 1))
+    (seq.map (fun s => (codeOf (sortDedup seq) s).getD 0))
+  refine ⟨levels, ?_, hl⟩
+  unfold WT.new
+  have : seq.isEmpty = false := by cases seq <;> simp_all
+  rw [this]
+  simp only [Bool.false_eq_true, if_false]
+  rw [hl]
+
+theorem sigma_le (sigma : Nat) : sigma ≤ 2 ^ (if sigma ≤ 1 then 1 else bitLen (sigma - 1)) := by
+  split
+  · omega
+  · have := lt_two_pow_bitLen (sigma - 1); omega
+
+/-- code of a symbol that occurs in the sequence -/
+theorem code_of_mem (seq : List Nat) (s : Nat) (hs : s ∈ seq) :
+    ∃ c, codeOf (sortDedup seq) s = some c ∧ (sortDedup seq)[c]? = some s ∧
+      c < 2 ^ (if (sortDedup seq).length ≤ 1 then 1 else bitLen ((sortDedup seq).length - 1)) := by
+  obtain ⟨c, h1, h2, h3⟩ := idxOf?_of_mem (sortDedup seq) s ((mem_sortDedup s seq).mpr hs)
+  exact ⟨c, h1, h3, Nat.lt_of_lt_of_le h2 (sigma_le _)⟩
+
+/-- P: `access(i)` of a wavelet tree is the `i`-th symbol, provided no level's rank index was
+truncated (`AllNoTrunc`, decidable). -/
+theorem c15b_wt_access_partial (seq : List Nat) (w : WT) (hw : WT.new seq = .ok w)
+    (hnt : AllNoTrunc w.levels) (i : Nat) (hi : i < seq.length) : w.access i = .ok seq[i] := by
+  have hne : seq ≠ [] := by intro h; subst h; simp at hi
+  obtain ⟨levels, h1, h2⟩ := wtNew_nonempty seq hne
+  rw [h1] at hw
+  cases hw
+  simp only at hnt
+  obtain ⟨c, hc1, hc2, hc3⟩ := code_of_mem seq seq[i] (List.getElem_mem hi)
+  have hlen : i < (seq.map (fun s => (codeOf (sortDedup seq) s).getD 0)).length := by simpa using hi
+  obtain ⟨code, g1, g2⟩ := accessLoop_spec _ _ levels h2 hnt i hlen 0
+  unfold WT.access
+  simp only
+  rw [if_neg (by omega), g1]
+  simp only
+  have hcode : code = c := by
+    apply Nat.eq_of_testBit_eq
+    intro t
+    rw [g2 t]
+    simp only [Nat.zero_testBit, Bool.false_or, List.getElem_map, hc1, Option.getD_some]
+    by_cases ht : t < (if (sortDedup seq).length ≤ 1 then 1 else bitLen ((sortDedup seq).length - 1))
+    · simp [ht]
+    · have : c.testBit t = false := by
+        apply Nat.testBit_lt_two_pow
+        exact Nat.lt_of_lt_of_le hc3 (Nat.pow_le_pow_right (by decide) (by omega))
+      simp [ht, this]
+  rw [hcode]
+  simp [List.getD, hc2]
+
+theorem accessAll_eq (w : WT) (f : Nat → Nat) (n s : Nat)
+    (h : ∀ k, k < n → w.access (s + k) = .ok (f (s + k))) :
+    accessAll w n s = .ok ((List.range' s n).map f) := by
+  induction n generalizing s with
+  | zero => rfl
+  | succ n ih =>
+    unfold accessAll
+    have h0 := h 0 (by omega)
+    rw [Nat.add_zero] at h0
+    rw [h0]
+    have := ih (s + 1) (fun k hk => by
+      have := h (k + 1) (by omega)
+      rw [show s + 1 + k = s + (k + 1) by omega]; exact this)
+    rw [this]
+    simp [List.range'_succ]
+
+/-- P: under the same hypothesis, iterating the tree returns the original sequence. -/
+theorem c15b_wt_decode_partial (seq : List Nat) (w : WT) (hw : WT.new seq = .ok w)
+    (hnt : AllNoTrunc w.levels) : w.decode = .ok seq := by
+  have hlen : w.len = seq.length := by
+    by_cases hne : seq = []
+    · subst hne; simp [WT.new] at hw; subst hw; rfl
+    · obtain ⟨levels, h1, _⟩ := wtNew_nonempty seq hne
+      rw [h1] at hw; cases hw; rfl
+  unfold WT.decode
+  rw [hlen, accessAll_eq w (fun i => seq.getD i 0) seq.length 0 (fun k hk => by
+    rw [Nat.zero_add, c15b_wt_access_partial seq w hw hnt k hk]
+    simp [List.getD, List.getElem?_eq_getElem hk])]
+  congr 1
+  apply List.ext_getElem?
+  intro i
+  rw [List.getElem?_map]
+  by_cases hi : i < seq.length
+  · rw [← List.range_eq_range', List.getElem?_range hi]
+    simp [List.getD, List.getElem?_eq_getElem hi]
+  · rw [← List.range_eq_range', List.getElem?_eq_none (by simpa using Nat.le_of_not_lt hi),
+      List.getElem?_eq_none (by omega)]; rfl
+
+/-- P: `rank(symbol, i)` is the number of occurrences of `symbol` among the first `i` symbols. -/
+theorem c15b_wt_rank_partial (seq : List Nat) (w : WT) (hw : WT.new seq = .ok w)
+    (hnt : AllNoTrunc w.levels) (sym i : Nat) : w.rank sym i = .ok (Spec.symRank seq sym i) := by
+  by_cases hne : seq = []
+  · subst hne
+    simp [WT.new] at hw; subst hw
+    simp [WT.rank, Spec.symRank]
+  obtain ⟨levels, h1, h2⟩ := wtNew_nonempty seq hne
+  rw [h1] at hw
+  cases hw
+  simp only at hnt
+  unfold WT.rank
+  simp only
+  by_cases h0 : i = 0
+  · subst h0; simp [Spec.symRank]
+  have hlen0 : seq.length ≠ 0 := fun h => hne (List.length_eq_zero_iff.mp h)
+  rw [if_neg (by omega)]
+  by_cases hmem : sym ∈ seq
+  · obtain ⟨c, hc1, hc2, hc3⟩ := code_of_mem seq sym hmem
+    rw [hc1]
+    simp only
+    obtain ⟨lo', hi', g1, g2, g3⟩ := descend_spec _ _ levels h2 hnt c 0 (min i seq.length)
+      (Nat.zero_le _) (by simp; omega)
+    rw [g1]
+    simp only
+    unfold usub
+    rw [if_neg (by omega)]
+    congr 1
+    rw [g3]
+    unfold slice Spec.symRank
+    rw [List.drop_zero, ← List.map_take, List.countP_map, List.countP_eq_length_filter]
+    have htake : seq.take (min i seq.length) = seq.take i := by
+      by_cases hle : i ≤ seq.length
+      · rw [Nat.min_eq_left hle]
+      · rw [Nat.min_eq_right (by omega), List.take_of_length_le (Nat.le_refl _),
+          List.take_of_length_le (by omega)]
+    rw [htake]
+    congr 1
+    apply List.filter_congr
+    intro x hx
+    have hxm : x ∈ seq := List.mem_of_mem_take hx
+    obtain ⟨cx, hx1, hx2, hx3⟩ := code_of_mem seq x hxm
+    simp only [Function.comp, hx1, Option.getD_some]
+    rw [Nat.mod_eq_of_lt hx3, Nat.mod_eq_of_lt hc3]
+    by_cases hxs : x = sym
+    · subst hxs
+      rw [hc1] at hx1; cases hx1; simp
+    · have : cx ≠ c := by
+        intro h; subst h
+        rw [hc2] at hx2; cases hx2; exact hxs rfl
+      have h1 : (cx == c) = false := by simpa using this
+      have h2 : (x == sym) = false := by simpa using hxs
+      rw [h1, h2]
+  · have hnone : codeOf (sortDedup seq) sym = none := by
+      unfold codeOf
+      cases h : (sortDedup seq).idxOf? sym with
+      | none => rfl
+      | some c =>
+        have := idxOf?_some_get _ _ _ h
+        have hm : sym ∈ sortDedup seq := by
+          obtain ⟨hl, he⟩ := List.getElem?_eq_some_iff.mp this
+          rw [← he]; exact List.getElem_mem hl
+        exact absurd ((mem_sortDedup sym seq).mp hm) hmem
+    rw [hnone]
+    simp only
+    congr 1
+    unfold Spec.symRank
+    symm
+    rw [List.length_eq_zero_iff, List.filter_eq_nil_iff]
+    intro x hx
+    have hxm : x ∈ seq := List.mem_of_mem_take hx
+    have : x ≠ sym := fun h => hmem (h ▸ hxm)
+    simpa using this
+
+
+set_option maxRecDepth 40000
+
+instance (levels : List SBV) : Decidable (AllNoTrunc levels) := by
+  unfold AllNoTrunc; exact List.decidableBAll _ _
+
+/-- W: without the hypothesis: 600 copies of one symbol followed by another — the single level is a
+run of 600 ones, its block ranks wrap, and `rank(9, 300)` answers 44. -/
+theorem c15b_wt_trunc_witness :
+    (match WT.new (List.replicate 600 9 ++ [3]) with
+      | .ok w => w.rank 9 300
+      | _ => .err) = .ok 44 ∧
+    Spec.symRank (List.replicate 600 9 ++ [3]) 9 300 = 300 ∧
+    (match WT.new (List.replicate 600 9 ++ [3]) with
+      | .ok w => decide (AllNoTrunc w.levels)
+      | _ => true) = false := by
+  refine ⟨by decide +kernel, by decide +kernel, by decide +kernel⟩
+
+/-- N: the hypothesis holds for a small alphabet. -/
+theorem c15b_wt_nonvacuity :
+    ∃ w, WT.new [0, 1, 0, 2, 1, 0, 2, 2] = .ok w ∧ AllNoTrunc w.levels ∧ w.rank 0 6 = .ok 3 ∧
+      w.access 3 = .ok 2 := by
+  refine ⟨_, rfl, ?_, ?_, ?_⟩ <;> decide +kernel
+
+
+set_option maxRecDepth 40000
+
+/-! ### wavelet tree: select -/
+
+theorem ascend_append (code : Nat) (xs ys : List SBV) (bp pos : Nat) :
+    ascend code (xs ++ ys) bp pos =
+      match ascend code xs bp pos with
+      | .ok (some p) => ascend code ys (bp + xs.length) p
+      | .ok none => .ok none
+      | .err => .err
+      | .panic => .panic := by
+  induction xs generalizing bp pos with
+  | nil => simp [ascend]
+  | cons x xs ih =>
+    simp only [List.cons_append, ascend, List.length_cons]
+    have e : bp + (xs.length + 1) = bp + 1 + xs.length := by omega
+    split
+    · cases h : x.select0 pos with
+      | ok o =>
+        cases o with
+        | some p => simp only [ih, e]
+        | none => rfl
+      | err => rfl
+      | panic => rfl
+    · cases hz : x.countZeros with
+      | ok z =>
+        simp only
+        split
+        · rfl
+        · cases h : x.select1 (pos - z) with
+          | ok o =>
+            cases o with
+            | some p => simp only [ih, e]
+            | none => rfl
+          | err => rfl
+          | panic => rfl
+      | err => rfl
+      | panic => rfl
+
+/-- the `k`-th element satisfying `P` exists when there are more than `k` of them -/
+theorem exists_kth {α : Type} (P : α → Bool) (S : List α) (k : Nat) (hk : k < S.countP P) :
+    ∃ p, ∃ hp : p < S.length, P S[p] = true ∧ (S.take p).countP P = k := by
+  induction S generalizing k with
+  | nil => simp at hk
+  | cons x xs ih =>
+    rw [List.countP_cons] at hk
+    by_cases hx : P x = true
+    · simp only [hx, if_true] at hk
+      cases k with
+      | zero => exact ⟨0, by simp, by simpa using hx, by simp⟩
+      | succ k =>
+        obtain ⟨p, hp, h1, h2⟩ := ih k (by omega)
+        refine ⟨p + 1, by simp; omega, by simpa using h1, ?_⟩
+        rw [List.take_succ_cons, List.countP_cons, h2]; simp [hx]
+    · simp only [hx, Bool.false_eq_true, if_false, Nat.add_zero] at hk
+      obtain ⟨p, hp, h1, h2⟩ := ih k hk
+      refine ⟨p + 1, by simp; omega, by simpa using h1, ?_⟩
+      rw [List.take_succ_cons, List.countP_cons, h2]; simp [hx]
+
+theorem select_true_map (P : Nat → Bool) (S : List Nat) (k : Nat) (hk : k < S.countP P) :
+    ∃ p, ∃ hp : p < S.length, Spec.select true (S.map P) k 0 = some p ∧ P S[p] = true ∧
+      (S.take p).countP P = k := by
+  obtain ⟨p, hp, h1, h2⟩ := exists_kth P S k hk
+  refine ⟨p, hp, ?_, h1, h2⟩
+  have := specSelect_of true (S.map P) k 0 p (by simpa using hp) (by simpa using h1) (by
+    have := (specRank_map P S p).1
+    unfold Spec.rank at this
+    rw [this, h2])
+  rw [this, Nat.zero_add]
+
+theorem select_false_map (P : Nat → Bool) (S : List Nat) (k : Nat) (hk : k < S.countP (fun c => !P c)) :
+    ∃ p, ∃ hp : p < S.length, Spec.select false (S.map P) k 0 = some p ∧ P S[p] = false ∧
+      (S.take p).countP (fun c => !P c) = k := by
+  obtain ⟨p, hp, h1, h2⟩ := exists_kth (fun c => !P c) S k hk
+  have h1' : P S[p] = false := by simpa using h1
+  refine ⟨p, hp, ?_, h1', h2⟩
+  have := specSelect_of false (S.map P) k 0 p (by simpa using hp) (by simpa using h1') (by
+    have := (specRank_map P S p).2
+    unfold Spec.rank at this
+    rw [this, h2])
+  rw [this, Nat.zero_add]
+
+theorem countP_take_succ {α : Type} (P : α → Bool) (S : List α) (p : Nat) (hp : p < S.length) :
+    (S.take (p + 1)).countP P = (S.take p).countP P + (if P S[p] then 1 else 0) := by
+  rw [List.take_add_one, List.countP_append]
+  simp [List.getElem?_eq_getElem hp, List.countP_cons]
+
+theorem buildLevels_length (n : Nat) (S : List Nat) (levels : List SBV)
+    (h : buildLevels n S = .ok levels) : levels.length = n := by
+  induction n generalizing S levels with
+  | zero => simp only [buildLevels, Res.ok.injEq] at h; subst h; rfl
+  | succ n ih =>
+    obtain ⟨bits, rest, _, h2, h3⟩ := buildLevels_succ n S
+    rw [h3] at h; cases h
+    simp [ih _ _ h2]
+
+/-- descent followed by ascent: the `k`-th element of `[lo, hi)` whose low `n` bits are those of
+`code` is found at its position in the original arrangement -/
+theorem ascend_spec (n : Nat) (S : List Nat) (levels : List SBV) (hb : buildLevels n S = .ok levels)
+    (hnt : AllNoTrunc levels) (code lo hi : Nat) (hlh : lo ≤ hi) (hhi : hi ≤ S.length)
+    (lo' hi' : Nat) (hd : descend code levels n lo hi = .ok (lo', hi')) (k : Nat) (hk : k < hi' - lo') :
+    ∃ p, ∃ hp : p < S.length, ascend code levels.reverse 0 (lo' + k) = .ok (some p) ∧ lo ≤ p ∧ p < hi ∧
+      S[p] % 2 ^ n = code % 2 ^ n ∧
+      (slice S lo p).countP (fun x => x % 2 ^ n == code % 2 ^ n) = k := by
+  induction n generalizing S levels lo hi lo' hi' with
+  | zero =>
+    simp only [buildLevels, Res.ok.injEq] at hb
+    subst hb
+    simp only [descend, Res.ok.injEq, Prod.mk.injEq] at hd
+    obtain ⟨rfl, rfl⟩ := hd
+    refine ⟨lo + k, by omega, rfl, by omega, by omega, by simp [Nat.mod_one], ?_⟩
+    simp only [Nat.pow_zero, Nat.mod_one, beq_self_eq_true, List.countP_true]
+    unfold slice; simp; omega
+  | succ n ih =>
+    obtain ⟨bits, rest, h1, h2, h3⟩ := buildLevels_succ n S
+    rw [h3] at hb
+    cases hb
+    have hlv := levelOK_of S n bits h1 (hnt (SBV.ofBVec bits) (by simp))
+    have hnt' : AllNoTrunc rest := fun l hl => hnt l (by simp [hl])
+    have hplen := partitionLevel_length n S
+    have hrl := buildLevels_length n _ rest h2
+    have hsplit := fun x => low_bits_split n code x
+    have hsum := List.length_eq_countP_add_countP (p := bitOf n) (l := S)
+    have hnot : S.countP (fun c => !bitOf n c) = S.countP (fun a => decide ¬bitOf n a = true) := by
+      apply List.countP_congr; intro x _; cases bitOf n x <;> simp
+    rw [List.reverse_cons, ascend_append]
+    unfold descend at hd
+    simp only [Nat.add_sub_cancel] at hd
+    by_cases hcb : bitOf n code = true
+    · rw [hcb] at hd
+      simp only [Bool.not_true, Bool.false_eq_true, if_false] at hd
+      rw [hlv.zeros, hlv.rank1, hlv.rank1] at hd
+      simp only at hd
+      have hmono := countP_take_mono (bitOf n) S lo hi hlh
+      have hle := countP_take_le_len (bitOf n) S hi
+      obtain ⟨p', hp', g1, g2, g3, g4, g5⟩ := ih (partitionLevel n S) rest h2 hnt'
+        (S.countP (fun c => !bitOf n c) + (S.take lo).countP (bitOf n))
+        (S.countP (fun c => !bitOf n c) + (S.take hi).countP (bitOf n))
+        (by omega) (by rw [hplen]; omega) lo' hi' hd hk
+      rw [g1]
+      simp only [Nat.zero_add, List.length_reverse, hrl, ascend, hcb, Bool.not_true,
+        Bool.false_eq_true, if_false]
+      rw [hlv.zeros]
+      simp only
+      rw [if_neg (by omega), hlv.sel1]
+      obtain ⟨p, hp, s1, s2, s3⟩ := select_true_map (bitOf n) S
+        (p' - S.countP (fun c => !bitOf n c)) (by omega)
+      rw [s1]
+      simp only
+      have hps := countP_take_succ (bitOf n) S p hp
+      rw [s2] at hps
+      simp only [if_true] at hps
+      have hlo : lo ≤ p := by
+        apply Classical.byContradiction; intro hn
+        have := countP_take_mono (bitOf n) S (p + 1) lo (by omega)
+        omega
+      have hhi' : p < hi := by
+        apply Classical.byContradiction; intro hn
+        have := countP_take_mono (bitOf n) S hi p (by omega)
+        omega
+      -- the element found is the one that sits at `p'` on the next level
+      have hpg := partition_get n S p hp
+      rw [s2] at hpg
+      simp only [if_true] at hpg
+      have hpe : S.countP (fun c => !bitOf n c) + (S.take p).countP (bitOf n) = p' := by omega
+      rw [hpe, List.getElem?_eq_getElem hp'] at hpg
+      have hel : (partitionLevel n S)[p'] = S[p] := Option.some.inj hpg
+      refine ⟨p, hp, rfl, hlo, hhi', ?_, ?_⟩
+      · have := hsplit S[p]
+        have g4' : S[p] % 2 ^ n = code % 2 ^ n := by rw [← hel]; exact g4
+        rw [s2, hcb, g4'] at this
+        simpa using this
+      · have hsl := slice_right (bitOf n) S (S.filter (fun c => !bitOf n c)) lo p hlo
+        rw [← List.countP_eq_length_filter, hpe] at hsl
+        unfold partitionLevel at g5
+        rw [hsl, List.countP_filter] at g5
+        rw [← g5]
+        apply List.countP_congr
+        intro x _
+        rw [hsplit x, hcb]
+        cases bitOf n x <;> simp
+    · have hcf : bitOf n code = false := by simpa using hcb
+      rw [hcf] at hd
+      simp only [Bool.not_false, if_true] at hd
+      rw [hlv.rank0, hlv.rank0] at hd
+      simp only at hd
+      have hmono := countP_take_mono (fun c => !bitOf n c) S lo hi hlh
+      have hle := countP_take_le_len (fun c => !bitOf n c) S hi
+      have hcl := List.countP_le_length (p := fun c => !bitOf n c) (l := S)
+      obtain ⟨p', hp', g1, g2, g3, g4, g5⟩ := ih (partitionLevel n S) rest h2 hnt'
+        ((S.take lo).countP (fun c => !bitOf n c)) ((S.take hi).countP (fun c => !bitOf n c))
+        hmono (by rw [hplen]; omega) lo' hi' hd hk
+      rw [g1]
+      simp only [Nat.zero_add, List.length_reverse, hrl, ascend, hcf, Bool.not_false, if_true]
+      rw [hlv.sel0]
+      obtain ⟨p, hp, s1, s2, s3⟩ := select_false_map (bitOf n) S p' (by omega)
+      rw [s1]
+      simp only
+      have hps := countP_take_succ (fun c => !bitOf n c) S p hp
+      simp only [s2, Bool.not_false, if_true] at hps
+      have hlo : lo ≤ p := by
+        apply Classical.byContradiction; intro hn
+        have := countP_take_mono (fun c => !bitOf n c) S (p + 1) lo (by omega)
+        omega
+      have hhi' : p < hi := by
+        apply Classical.byContradiction; intro hn
+        have := countP_take_mono (fun c => !bitOf n c) S hi p (by omega)
+        omega
+      have hpg := partition_get n S p hp
+      rw [s2] at hpg
+      simp only [Bool.false_eq_true, if_false] at hpg
+      rw [s3, List.getElem?_eq_getElem hp'] at hpg
+      have hel : (partitionLevel n S)[p'] = S[p] := Option.some.inj hpg
+      refine ⟨p, hp, rfl, hlo, hhi', ?_, ?_⟩
+      · have := hsplit S[p]
+        have g4' : S[p] % 2 ^ n = code % 2 ^ n := by rw [← hel]; exact g4
+        rw [s2, hcf, g4'] at this
+        simpa using this
+      · have hsl := slice_left (fun c => !bitOf n c) S (S.filter (bitOf n)) lo p hlo
+        rw [s3] at hsl
+        unfold partitionLevel at g5
+        rw [hsl, List.countP_filter] at g5
+        rw [← g5]
+        apply List.countP_congr
+        intro x _
+        rw [hsplit x, hcf]
+        cases bitOf n x <;> simp
+
+
+set_option maxRecDepth 40000
+
+theorem symSelect_eq (s : Nat) (l : List Nat) (k off : Nat) :
+    Spec.symSelect s l k off = Spec.select true (l.map (· == s)) k off := by
+  induction l generalizing k off with
+  | nil => rfl
+  | cons x xs ih =>
+    simp only [Spec.symSelect, List.map_cons, Spec.select, ih]
+    by_cases hx : (x == s) = true
+    · simp [hx]
+    · have : (x == s) = false := by simpa using hx
+      simp [this]
+
+/-- codes agree on the low `h` bits exactly when the symbols agree -/
+theorem code_match (seq : List Nat) (sym c : Nat) (hc1 : codeOf (sortDedup seq) sym = some c)
+    (hc2 : (sortDedup seq)[c]? = some sym)
+    (hc3 : c < 2 ^ (if (sortDedup seq).length ≤ 1 then 1 else bitLen ((sortDedup seq).length - 1)))
+    (x : Nat) (hx : x ∈ seq) :
+    ((codeOf (sortDedup seq) x).getD 0 %
+        2 ^ (if (sortDedup seq).length ≤ 1 then 1 else bitLen ((sortDedup seq).length - 1)) ==
+      c % 2 ^ (if (sortDedup seq).length ≤ 1 then 1 else bitLen ((sortDedup seq).length - 1))) =
+      (x == sym) := by
+  obtain ⟨cx, hx1, hx2, hx3⟩ := code_of_mem seq x hx
+  simp only [hx1, Option.getD_some]
+  rw [Nat.mod_eq_of_lt hx3, Nat.mod_eq_of_lt hc3]
+  by_cases hxs : x = sym
+  · subst hxs
+    rw [hc1] at hx1; cases hx1; simp
+  · have : cx ≠ c := by
+      intro h; subst h
+      rw [hc2] at hx2; cases hx2; exact hxs rfl
+    have h1 : (cx == c) = false := by simpa using this
+    have h2 : (x == sym) = false := by simpa using hxs
+    rw [h1, h2]
+
+/-- P: `select(symbol, k)` is the position of the `k`-th occurrence of `symbol` (0-indexed), `None`
+when there are not that many — under the same hypothesis. -/
+theorem c15b_wt_select_partial (seq : List Nat) (w : WT) (hw : WT.new seq = .ok w)
+    (hnt : AllNoTrunc w.levels) (sym k : Nat) : w.select sym k = .ok (Spec.symSelect sym seq k 0) := by
+  rw [symSelect_eq]
+  by_cases hne : seq = []
+  · subst hne
+    simp [WT.new] at hw; subst hw
+    simp [WT.select, Spec.select]
+  obtain ⟨levels, h1, h2⟩ := wtNew_nonempty seq hne
+  rw [h1] at hw
+  cases hw
+  simp only at hnt
+  have hlen0 : seq.length ≠ 0 := fun h => hne (List.length_eq_zero_iff.mp h)
+  unfold WT.select
+  simp only
+  rw [if_neg hlen0]
+  by_cases hmem : sym ∈ seq
+  · obtain ⟨c, hc1, hc2, hc3⟩ := code_of_mem seq sym hmem
+    rw [hc1]
+    simp only
+    have hcl : (seq.map (fun s => (codeOf (sortDedup seq) s).getD 0)).length = seq.length := by simp
+    obtain ⟨lo', hi', g1, g2, g3⟩ := descend_spec _ _ levels h2 hnt c 0 seq.length
+      (Nat.zero_le _) (by rw [hcl]; exact Nat.le_refl _)
+    rw [g1]
+    simp only
+    rw [if_neg (by omega)]
+    -- counting on codes = counting on symbols
+    have hcount : ∀ p, p ≤ seq.length →
+        (slice (seq.map (fun s => (codeOf (sortDedup seq) s).getD 0)) 0 p).countP
+          (fun x => x % 2 ^ (if (sortDedup seq).length ≤ 1 then 1 else bitLen ((sortDedup seq).length - 1)) ==
+            c % 2 ^ (if (sortDedup seq).length ≤ 1 then 1 else bitLen ((sortDedup seq).length - 1))) =
+        (seq.take p).countP (· == sym) := by
+      intro p _
+      unfold slice
+      rw [List.drop_zero, ← List.map_take, List.countP_map]
+      apply List.countP_congr
+      intro x hx
+      have := code_match seq sym c hc1 hc2 hc3 x (List.mem_of_mem_take hx)
+      simp only [Function.comp]
+      rw [this]
+    rw [hcount seq.length (Nat.le_refl _), List.take_length] at g3
+    by_cases hk : k ≥ hi' - lo'
+    · rw [if_pos hk]
+      congr 1
+      symm
+      apply specSelect_none
+      rw [List.filter_map, List.length_map, ← List.countP_eq_length_filter]
+      have : seq.countP ((fun x => x == true) ∘ fun x => x == sym) = seq.countP (· == sym) := by
+        apply List.countP_congr; intro x _; simp
+      rw [this]; omega
+    · rw [if_neg hk]
+      obtain ⟨p, hp, a1, a2, a3, a4, a5⟩ := ascend_spec _ _ levels h2 hnt c 0 seq.length
+        (Nat.zero_le _) (by rw [hcl]; exact Nat.le_refl _) lo' hi' g1 k (by omega)
+      rw [a1]
+      congr 2
+      rw [hcl] at hp
+      rw [hcount p (by omega)] at a5
+      have hsym : seq[p] = sym := by
+        have := code_match seq sym c hc1 hc2 hc3 seq[p] (List.getElem_mem hp)
+        simp only [List.getElem_map] at a4
+        rw [a4] at this
+        simpa using this.symm
+      have := specSelect_of true (seq.map (· == sym)) k 0 p (by simpa using hp) (by simp [hsym]) (by
+        rw [← List.map_take, List.filter_map, List.length_map, ← List.countP_eq_length_filter]
+        rw [← a5]
+        apply List.countP_congr; intro x _; simp)
+      rw [this, Nat.zero_add]
+  · have hnone : codeOf (sortDedup seq) sym = none := by
+      unfold codeOf
+      cases h : (sortDedup seq).idxOf? sym with
+      | none => rfl
+      | some c =>
+        have := idxOf?_some_get _ _ _ h
+        have hm : sym ∈ sortDedup seq := by
+          obtain ⟨hl, he⟩ := List.getElem?_eq_some_iff.mp this
+          rw [← he]; exact List.getElem_mem hl
+        exact absurd ((mem_sortDedup sym seq).mp hm) hmem
+    rw [hnone]
+    simp only
+    congr 1
+    symm
+    apply specSelect_none
+    have : (seq.map (· == sym)).filter (· == true) = [] := by
+      rw [List.filter_eq_nil_iff]
+      intro b hb
+      obtain ⟨x, hx, rfl⟩ := List.mem_map.mp hb
+      have : x ≠ sym := fun h => hmem (h ▸ hx)
+      simpa using this
+    rw [this]; simp
+
+
+set_option maxRecDepth 40000
+
+/-! ### the model's boolean `noTrunc` is the hypothesis `NoTrunc` -/
+
+theorem noTruncLoop_iff (data : List Nat) (len : Nat) (ws : List Nat) (i ones sbStart : Nat)
+    (hws : ∀ j, ws[j]? = data[i + j]?) (hones : ones = cum data len i)
+    (hst : i % 8 ≠ 0 → sbStart = cum data len (8 * (i / 8))) :
+    noTruncLoop len i ones sbStart ws = true ↔
+      ∀ b, i ≤ b → b < i + ws.length → cum data len b - cum data len (8 * (b / 8)) < 256 := by
+  induction ws generalizing i ones sbStart with
+  | nil =>
+    simp only [noTruncLoop, List.length_nil, Nat.add_zero, true_iff]
+    intro b h1 h2; omega
+  | cons w ws ih =>
+    have hw : data[i]? = some w := by have := hws 0; simp at this; exact this.symm
+    have hstart : (if i % 8 = 0 then ones else sbStart) = cum data len (8 * (i / 8)) := by
+      by_cases h8 : i % 8 = 0
+      · rw [if_pos h8, hones]; congr 1; omega
+      · rw [if_neg h8, hst h8]
+    unfold noTruncLoop
+    rw [Bool.and_eq_true, decide_eq_true_eq, hstart]
+    have hrec := ih (i + 1) (ones + wordOnes len i w) (cum data len (8 * (i / 8)))
+      (by intro j; have := hws (j + 1); simp only [List.getElem?_cons_succ] at this; rw [this]; congr 1; omega)
+      (by rw [hones]; exact cum_step data len i w hw)
+      (by intro h; congr 2; omega)
+    rw [hrec, hones]
+    constructor
+    · rintro ⟨h0, hr⟩ b hb1 hb2
+      by_cases hbi : b = i
+      · subst hbi; exact h0
+      · exact hr b (by omega) (by simp only [List.length_cons] at hb2; omega)
+    · intro h
+      refine ⟨h i (Nat.le_refl _) (by simp), ?_⟩
+      intro b hb1 hb2
+      exact h b (by omega) (by simp only [List.length_cons]; omega)
+
+/-- F: the decidable test of the model (`BVec.noTrunc`, used by the stream to name deviations) is
+exactly the hypothesis of the rank/select theorems. -/
+theorem c15b_noTrunc_iff (v : BVec) : v.noTrunc = true ↔ NoTrunc v := by
+  unfold BVec.noTrunc NoTrunc
+  rw [noTruncLoop_iff v.data v.len v.data 0 0 0 (by intro j; simp) (by simp [cum_zero]) (by intro h; omega)]
+  constructor
+  · intro h b hb; exact h b (Nat.zero_le _) (by omega)
+  · intro h b _ hb; exact h b (by omega)
 
 
 end Grafeo.Codec2
